@@ -4,38 +4,41 @@ from __future__ import annotations
 import ast
 
 from ..core import Ctx
-from ..match import Fact, _atoms_with_polarity, arg, call_name, calls, facts_at, local_defs, mentions, resolve, single_def, stores
-from ..model import AnalysisError, FuncInfo, ancestors, chain, const_value, enclosing_stmt, norm, parent, strip_cast, walk_no_nested
+from ..match import Fact, _atoms_with_polarity, arg, call_name, facts_at, local_defs, resolve, single_def
+from ..model import NOCONST, AnalysisError, FuncInfo, ancestors, chain, clone, const_value, enclosing_stmt, norm, parent, set_parents, strip_cast, \
+    walk_no_nested
 
 LEVEL = "other"
 EXPLANATION = (
     "Local guards from which the tree invariants follow by induction over add/split/remove: a node is stored in a bucket "
-    "only under bucket.owns(node.id) and len(nodes) < max_size; split happens only under bucket.owns(my_node_id), stores "
-    "prefix+'0' and prefix+'1' (from Bucket.split, which redistributes through owns) and deletes the parent before "
-    "retrying; owns is a prefix test on the 160-bit binary id; closest_nodes walks the subtrees from the longest prefix "
-    "outwards, leaves the walk only once it holds at least max_nodes live nodes, filters BAD nodes, sorts by XOR "
-    "distance to the target and truncates; the refresh id is the bucket's prefix followed by 160-len(prefix) random "
-    "bits (taint: the prefix characters, not just its length, flow into the result). Tree shape over long histories is "
-    "not executed."
+    "only under bucket.owns(node.id) and len(nodes) < max_size (and nowhere outside Bucket.add); split happens only under "
+    "bucket.owns(my_node_id) after Bucket.add refused the node, stores prefix+'0' -> first half and prefix+'1' -> second "
+    "half (from Bucket.split, which redistributes through owns), deletes the parent afterwards on every path and then "
+    "retries; Trie.__delitem__ never returns without having cleared the value; owns is a prefix test on the 160-bit "
+    "binary id; closest_nodes walks the subtrees from the longest prefix outwards, leaves the walk only after a complete "
+    "level and once it holds at least max_nodes live nodes, admits no BAD node, sorts by XOR distance to the target and "
+    "truncates; the refresh id is the bucket's prefix followed by 160-len(prefix) random bits (taint: the prefix "
+    "characters, not just its length, flow into the result). Constructs are recognised by what they compute: guards are "
+    "dominating CFG conditions closed under flag / decision locals (all assignments, checked against intervening "
+    "mutations), predicate helpers, closures, lambdas, generators and filters; stores, calls and exits are followed "
+    "into the private helpers of the call tree with parameters bound to the caller's arguments; loops over literal "
+    "sequences are unrolled; values are followed through all reaching definitions. A guard that is missing where the "
+    "construct IS recognised is a violation; a construct that is not recognisable at all (state machine, match "
+    "statement, recursion instead of the level loop, arithmetic re-implementation of a string test) is reported as "
+    "undecided. Tree shape over long histories is not executed."
 )
 
 RT = "ipv8/dht/routing.py"
+TRIE = "ipv8/dht/trie.py"
 
 _COMPS = (ast.ListComp, ast.SetComp, ast.GeneratorExp)
+_FUNCS = (ast.FunctionDef, ast.AsyncFunctionDef)
 
 
-# ----------------------------------------------------------------------------------- helpers
+# ----------------------------------------------------------------------------------- expression helpers
 def _copy(e):
-    """Copy of the syntax fields only.  (copy.deepcopy would follow the engine's `_parent` back-links and copy the whole
-    module, deep enough to exhaust the recursion limit.)"""
-    if isinstance(e, ast.AST):
-        new = e.__class__()
-        for f, v in ast.iter_fields(e):
-            setattr(new, f, _copy(v))
-        return new
-    if isinstance(e, list):
-        return [_copy(x) for x in e]
-    return e
+    """Copy of the syntax fields only (never follows the engine's `_parent` back-links)."""
+    return clone(e)
 
 
 def _expand(fi: FuncInfo, e: ast.AST, stop=(), depth: int = 6) -> ast.AST:
@@ -44,14 +47,27 @@ def _expand(fi: FuncInfo, e: ast.AST, stop=(), depth: int = 6) -> ast.AST:
         def visit_Name(self, n):
             if depth > 0 and isinstance(n.ctx, ast.Load) and n.id not in stop:
                 d = single_def(fi, n.id)
-                if d is not None and d[1] is None:
+                if d is not None and d[1] is None and not isinstance(strip_cast(d[0]), (ast.Lambda, ast.Yield, ast.YieldFrom, ast.Await)):
                     return _expand(fi, strip_cast(d[0]), stop, depth - 1)
+                if d is not None and isinstance(d[1], int):
+                    el = _elem_of_name(fi, n.id)                         # a, b = <statically known sequence>
+                    if el is not None and not (isinstance(el, ast.Subscript) and isinstance(el.value, ast.Name) and el.value.id == n.id):
+                        return _expand(fi, strip_cast(el), stop, depth - 1)
             return n
     return T().visit(_copy(e))
 
 
 def _xnorm(fi: FuncInfo, e: ast.AST, stop=()) -> str:
     return norm(_expand(fi, e, stop))
+
+
+def _subst(e: ast.AST, env: dict[str, ast.AST]) -> ast.AST:
+    class T(ast.NodeTransformer):
+        def visit_Name(self, n):
+            if isinstance(n.ctx, ast.Load) and n.id in env:
+                return _copy(env[n.id])
+            return n
+    return T().visit(_copy(e))
 
 
 def _names_shape(e: ast.AST):
@@ -64,12 +80,1055 @@ def _names_shape(e: ast.AST):
     return None
 
 
+def _target_names(t: ast.AST) -> set[str]:
+    return {n.id for n in ast.walk(t) if isinstance(n, ast.Name)}
+
+
 def _strip_snapshot(e: ast.AST) -> ast.AST:
     """list(x) / tuple(x) of one positional argument keep the elements and their order."""
     while isinstance(e, ast.Call) and isinstance(e.func, ast.Name) and e.func.id in ("list", "tuple") and len(e.args) == 1 and not e.keywords \
             and not isinstance(e.args[0], ast.Starred):
         e = e.args[0]
     return e
+
+
+def _strip_collection_wrap(e: ast.AST) -> ast.AST:
+    while isinstance(e, ast.Call) and isinstance(e.func, ast.Name) and e.func.id in ("set", "frozenset", "list", "tuple", "iter") and len(e.args) == 1 \
+            and not e.keywords and not isinstance(e.args[0], ast.Starred):
+        e = e.args[0]
+    return e
+
+
+def _fkey(f: Fact):
+    return (f.op, norm(f.left), norm(f.right) if f.right is not None else None, f.pos)
+
+
+def _intersect(per: list[list[Fact]]) -> list[Fact]:
+    if not per:
+        return []
+    keys = [{_fkey(f) for f in fs} for fs in per[1:]]
+    return [f for f in per[0] if all(_fkey(f) in k for k in keys)]
+
+
+def _fold(e: ast.AST) -> ast.AST:
+    """Constant folding of the few spellings a literal can take after unrolling: 'ab'[0], ('a','b')[1], str(0), 'a'+'b', f'{"a"}'."""
+    class T(ast.NodeTransformer):
+        def visit_Subscript(self, n):
+            self.generic_visit(n)
+            i = const_value(n.slice)
+            if isinstance(i, int) and not isinstance(i, bool):
+                v = n.value
+                if isinstance(v, ast.Constant) and isinstance(v.value, (str, tuple)) and -len(v.value) <= i < len(v.value):
+                    return ast.copy_location(ast.Constant(value=v.value[i]), n)
+                if isinstance(v, (ast.Tuple, ast.List)) and not any(isinstance(x, ast.Starred) for x in v.elts) and -len(v.elts) <= i < len(v.elts):
+                    return v.elts[i]
+            return n
+
+        def visit_Call(self, n):
+            self.generic_visit(n)
+            if isinstance(n.func, ast.Name) and n.func.id == "str" and len(n.args) == 1 and not n.keywords and isinstance(n.args[0], ast.Constant) \
+                    and isinstance(n.args[0].value, (int, str)) and not isinstance(n.args[0].value, bool):
+                return ast.copy_location(ast.Constant(value=str(n.args[0].value)), n)
+            return n
+
+        def visit_BinOp(self, n):
+            self.generic_visit(n)
+            if isinstance(n.op, ast.Add) and isinstance(n.left, ast.Constant) and isinstance(n.right, ast.Constant) \
+                    and isinstance(n.left.value, str) and isinstance(n.right.value, str):
+                return ast.copy_location(ast.Constant(value=n.left.value + n.right.value), n)
+            return n
+    return T().visit(e)
+
+
+def _str_parts(e: ast.AST) -> list | None:
+    """A string built by + / f-string as a list of parts: str for literal text, ('e', normalised text) for an expression."""
+    e = _fold(_copy(e))
+    out: list = []
+
+    def add(x) -> bool:
+        if isinstance(x, ast.Constant) and isinstance(x.value, (str, int)) and not isinstance(x.value, bool):
+            s = str(x.value)
+            if out and isinstance(out[-1], str):
+                out[-1] += s
+            elif s:
+                out.append(s)
+            return True
+        if isinstance(x, ast.BinOp) and isinstance(x.op, ast.Add):
+            return add(x.left) and add(x.right)
+        if isinstance(x, ast.JoinedStr):
+            for v in x.values:
+                if isinstance(v, ast.FormattedValue):
+                    if v.conversion != -1 or v.format_spec is not None:
+                        return False
+                    if not add(v.value):
+                        return False
+                elif not add(v):
+                    return False
+            return True
+        if isinstance(x, ast.Call) and isinstance(x.func, ast.Attribute) and x.func.attr == "join" and const_value(x.func.value) == "" and len(x.args) == 1 \
+                and isinstance(x.args[0], (ast.Tuple, ast.List)) and not x.keywords and not any(isinstance(y, ast.Starred) for y in x.args[0].elts):
+            return all(add(y) for y in x.args[0].elts)
+        if isinstance(x, ast.Call) and isinstance(x.func, ast.Attribute) and x.func.attr == "format" and isinstance(const_value(x.func.value), str) \
+                and not x.keywords and const_value(x.func.value) == "{}" * len(x.args) and not any(isinstance(y, ast.Starred) for y in x.args):
+            return all(add(y) for y in x.args)
+        if isinstance(x, (ast.Name, ast.Attribute, ast.Subscript, ast.Call)):
+            out.append(("e", norm(x)))
+            return True
+        return False
+    return out if add(e) else None
+
+
+# ----------------------------------------------------------------------------------- statically known sequences
+def _is_split_call(e: ast.AST) -> bool:
+    return isinstance(e, ast.Call) and isinstance(e.func, ast.Attribute) and e.func.attr == "split" and not e.args and not e.keywords \
+        and not isinstance(e.func.value, (ast.Constant, ast.JoinedStr))
+
+
+def _split_of(e: ast.AST) -> ast.Call | None:
+    """e is <bucket>.split(), or that call guarded inside the expression (`b.split() if c else None`, `c and b.split()`):
+    whenever the value is a pair it is the pair split() returned."""
+    e = strip_cast(e)
+    if isinstance(e, ast.NamedExpr):
+        e = strip_cast(e.value)
+    if _is_split_call(e):
+        return e
+    if isinstance(e, ast.IfExp):
+        a, b = strip_cast(e.body), strip_cast(e.orelse)
+        for x, y in ((a, b), (b, a)):
+            if _is_split_call(x) and isinstance(y, ast.Constant) and not y.value:
+                return x
+    if isinstance(e, ast.BoolOp) and isinstance(e.op, ast.And) and _is_split_call(strip_cast(e.values[-1])):
+        return strip_cast(e.values[-1])
+    return None
+
+
+def _elems(fi: FuncInfo, e: ast.AST, depth: int = 6) -> list[ast.AST] | None:
+    """Elements of an expression that statically denotes a sequence of known length (literal, zip/enumerate/reversed of
+    such, comprehension over such without filter, the two halves of <bucket>.split()), else None."""
+    if depth <= 0 or e is None:
+        return None
+    e = _strip_snapshot(strip_cast(e))
+    if isinstance(e, ast.Constant) and isinstance(e.value, str):
+        return [ast.copy_location(ast.Constant(value=c), e) for c in e.value] if len(e.value) <= 8 else None
+    if isinstance(e, (ast.Tuple, ast.List)):
+        return None if any(isinstance(x, ast.Starred) for x in e.elts) or len(e.elts) > 8 else list(e.elts)
+    if isinstance(e, ast.Name):
+        d = single_def(fi, e.id)
+        if d is None:
+            return None
+        if d[1] is None:
+            v = strip_cast(d[0])
+            if _split_of(v) is not None:
+                return [ast.copy_location(ast.Subscript(value=ast.Name(id=e.id, ctx=ast.Load()), slice=ast.Constant(value=i), ctx=ast.Load()), e) for i in (0, 1)]
+            return _elems(fi, v, depth - 1)
+        outer = _elems(fi, d[0], depth - 1)
+        if outer is not None and isinstance(d[1], int) and d[1] < len(outer):
+            return _elems(fi, outer[d[1]], depth - 1)
+        return None
+    if isinstance(e, ast.Subscript):
+        i = const_value(e.slice)
+        pairs = _dict_pairs(fi, e.value, depth - 1) if isinstance(i, str) else None
+        if pairs is not None:
+            hit = [v for k, v in pairs if const_value(k) == i]
+            return _elems(fi, hit[-1], depth - 1) if hit else None
+        base = _elems(fi, e.value, depth - 1)
+        if base is not None and isinstance(i, int) and -len(base) <= i < len(base):
+            return _elems(fi, base[i], depth - 1)
+        return None
+    if isinstance(e, ast.Call) and not e.keywords and not any(isinstance(a, ast.Starred) for a in e.args):
+        c = chain(e.func)
+        if c == "zip" and e.args:
+            cols = [_elems(fi, a, depth - 1) for a in e.args]
+            if any(col is None for col in cols):
+                return None
+            n = min(len(col) for col in cols)
+            return [ast.copy_location(ast.Tuple(elts=[col[i] for col in cols], ctx=ast.Load()), e) for i in range(n)]
+        if c == "enumerate" and 1 <= len(e.args) <= 2:
+            col = _elems(fi, e.args[0], depth - 1)
+            start = const_value(e.args[1]) if len(e.args) == 2 else 0
+            if col is None or not isinstance(start, int):
+                return None
+            return [ast.copy_location(ast.Tuple(elts=[ast.Constant(value=start + i), x], ctx=ast.Load()), e) for i, x in enumerate(col)]
+        if c == "reversed" and len(e.args) == 1:
+            col = _elems(fi, e.args[0], depth - 1)
+            return None if col is None else list(reversed(col))
+        if c == "range" and 1 <= len(e.args) <= 3:
+            vals = [const_value(a) for a in e.args]
+            if all(isinstance(v, int) for v in vals) and len(range(*vals)) <= 8:
+                return [ast.copy_location(ast.Constant(value=i), e) for i in range(*vals)]
+            return None
+        if isinstance(e.func, ast.Attribute) and e.func.attr in ("items", "values", "keys") and not e.args:
+            pairs = _dict_pairs(fi, e.func.value, depth - 1)
+            if pairs is None:
+                return None
+            if e.func.attr == "keys":
+                return [k for k, _v in pairs]
+            if e.func.attr == "values":
+                return [v for _k, v in pairs]
+            return [ast.copy_location(ast.Tuple(elts=[k, v], ctx=ast.Load()), e) for k, v in pairs]
+        if _is_split_call(e):
+            return [ast.copy_location(ast.Subscript(value=e, slice=ast.Constant(value=i), ctx=ast.Load()), e) for i in (0, 1)]
+        return None
+    if isinstance(e, (ast.ListComp, ast.GeneratorExp)) and len(e.generators) == 1 and not e.generators[0].ifs and not e.generators[0].is_async:
+        g = e.generators[0]
+        col = _elems(fi, g.iter, depth - 1)
+        if col is None:
+            return None
+        out = []
+        for x in col:
+            b = _bind(g.target, x)
+            if b is None:
+                return None
+            out.append(_fold(_subst(e.elt, b)))
+        return out
+    return None
+
+
+def _dict_pairs(fi: FuncInfo, e: ast.AST, depth: int) -> list[tuple[ast.AST, ast.AST]] | None:
+    """(key, value) expressions of a dict literal / dict(<static pairs>) / dict comprehension over a static sequence,
+    possibly held in a single-assignment local that is not modified (insertion order = iteration order)"""
+    e = strip_cast(e)
+    if depth <= 0:
+        return None
+    if isinstance(e, ast.Name):
+        d = single_def(fi, e.id)
+        if d is None or d[1] is not None:
+            return None
+        for n in walk_no_nested(fi.node):
+            if isinstance(n, ast.Subscript) and isinstance(n.ctx, (ast.Store, ast.Del)) and isinstance(n.value, ast.Name) and n.value.id == e.id:
+                return None
+            if isinstance(n, ast.Call) and isinstance(n.func, ast.Attribute) and isinstance(n.func.value, ast.Name) and n.func.value.id == e.id \
+                    and n.func.attr in _DICT_MUTATORS:
+                return None
+        return _dict_pairs(fi, d[0], depth - 1)
+    if isinstance(e, ast.Dict):
+        if any(k is None for k in e.keys) or len(e.keys) > 8:
+            return None
+        return list(zip(e.keys, e.values))
+    if isinstance(e, ast.Call) and chain(e.func) == "dict" and len(e.args) == 1 and not e.keywords:
+        col = _elems(fi, e.args[0], depth - 1)
+        if col is None or not all(isinstance(x, (ast.Tuple, ast.List)) and len(x.elts) == 2 for x in col):
+            return None
+        return [(x.elts[0], x.elts[1]) for x in col]
+    if isinstance(e, ast.DictComp) and len(e.generators) == 1 and not e.generators[0].ifs and not e.generators[0].is_async:
+        g = e.generators[0]
+        col = _elems(fi, g.iter, depth - 1)
+        if col is None:
+            return None
+        out = []
+        for x in col:
+            b = _bind(g.target, x)
+            if b is None:
+                return None
+            out.append((_fold(_subst(e.key, b)), _fold(_subst(e.value, b))))
+        return out
+    return None
+
+
+_DICT_MUTATORS = {"pop", "popitem", "clear", "update", "setdefault", "__setitem__", "__delitem__"}
+
+
+def _bind(target: ast.AST, elem: ast.AST) -> dict[str, ast.AST] | None:
+    """Loop target := element, as a substitution of the target's names."""
+    if isinstance(target, ast.Name):
+        return {target.id: elem}
+    if isinstance(target, (ast.Tuple, ast.List)) and not any(isinstance(t, ast.Starred) for t in target.elts):
+        out: dict[str, ast.AST] = {}
+        for i, t in enumerate(target.elts):
+            if isinstance(elem, (ast.Tuple, ast.List)) and len(elem.elts) == len(target.elts):
+                sub = elem.elts[i]
+            else:
+                sub = ast.Subscript(value=elem, slice=ast.Constant(value=i), ctx=ast.Load())
+            b = _bind(t, sub)
+            if b is None:
+                return None
+            out.update(b)
+        return out
+    return None
+
+
+def _elem_of_name(fi: FuncInfo, name: str) -> ast.AST | None:
+    """`a, b = <static sequence>`: the element bound to the name."""
+    d = single_def(fi, name)
+    if d is None or d[1] is None or not isinstance(d[1], int):
+        return None
+    col = _elems(fi, d[0])
+    return col[d[1]] if col is not None and d[1] < len(col) else None
+
+
+_VIEWS: dict = {}
+
+
+def _view(ctx: Ctx, fi: FuncInfo) -> FuncInfo:
+    """The function with every `for` over a statically known sequence unrolled (no break/continue/else, targets not
+    rebound): the same statements in the same order, so verdicts about the view are verdicts about the function."""
+    cache = ctx.__dict__.setdefault("_c14_views", {})      # (not ctx.extra: that is written to the evidence file)
+    if id(fi.node) in cache:
+        return cache[id(fi.node)]
+    changed = [False]
+
+    def own_jump(stmts) -> bool:
+        """a break / continue that belongs to this loop"""
+        todo = list(stmts)
+        while todo:
+            n = todo.pop()
+            if isinstance(n, (ast.Break, ast.Continue)):
+                return True
+            if isinstance(n, (ast.For, ast.AsyncFor, ast.While, *_FUNCS, ast.ClassDef, ast.Lambda)):
+                todo.extend(getattr(n, "orelse", []) if not isinstance(n, (*_FUNCS, ast.ClassDef, ast.Lambda)) else [])
+                continue
+            todo.extend(ast.iter_child_nodes(n))
+        return False
+
+    def unroll(stmts: list) -> list:
+        out = []
+        for st in stmts:
+            for f in ("body", "orelse", "finalbody"):
+                if isinstance(getattr(st, f, None), list) and not isinstance(st, (*_FUNCS, ast.ClassDef)) and getattr(st, f) \
+                        and isinstance(getattr(st, f)[0], ast.stmt):
+                    setattr(st, f, unroll(getattr(st, f)))
+            for h in getattr(st, "handlers", []) or []:
+                h.body = unroll(h.body)
+            if isinstance(st, ast.For) and not st.orelse and not own_jump(st.body):
+                col = _elems(fi, _orig.get(id(st.iter), st.iter))
+                names = _target_names(st.target)
+                rebound = any(isinstance(n, ast.Name) and isinstance(n.ctx, (ast.Store, ast.Del)) and n.id in names for s in st.body for n in ast.walk(s))
+                if col is not None and not rebound:
+                    binds = [_bind(st.target, x) for x in col]
+                    if all(b is not None for b in binds):
+                        for b in binds:
+                            for s in st.body:
+                                new = _fold(_subst(s, b))
+                                ast.copy_location(new, s)
+                                out.append(new)
+                        changed[0] = True
+                        continue
+            out.append(st)
+        return out
+
+    # _elems resolves names in the original function (single_def needs its FuncInfo); map cloned iter nodes back to the originals
+    node = clone(fi.node)
+    _orig: dict[int, ast.AST] = {}
+    for a, b in zip(ast.walk(fi.node), ast.walk(node)):
+        _orig[id(b)] = a
+    node.body = unroll(node.body)
+    if not changed[0]:
+        cache[id(fi.node)] = fi
+        return fi
+    ast.fix_missing_locations(node)
+    set_parents(node)
+    v = FuncInfo(fi.name, fi.qualname, node, fi.module, fi.cls)
+    cache[id(fi.node)] = v
+    cache[id(node)] = v
+    return v
+
+
+# ----------------------------------------------------------------------------------- callee resolution, frames
+def _info_for(ctx: Ctx, node, fi: FuncInfo) -> FuncInfo:
+    got = getattr(node, "_info", None)
+    if got is not None:
+        return got
+    cache = ctx.__dict__.setdefault("_c14_infos", {})
+    if id(node) not in cache:
+        cache[id(node)] = FuncInfo(node.name, fi.qualname + "." + node.name, node, fi.module, fi.cls)
+    return cache[id(node)]
+
+
+def _callee(ctx: Ctx, fi: FuncInfo, call: ast.Call):
+    """The function a call runs, when it is decidable from the syntax: a closure of fi, a lambda held in a local, a function
+    of the same module, a method of fi's class called on self / the class.  (FuncInfo | ast.Lambda | None, binds_self)"""
+    f = call.func
+    if isinstance(f, ast.Lambda):
+        return f, False
+    if isinstance(f, ast.Name):
+        for n in walk_no_nested(fi.node):
+            if isinstance(n, _FUNCS) and n is not fi.node and n.name == f.id:
+                return _info_for(ctx, n, fi), False
+        d = single_def(fi, f.id)
+        if d is not None and d[1] is None and isinstance(strip_cast(d[0]), ast.Lambda):
+            return strip_cast(d[0]), False
+        # a closure defined in the enclosing function (fi itself nested)
+        for a in ancestors(fi.node):
+            if isinstance(a, _FUNCS):
+                for n in walk_no_nested(a):
+                    if isinstance(n, _FUNCS) and n is not a and n.name == f.id:
+                        return _info_for(ctx, n, fi), False
+        g = fi.module.functions.get(f.id)
+        if g is not None:
+            return g, False
+        return None, False
+    if isinstance(f, ast.Attribute) and isinstance(f.value, ast.Name) and fi.cls is not None:
+        if f.value.id in ("self", "cls") or f.value.id == fi.cls.name:
+            m = fi.cls.lookup(f.attr)
+            if m is not None and m.module is fi.module:
+                static = "staticmethod" in m.decorator_names()
+                return m, (not static and f.value.id != fi.cls.name) or ("classmethod" in m.decorator_names())
+    return None, False
+
+
+def _bind_args(fn, call: ast.Call, binds_self: bool) -> dict[str, ast.AST] | None:
+    """parameter name -> argument expression (caller's vocabulary); None when not decidable (star args)."""
+    a = fn.args
+    if a.vararg or a.kwarg or any(isinstance(x, ast.Starred) for x in call.args) or any(k.arg is None for k in call.keywords):
+        return None
+    pos = [x.arg for x in a.posonlyargs + a.args]
+    env: dict[str, ast.AST] = {}
+    if binds_self and pos:
+        env[pos[0]] = call.func.value if isinstance(call.func, ast.Attribute) else ast.Name(id="self", ctx=ast.Load())
+        pos = pos[1:]
+    if len(call.args) > len(pos):
+        return None
+    for p, x in zip(pos, call.args):
+        env[p] = x
+    for k in call.keywords:
+        env[k.arg] = k.value
+    defaults = dict(zip([x.arg for x in (a.posonlyargs + a.args)][len(a.posonlyargs + a.args) - len(a.defaults):], a.defaults))
+    defaults.update({x.arg: d for x, d in zip(a.kwonlyargs, a.kw_defaults) if d is not None})
+    for p in pos + [x.arg for x in a.kwonlyargs]:
+        if p not in env:
+            if p not in defaults:
+                return None
+            env[p] = defaults[p]
+    return env
+
+
+def _bound_locals(fn) -> set[str]:
+    out = set()
+    for n in walk_no_nested(fn):
+        if isinstance(n, ast.Name) and isinstance(n.ctx, (ast.Store, ast.Del)):
+            out.add(n.id)
+        elif isinstance(n, ast.ExceptHandler) and n.name:
+            out.add(n.name)
+    return out
+
+
+class _Frame:
+    """One activation in the call tree below an anchor function: the function, the call site in the parent activation and
+    the binding of its parameters to the caller's argument expressions."""
+
+    def __init__(self, ctx: Ctx, fi: FuncInfo, parent_frame: "_Frame | None" = None, site: ast.AST | None = None,
+                 raw_env: dict[str, ast.AST] | None = None, alias: dict[str, str] | None = None, stop=()) -> None:
+        self.ctx, self.fi, self.parent, self.site = ctx, fi, parent_frame, site
+        self.raw_env = raw_env or {}
+        self.alias = alias or {}                 # helper local that IS a caller's name after the call returned
+        self.stop = tuple(stop) if parent_frame is None else parent_frame.stop
+        self.depth = 0 if parent_frame is None else parent_frame.depth + 1
+        self.locals = _bound_locals(fi.node) if parent_frame is not None else set()
+        self.nested_in_parent = parent_frame is not None and any(a is parent_frame.fi.node for a in ancestors(fi.node))
+        self._env: dict[str, ast.AST] | None = None
+
+    def root(self) -> "_Frame":
+        f = self
+        while f.parent is not None:
+            f = f.parent
+        return f
+
+    def stack(self) -> list["_Frame"]:
+        out, f = [], self
+        while f is not None:
+            out.append(f)
+            f = f.parent
+        return out[::-1]
+
+    def tr(self, e: ast.AST, expand: bool = True) -> ast.AST:
+        """e in the vocabulary of the anchor function: helper parameters replaced by the (translated) arguments, pure
+        single-assignment locals expanded (not the anchor's `stop` names), other helper locals tagged with the helper."""
+        if e is None:
+            return None
+        if self.parent is None:
+            return _fold(_expand(self.fi, e, self.stop)) if expand else _copy(e)
+        if self._env is None:
+            self._env = {p: self.parent.tr(x) for p, x in self.raw_env.items()}
+        keep = set(self._env) | set(self.alias)
+        e1 = _expand(self.fi, e, tuple(keep)) if expand else _copy(e)
+        me = self
+
+        class T(ast.NodeTransformer):
+            def __init__(self):
+                self.shadow: list[set[str]] = []
+
+            def visit_Name(self, n):
+                if any(n.id in s for s in self.shadow):
+                    return n
+                if n.id in me._env:
+                    return _copy(me._env[n.id]) if isinstance(n.ctx, ast.Load) else n
+                if n.id in me.alias:
+                    return me.parent.name(me.alias[n.id], n.ctx)
+                if n.id in me.locals:
+                    return ast.copy_location(ast.Name(id=f"{n.id}@{me.fi.name}", ctx=n.ctx), n)
+                if me.nested_in_parent and isinstance(n.ctx, ast.Load):
+                    return me.parent.tr(n)
+                return n
+
+            def visit_Lambda(self, n):
+                a = n.args
+                self.shadow.append({x.arg for x in a.posonlyargs + a.args + a.kwonlyargs})
+                self.generic_visit(n)
+                self.shadow.pop()
+                return n
+        return _fold(T().visit(e1))
+
+    def name(self, ident: str, ctx_=None) -> ast.AST:
+        """a bare local of this frame in the anchor's vocabulary, without expansion"""
+        if self.parent is None:
+            return ast.Name(id=ident, ctx=ctx_ or ast.Load())
+        return self.tr(ast.Name(id=ident, ctx=ctx_ or ast.Load()), expand=False)
+
+    def ntr(self, e: ast.AST, expand: bool = True) -> str:
+        return norm(self.tr(e, expand))
+
+
+def _returned_local(fn) -> str | None:
+    """the one local name every `return` of fn returns, if that is what fn does"""
+    names = set()
+    for n in walk_no_nested(fn):
+        if isinstance(n, ast.Return):
+            if not isinstance(n.value, ast.Name):
+                return None
+            names.add(n.value.id)
+    if len(names) != 1:
+        return None
+    name = next(iter(names))
+    a = fn.args
+    return None if name in {x.arg for x in a.posonlyargs + a.args + a.kwonlyargs} else name
+
+
+def _yield_mirror(fn) -> str | None:
+    """A generator that records exactly what it yields in a local set: `S = set()`, and `S.add(x)` right beside every
+    `yield x` (same block, same x), S not touched otherwise.  Then S holds exactly the distinct elements produced so far,
+    i.e. S is the collection the caller builds from the generator.  Returns S."""
+    ys = [n for n in walk_no_nested(fn) if isinstance(n, ast.Yield)]
+    if not ys or any(isinstance(n, ast.YieldFrom) for n in walk_no_nested(fn)):
+        return None
+    cands = None
+    for y in ys:
+        st = parent(y)
+        blk = None
+        if not (isinstance(st, ast.Expr) and isinstance(y.value, ast.Name)):
+            return None
+        holder = parent(st)
+        for f in ("body", "orelse", "finalbody"):
+            if isinstance(getattr(holder, f, None), list) and st in getattr(holder, f):
+                blk = getattr(holder, f)
+        if blk is None:
+            return None
+        here = {c.value.func.value.id for c in blk if isinstance(c, ast.Expr) and isinstance(c.value, ast.Call) and isinstance(c.value.func, ast.Attribute)
+                and c.value.func.attr == "add" and isinstance(c.value.func.value, ast.Name) and len(c.value.args) == 1
+                and isinstance(c.value.args[0], ast.Name) and c.value.args[0].id == y.value.id}
+        cands = here if cands is None else cands & here
+    for name in sorted(cands or ()):
+        uses = [n for n in walk_no_nested(fn) if isinstance(n, ast.Name) and n.id == name]
+        stores_ = [n for n in uses if isinstance(n.ctx, ast.Store)]
+        adds = [n for n in walk_no_nested(fn) if isinstance(n, ast.Call) and isinstance(n.func, ast.Attribute) and isinstance(n.func.value, ast.Name)
+                and n.func.value.id == name and n.func.attr in _MUTATORS]
+        init = [n for n in walk_no_nested(fn) if isinstance(n, (ast.Assign, ast.AnnAssign)) and n.value is not None
+                and any(isinstance(t, ast.Name) and t.id == name for t in (n.targets if isinstance(n, ast.Assign) else [n.target]))]
+        if len(stores_) == 1 and len(init) == 1 and isinstance(init[0].value, ast.Call) and chain(init[0].value.func) == "set" and not init[0].value.args \
+                and len(adds) == len(ys) and all(a.func.attr == "add" for a in adds):
+            return name
+    return None
+
+
+def _is_generator(fn) -> bool:
+    return any(isinstance(n, (ast.Yield, ast.YieldFrom)) for n in walk_no_nested(fn) if not (isinstance(n, _FUNCS) and n is not fn))
+
+
+class _Closure:
+    """Every syntax node of an anchor function and of the private helpers / closures it calls (call tree, depth-limited,
+    recursion cut), each with its frame."""
+
+    def __init__(self, ctx: Ctx, root_fi: FuncInfo, stop=(), unroll: bool = False, maxdepth: int = 3) -> None:
+        self.ctx, self.unroll, self.maxdepth = ctx, unroll, maxdepth
+        fi = _view(ctx, root_fi) if unroll else root_fi
+        self.root = _Frame(ctx, fi, stop=stop)
+        self.nodes: list[tuple[_Frame, ast.AST]] = []
+        self.frames: list[_Frame] = []
+        self.visited: set[int] = {id(root_fi.node)}                      # original (not view) function nodes of the call tree
+        self._walk(self.root, {id(root_fi.node), id(fi.node)})
+
+    def _walk(self, fr: _Frame, active: set[int]) -> None:
+        self.frames.append(fr)
+        self.visited.add(id(fr.fi.node))
+        for n in walk_no_nested(fr.fi.node):
+            if isinstance(n, (*_FUNCS, ast.Lambda)) and n is not fr.fi.node:
+                continue
+            self.nodes.append((fr, n))
+            if isinstance(n, ast.Call) and fr.depth < self.maxdepth:
+                target, binds_self = _callee(self.ctx, fr.fi, n)
+                if not isinstance(target, FuncInfo) or id(target.node) in active or target.is_async:
+                    continue                                              # (a generator's body runs while it is iterated: same call tree)
+                if isinstance(n.func, ast.Attribute) and not (isinstance(n.func.value, ast.Name) and n.func.value.id in ("self", "cls", fr.fi.cls.name if fr.fi.cls else "")):
+                    continue
+                env = _bind_args(target.node, n, binds_self)
+                if env is None:
+                    continue
+                orig_id = id(target.node)
+                if self.unroll:
+                    target = _view(self.ctx, target)
+                alias = {}
+                p = parent(n)
+                r = _returned_local(target.node) if not _is_generator(target.node) else _yield_mirror(target.node)
+                if r is not None:
+                    if isinstance(p, ast.Assign) and p.value is n and len(p.targets) == 1 and isinstance(p.targets[0], ast.Name):
+                        alias[r] = p.targets[0].id
+                    elif isinstance(p, (ast.AnnAssign, ast.NamedExpr)) and p.value is n and isinstance(p.target, ast.Name):
+                        alias[r] = p.target.id
+                self.visited.add(orig_id)
+                self._walk(_Frame(self.ctx, target, fr, n, env, alias), active | {orig_id, id(target.node)})
+
+    # ---- facts
+    def facts(self, fr: _Frame, node: ast.AST) -> list[Fact]:
+        """Conditions (anchor vocabulary) that hold whenever `node` of frame fr is evaluated: in its own function and at
+        every call site up the call tree."""
+        out: list[Fact] = []
+        site = node
+        while fr is not None:
+            for f in _local_facts(self.ctx, fr.fi, site):
+                for ex in (True, False):
+                    g = Fact(f.op, fr.tr(f.left, ex), fr.tr(f.right, ex) if f.right is not None else None, f.pos, f.atom)
+                    out.append(g)
+                    if fr.parent is not None and ex and g.op == "truthy" and isinstance(strip_cast(g.left), ast.Call) \
+                            and isinstance(strip_cast(f.left), ast.Call) and isinstance(strip_cast(f.left).func, ast.Name) and strip_cast(f.left).func.id in fr.raw_env:
+                        # the helper called one of its parameters: after translation it is the caller's predicate
+                        out.extend(_predicate_facts(self.ctx, self.root.fi, g))
+            site, fr = fr.site, fr.parent
+        return out
+
+    def always_followed(self, a: tuple[_Frame, ast.AST], bs: list[tuple[_Frame, ast.AST]]) -> bool:
+        """after a has completed normally, every path to the normal end of the activation the events have in common
+        passes one of bs (decided in the deepest activation that a shares with all of bs)"""
+        if not bs:
+            return False
+        common = None
+        for i, x in enumerate(a[0].stack()):
+            if all(len(b[0].stack()) > i and b[0].stack()[i] is x for b in bs):
+                common = x
+        if common is None:
+            return False
+        cfg = self.ctx.cfg(common.fi)
+        xa = cfg.nodes_for(self.lifted(a[0], a[1], common))
+        xb = [n for b in bs for n in cfg.nodes_for(self.lifted(b[0], b[1], common))]
+        if not xa or not xb:
+            return False
+        if any(x in xb for x in xa):
+            # both inside the same helper call of the common activation: decide inside the helper when it is one and the same frame
+            return False
+        return all(cfg.always_followed_by(x, xb) for x in xa)
+
+    def lifted(self, fr: _Frame, node: ast.AST, upto: _Frame) -> ast.AST:
+        """the node of frame `upto` (an ancestor activation or fr itself) during whose evaluation `node` runs"""
+        while fr is not upto:
+            node, fr = fr.site, fr.parent
+        return node
+
+    def completes_before(self, a: tuple[_Frame, ast.AST], b: tuple[_Frame, ast.AST]) -> bool:
+        """every path to b has completed a (decided in the deepest activation the two have in common)"""
+        sa, sb = a[0].stack(), b[0].stack()
+        common = None
+        for x, y in zip(sa, sb):
+            if x is y:
+                common = x
+        if common is None:
+            return False
+        na, nb = self.lifted(a[0], a[1], common), self.lifted(b[0], b[1], common)
+        cfg = self.ctx.cfg(common.fi)
+        xa, xb = cfg.nodes_for(na), cfg.nodes_for(nb)
+        if not xa or not xb or any(x in xb for x in xa):
+            return False
+        return all(cfg.must_complete(y, xa) for y in xb)
+
+
+def _predicate_facts(ctx: Ctx, fi: FuncInfo, f: Fact) -> list[Fact]:
+    """what the (non-)truth of a predicate call says, the predicate being a closure / lambda / method visible in fi"""
+    call = strip_cast(f.left)
+    pol = f.pos
+
+    def accept(e, pol=pol):
+        c = const_value(e)
+        return None if c is NOCONST else bool(c) == pol
+    return _implied_by_result(ctx, fi, call, accept, pol, 3)
+
+
+def _deep_resolve(fr: _Frame, e: ast.AST, depth: int = 10, through_stop: bool = False) -> tuple[_Frame, ast.AST]:
+    """Follow single-assignment locals and parameter bindings up the call tree."""
+    e = strip_cast(e)
+    while depth > 0 and isinstance(e, ast.Name):
+        depth -= 1
+        if fr.parent is None and e.id in fr.stop and not through_stop:
+            break
+        d = single_def(fr.fi, e.id)
+        if d is not None and d[1] is None:
+            e = strip_cast(d[0])
+            continue
+        if fr.parent is not None and e.id in fr.raw_env:
+            e, fr = strip_cast(fr.raw_env[e.id]), fr.parent
+            continue
+        if fr.parent is not None and e.id in fr.alias:
+            e, fr = ast.Name(id=fr.alias[e.id], ctx=ast.Load()), fr.parent
+            break
+        break
+    return fr, e
+
+
+# ----------------------------------------------------------------------------------- facts: derived conditions
+_PURE_CALLS = {"len", "isinstance", "bool", "int", "str", "id_to_binary_string", "distance", "time.time", "cast", "format", "min", "max", "abs"}
+_PURE_METHODS = {"owns", "startswith", "endswith", "get", "values", "items", "keys"}
+
+
+_MUTATORS = {"pop", "popitem", "clear", "update", "append", "add", "remove", "discard", "extend", "insert", "setdefault", "sort", "reverse",
+             "__setitem__", "__delitem__", "appendleft", "popleft", "difference_update", "intersection_update", "symmetric_difference_update"}
+
+
+def _base_name(e: ast.AST) -> str | None:
+    """the attribute / variable that names the object: self.nodes -> 'nodes', bucket.nodes -> 'nodes', seen -> 'seen'"""
+    e = strip_cast(e)
+    while isinstance(e, ast.Subscript):
+        e = strip_cast(e.value)
+    if isinstance(e, ast.Attribute):
+        return e.attr
+    if isinstance(e, ast.Name):
+        return e.id
+    return None
+
+
+def _mutations(ctx: Ctx, fi: FuncInfo, e: ast.AST, depth: int = 3, active: frozenset = frozenset(), env: dict | None = None) -> set[str]:
+    """Names of the attributes / variables whose object or binding can change when e (expression / statement / function
+    body) is evaluated; '*' when a call cannot be looked into.  Calls of closures, module functions and methods of the
+    own class are followed; a parameter that is called stands for the lambdas / functions the caller passed (env:
+    parameter -> (caller's function, argument expression))."""
+    out: set[str] = set()
+    env = env or {}
+    nodes = walk_no_nested(e) if isinstance(e, (*_FUNCS,)) else ast.walk(e)
+
+    def of_callable(cfi: FuncInfo, x: ast.AST, d: int) -> set[str]:
+        """effects of calling the value of expression x (evaluated in cfi)"""
+        x = strip_cast(x)
+        if isinstance(x, ast.Lambda):
+            return _mutations(ctx, cfi, x.body, d - 1, active)
+        if isinstance(x, ast.Name) and d > 0:
+            defs = local_defs(cfi, x.id)
+            if defs and x.id not in cfi.params() and all(v is not None and idx is None for _st, v, idx in defs):
+                res: set[str] = set()
+                for _st, v, _idx in defs:
+                    res |= of_callable(cfi, v, d - 1)
+                return res
+        if isinstance(x, (ast.Name, ast.Attribute)):
+            t, _bs = _callee(ctx, cfi, ast.Call(func=x, args=[], keywords=[]))
+            if isinstance(t, FuncInfo) and id(t.node) not in active and d > 0:
+                sub = _mutations(ctx, t, t.node, d - 1, active | {id(t.node)})
+                return {y for y in sub if y == "*" or y not in _bound_locals(t.node)}
+        return {"*"}
+
+    for n in nodes:
+        if isinstance(n, (*_FUNCS, ast.Lambda, ast.ClassDef)) and n is not e:
+            continue
+        if isinstance(n, (ast.Attribute, ast.Subscript)) and isinstance(n.ctx, (ast.Store, ast.Del)):
+            out.add(_base_name(n) or "*")
+        elif isinstance(n, ast.Name) and isinstance(n.ctx, (ast.Store, ast.Del)):
+            out.add(n.id)
+        elif isinstance(n, (ast.Await, ast.Yield, ast.YieldFrom)) and not isinstance(e, _FUNCS):
+            out.add("*")
+        elif isinstance(n, ast.Call):
+            c = chain(n.func) or ""
+            if c in _PURE_CALLS or c.startswith(("logger.", "self.logger.", "logging.")) or c in ("list", "tuple", "set", "dict", "sorted", "reversed", "range",
+                                                                                                  "enumerate", "zip", "next", "iter", "filter", "any", "all", "sum"):
+                continue
+            if isinstance(n.func, ast.Attribute) and n.func.attr in _PURE_METHODS:
+                continue
+            if isinstance(n.func, ast.Attribute) and n.func.attr in _MUTATORS:
+                out.add(_base_name(n.func.value) or "*")
+                continue
+            if isinstance(n.func, ast.Name) and n.func.id in env:
+                cfi, x = env[n.func.id]
+                out |= of_callable(cfi, x, depth)
+                continue
+            target, bs = _callee(ctx, fi, n)
+            if isinstance(target, ast.Lambda):
+                out |= _mutations(ctx, fi, target.body, depth - 1, active, env)
+            elif isinstance(target, FuncInfo) and depth > 0 and id(target.node) not in active:
+                bound = _bind_args(target.node, n, bs) or {}
+                sub_env = {p_: (env[x.id] if isinstance(x, ast.Name) and x.id in env else (fi, x)) for p_, x in bound.items()}
+                sub = _mutations(ctx, target, target.node, depth - 1, active | {id(target.node)}, sub_env)
+                out |= {x for x in sub if x == "*" or x not in _bound_locals(target.node)}
+            elif isinstance(target, FuncInfo) and id(target.node) in active:
+                continue
+            else:
+                out.add("*")
+    return out
+
+
+def _reads(ctx: Ctx, fi: FuncInfo, exprs, depth: int = 2) -> set[str]:
+    """attribute / variable names an expression reads, including those read by the own-class methods it calls"""
+    out: set[str] = set()
+    for e in exprs:
+        if e is None:
+            continue
+        for n in ast.walk(e):
+            if isinstance(n, ast.Attribute):
+                out.add(n.attr)
+            elif isinstance(n, ast.Name):
+                out.add(n.id)
+            if isinstance(n, ast.Call) and depth > 0:
+                target, _bs = _callee(ctx, fi, n)
+                if isinstance(target, FuncInfo):
+                    out |= _reads(ctx, target, [target.node], depth - 1)
+    return out
+
+
+def _effectful(ctx: Ctx, fi: FuncInfo, e: ast.AST, names: set[str]) -> bool:
+    """Evaluating e (an expression or simple statement) may change what an expression reading `names` sees."""
+    m = _mutations(ctx, fi, e)
+    return "*" in m or bool(m & names)
+
+
+def _stable_between(ctx: Ctx, fi: FuncInfo, name: str, site: ast.AST, dstmt: ast.AST | None = None, names: set[str] | None = None) -> bool:
+    """`name = E` ... site: nothing that runs on a path from the assignment to the site (without passing another
+    assignment of the name) can change what E - or a condition over `names` - read, so a condition on `name` at the
+    site is a condition on E there."""
+    defs = local_defs(fi, name)
+    if dstmt is None:
+        if len(defs) != 1 or defs[0][1] is None:
+            return False
+        dstmt, value = defs[0][0], defs[0][1]
+        names = _reads(ctx, fi, [value])
+    names = set(names or ()) | {name}
+    cfg = ctx.cfg(fi)
+    dn, sn = cfg.nodes_for(dstmt), cfg.nodes_for(site)
+    alld = [x for st, _v, _i in defs for x in cfg.nodes_for(st)]
+    if not dn or not sn:
+        return False
+    if any(d in sn for d in dn):
+        return True                                  # walrus inside the very condition
+    # nodes on a path assignment -> site that does not run an assignment of the name again
+    fwd = cfg.reach([v for d in dn for v, lab in d.succ if lab != "exc"], cut_nodes=[*sn, *alld])
+    back, todo = set(), list(sn)
+    while todo:
+        u = todo.pop()
+        for p, _lab in u.pred:
+            if p not in back and p not in alld:
+                back.add(p)
+                todo.append(p)
+    for n in fwd & back:
+        a = n.ast
+        if a is None:
+            continue
+        if n.kind == "loop":
+            if isinstance(a, (ast.For, ast.AsyncFor)) and _target_names(a.target) & names:
+                return False
+            continue
+        if n.kind in ("dispatch", "handler") or isinstance(a, (*_FUNCS, ast.ClassDef)):
+            continue
+        parts = [i.context_expr for i in a.items] if isinstance(a, (ast.With, ast.AsyncWith)) else [a]
+        if any(_effectful(ctx, fi, p, names) for p in parts):
+            return False
+    return True
+
+
+def _const_leaves(v: ast.AST, conds: tuple = ()) -> list[tuple[ast.AST, tuple]]:
+    """leaves of a value built from conditional expressions: (leaf expression, ((test, polarity), ...))"""
+    v = strip_cast(v)
+    if isinstance(v, ast.IfExp):
+        return _const_leaves(v.body, conds + ((v.test, True),)) + _const_leaves(v.orelse, conds + ((v.test, False),))
+    return [(v, conds)]
+
+
+def _tag_facts(ctx: Ctx, fi: FuncInfo, name: str, accept, site: ast.AST | None, depth: int, value_pol: bool | None = None) -> list[Fact]:
+    """`name` is a decision local with several assignments (`kind = 'known'` in one branch, `kind = 'new'` in another,
+    `kind = 'a' if c else 'b'`; `found = False` ... `found = len(x) > k`).  A test of the local selects the assignments
+    whose value can pass the test (constants are decided, other values may pass); what holds at all of those assignments
+    - plus, for a truthiness test, what the assigned expression being truthy / falsy says - still holds at the site if
+    nothing in between can change it."""
+    defs = local_defs(fi, name)
+    if len(defs) < 2 or name in fi.params() or site is None or depth <= 0:
+        return []
+    if any(v is None or idx is not None for _st, v, idx in defs):
+        return []
+    per = []
+    for st, v, _idx in defs:
+        for leaf, conds in _const_leaves(v):
+            c = const_value(leaf)
+            if isinstance(leaf, ast.Tuple):
+                return []
+            if c is not NOCONST and accept(leaf) is False:
+                continue
+            if c is NOCONST and value_pol is None:
+                return []                                                 # a computed value under an equality / None test: not followed
+            fs = list(_local_facts(ctx, fi, st, depth - 1))
+            for t, pol in conds:
+                fs.extend(_atoms_with_polarity(t, pol))
+            if c is NOCONST:
+                fs.extend(_atoms_with_polarity(leaf, value_pol))
+            fs = fs + [g for f in fs for g in _expand_fact(ctx, fi, f, st, depth - 1)] if c is NOCONST or conds else fs
+            # each condition separately: one that reads what is changed on the way to the site is dropped, the others stay
+            per.append([f for f in fs if _stable_between(ctx, fi, name, site, st, _reads(ctx, fi, [f.left, f.right]))])
+    return _intersect(per)
+
+
+def _ret_sites(ctx: Ctx, target) -> list[tuple[ast.AST | None, ast.AST]] | None:
+    """(return statement | None, returned expression) of a helper / lambda; a fall-through end counts as `return None`."""
+    if isinstance(target, ast.Lambda):
+        return [(None, target.body)]
+    fn = target.node
+    if target.is_async or _is_generator(fn):
+        return None
+    out = []
+    for n in walk_no_nested(fn):
+        if isinstance(n, ast.Return):
+            out.append((n, n.value if n.value is not None else ast.Constant(value=None)))
+    cfg = ctx.cfg(target)
+    if any(not isinstance(p.ast, ast.Return) for p, lab in cfg.exit.pred if p in cfg.reach()):
+        out.append((None, ast.Constant(value=None)))
+    return out
+
+
+def _implied_by_result(ctx: Ctx, fi: FuncInfo, call: ast.Call, accept, value_pol: bool | None, depth: int) -> list[Fact]:
+    """Conditions (fi's vocabulary) that hold whenever `call` - a helper, closure or lambda - returned a value v with
+    accept(v) not False: the conditions common to all such returns (path conditions of the return + what the returned
+    expression being truthy / falsy says), parameters replaced by the call's arguments."""
+    target, binds_self = _callee(ctx, fi, call)
+    if target is None or depth <= 0:
+        return []
+    fn = target if isinstance(target, ast.Lambda) else target.node
+    env = _bind_args(fn, call, binds_self)
+    rets = _ret_sites(ctx, target)
+    if env is None or rets is None:
+        return []
+    if isinstance(target, FuncInfo) and target.node is fi.node:
+        return []
+    locals_ = _bound_locals(fn) if isinstance(target, FuncInfo) else set()
+    tag = fn.name if isinstance(target, FuncInfo) else "lambda"
+
+    def back(e):
+        if e is None:
+            return None
+        e = _expand(target, e, tuple(env)) if isinstance(target, FuncInfo) else _copy(e)
+        m = dict(env)
+        for l in locals_:
+            m.setdefault(l, ast.Name(id=f"{l}@{tag}", ctx=ast.Load()))
+        return _subst(e, m)
+
+    per: list[list[Fact]] = []
+    for r, v in rets:
+        if accept(v) is False:
+            continue
+        fs: list[Fact] = []
+        if r is not None:
+            fs.extend(_local_facts(ctx, target, r, depth - 1))
+        if value_pol is not None and not isinstance(v, ast.Constant):
+            for f in _atoms_with_polarity(v, value_pol):
+                fs.append(f)
+                if isinstance(target, FuncInfo):
+                    fs.extend(_expand_fact(ctx, target, f, r, depth - 1))
+                else:
+                    fs.extend(_expand_fact(ctx, fi, Fact(f.op, back(f.left), back(f.right), f.pos, f.atom), call, depth - 1))
+        per.append([Fact(f.op, back(f.left), back(f.right), f.pos, f.atom) for f in fs])
+    return _intersect(per)
+
+
+def _next_facts(fi: FuncInfo, name: ast.Name, value: ast.AST) -> list[Fact]:
+    """x = next(<generator over candidates with filter>, <constant default>) and x is known not to be the default: x is
+    an element of the generator, so the filter holds for x."""
+    if not (isinstance(value, ast.Call) and chain(value.func) == "next" and 1 <= len(value.args) <= 2 and not value.keywords):
+        return []
+    g = strip_cast(value.args[0])
+    if isinstance(g, ast.Call) and chain(g.func) == "iter" and len(g.args) == 1:
+        g = g.args[0]
+    if not isinstance(g, _COMPS) or not isinstance(g.elt, ast.Name):
+        return []
+    var = g.elt.id
+    out = []
+    for f in _comp_filter_facts(g, {var}):
+        m = {var: name}
+        out.append(Fact(f.op, _subst(f.left, m), _subst(f.right, m) if f.right is not None else None, f.pos, f.atom))
+    return out
+
+
+def _expand_fact(ctx: Ctx, fi: FuncInfo, f: Fact, site: ast.AST | None, depth: int = 3) -> list[Fact]:
+    """Conditions that follow from f: a flag local stands for the expression it was assigned (if nothing in between can
+    change it), a predicate helper's result stands for the conditions under which it returns that result, an element
+    taken with next(...) satisfies the generator's filter."""
+    if depth <= 0:
+        return []
+    out: list[Fact] = []
+    left = strip_cast(f.left) if f.left is not None else None
+    none_test = f.op == "is" and f.right is not None and isinstance(f.right, ast.Constant) and f.right.value is None
+    if f.op == "truthy" or none_test:
+        is_set = f.pos if f.op == "truthy" else not f.pos           # the value is known to be truthy / not None
+        if isinstance(left, ast.Name):
+            d = single_def(fi, left.id)
+            if d is None:
+                def accept_tag(e, is_set=is_set, truthy=f.op == "truthy"):
+                    c = const_value(e)
+                    return (bool(c) if truthy else c is not None) == is_set
+                out.extend(_tag_facts(ctx, fi, left.id, accept_tag, site, depth - 1, f.pos if f.op == "truthy" else None))
+            if d is not None and d[1] is None and (site is None or _stable_between(ctx, fi, left.id, site)):
+                v = strip_cast(d[0])
+                if is_set:
+                    dflt = v.args[1] if isinstance(v, ast.Call) and chain(v.func) == "next" and len(v.args) == 2 else None
+                    if dflt is not None and isinstance(dflt, ast.Constant) and (dflt.value is None or (f.op == "truthy" and not dflt.value)):
+                        out.extend(_next_facts(fi, left, v))
+                if f.op == "truthy":
+                    out.extend(_atoms_with_polarity(v, f.pos))
+                elif isinstance(v, ast.Call):
+                    def accept_none(e, is_set=is_set):
+                        c = const_value(e)
+                        return None if c is NOCONST else (c is not None) == is_set
+                    out.extend(_implied_by_result(ctx, fi, v, accept_none, None, depth - 1))
+        elif isinstance(left, ast.Call) and f.op == "truthy":
+            pol = f.pos
+
+            def accept(e, pol=pol):
+                c = const_value(e)
+                return None if c is NOCONST else bool(c) == pol
+            out.extend(_implied_by_result(ctx, fi, left, accept, pol, depth - 1))
+    elif f.op == "eq" and f.right is not None:
+        for a, b in ((f.left, f.right), (f.right, f.left)):
+            c = const_value(b)
+            if c is NOCONST or isinstance(b, ast.Tuple):
+                continue
+            a = strip_cast(a)
+            if isinstance(a, ast.Name):
+                d = single_def(fi, a.id)
+                if d is None:
+                    out.extend(_tag_facts(ctx, fi, a.id, lambda e, c=c, pos=f.pos: (const_value(e) == c) == pos, site, depth - 1))
+                a = strip_cast(d[0]) if d is not None and d[1] is None else a
+            if isinstance(a, ast.Call):
+                def accept_eq(e, c=c, pos=f.pos):
+                    v = const_value(e)
+                    return None if v is NOCONST else (v == c) == pos
+                out.extend(_implied_by_result(ctx, fi, a, accept_eq, None, depth - 1))
+    if f.op in ("lt", "eq") and f.right is not None:
+        l2, r2 = _result_expr(ctx, fi, f.left), _result_expr(ctx, fi, f.right)
+        if l2 is not None or r2 is not None:
+            out.append(Fact(f.op, l2 if l2 is not None else f.left, r2 if r2 is not None else f.right, f.pos, f.atom))
+    more: list[Fact] = []
+    for g in out:
+        more.extend(_expand_fact(ctx, fi, g, site, depth - 1))
+    return out + more
+
+
+def _result_expr(ctx: Ctx, fi: FuncInfo, e: ast.AST) -> ast.AST | None:
+    """e is (a local holding) the result of a helper whose every return gives the same expression over its parameters and
+    object state: that expression with the parameters replaced by the call's arguments."""
+    e = strip_cast(e)
+    if isinstance(e, ast.Name):
+        d = single_def(fi, e.id)
+        e = strip_cast(d[0]) if d is not None and d[1] is None else e
+    if not isinstance(e, ast.Call):
+        return None
+    target, binds_self = _callee(ctx, fi, e)
+    if not isinstance(target, FuncInfo) or target.node is fi.node or _is_generator(target.node) or target.is_async:
+        return None
+    env = _bind_args(target.node, e, binds_self)
+    rets = _ret_sites(ctx, target)
+    if env is None or not rets or any(r is None for r, _v in rets):
+        return None
+    vals = [_expand(target, v, tuple(env)) for _r, v in rets]
+    if len({norm(v) for v in vals}) != 1:
+        return None
+    if {n.id for n in ast.walk(vals[0]) if isinstance(n, ast.Name)} & (_bound_locals(target.node) - set(env)):
+        return None
+    return _subst(vals[0], env)
 
 
 def _comp_filter_facts(comp: ast.AST, names: set[str]) -> list[Fact]:
@@ -80,7 +1139,7 @@ def _comp_filter_facts(comp: ast.AST, names: set[str]) -> list[Fact]:
     for g in comp.generators:
         if g.is_async:
             return []
-        if names & {n.id for n in ast.walk(g.target) if isinstance(n, ast.Name)}:
+        if names & _target_names(g.target):
             bound = True
         if bound:
             for i in g.ifs:
@@ -88,22 +1147,93 @@ def _comp_filter_facts(comp: ast.AST, names: set[str]) -> list[Fact]:
     return out
 
 
-def _loop_filter_facts(fi: FuncInfo, site: ast.AST) -> list[Fact]:
-    """`for T in [T for T in src if C]` (the list possibly held in a single-assignment local): C holds for T in the body.
-    Only identity comprehensions whose element has the same name structure as the loop target are used."""
+def _comp_context_facts(site: ast.AST) -> list[Fact]:
+    """site sits in the element expression of a comprehension: every `if` clause of the comprehension holds there."""
+    out: list[Fact] = []
+    cur = site
+    for a in ancestors(site):
+        if isinstance(a, ast.stmt):
+            break
+        if isinstance(a, (*_COMPS, ast.DictComp)):
+            in_elt = cur is getattr(a, "elt", None) or cur is getattr(a, "key", None) or cur is getattr(a, "value", None)
+            if in_elt and not any(g.is_async for g in a.generators):
+                for g in a.generators:
+                    for i in g.ifs:
+                        out.extend(_atoms_with_polarity(i, True))
+        cur = a
+    return out
+
+
+def _writes_status(fi: FuncInfo) -> bool:
+    return any(isinstance(n, ast.Attribute) and n.attr in ("status", "failed") and isinstance(n.ctx, (ast.Store, ast.Del)) for n in ast.walk(fi.node))
+
+
+def _gen_yield_facts(ctx: Ctx, fi: FuncInfo, loop: ast.For, depth: int) -> list[Fact]:
+    """`for T in helper(...)` where helper is a generator: what holds at every `yield` holds for T in the body (the
+    yielded names are renamed to the loop target's names, parameters replaced by the arguments)."""
+    it = strip_cast(_strip_snapshot(resolve(fi, _strip_snapshot(loop.iter))))
+    if not isinstance(it, ast.Call) or depth <= 0:
+        return []
+    target, binds_self = _callee(ctx, fi, it)
+    if not isinstance(target, FuncInfo) or not _is_generator(target.node) or target.is_async or target.node is fi.node:
+        return []
+    env = _bind_args(target.node, it, binds_self)
+    if env is None or _writes_status(target):
+        return []
+    shape = _names_shape(loop.target)
+    ys = [n for n in walk_no_nested(target.node) if isinstance(n, (ast.Yield, ast.YieldFrom))]
+    if shape is None or not ys or any(isinstance(y, ast.YieldFrom) or y.value is None for y in ys):
+        return []
+    locals_ = _bound_locals(target.node)
+    per = []
+    for y in ys:
+        m: dict[str, ast.AST] = {l: ast.Name(id=f"{l}@{target.name}", ctx=ast.Load()) for l in locals_}
+        m.update(env)
+        v = y.value
+        if isinstance(shape, str):
+            if isinstance(v, ast.Name):
+                m[v.id] = ast.Name(id=shape, ctx=ast.Load())
+        elif isinstance(v, ast.Tuple) and len(v.elts) == len(shape):
+            for el, s in zip(v.elts, shape):
+                if isinstance(el, ast.Name) and isinstance(s, str):
+                    m[el.id] = ast.Name(id=s, ctx=ast.Load())
+        else:
+            return []
+        fs = _local_facts(ctx, target, y, depth - 1)
+        per.append([Fact(f.op, _subst(_expand(target, f.left, tuple(m)), m), _subst(_expand(target, f.right, tuple(m)), m) if f.right is not None else None, f.pos, f.atom)
+                    for f in fs])
+    return _intersect(per)
+
+
+def _loop_filter_facts(ctx: Ctx, fi: FuncInfo, site: ast.AST, depth: int = 3) -> list[Fact]:
+    """`for T in [T for T in src if C]` (the list possibly held in a single-assignment local): C holds for T in the body;
+    `for T in filter(pred, src)`; `for T in generator_helper(...)`: what holds at its yields.  Only identity
+    comprehensions whose element has the same name structure as the loop target are used."""
     out: list[Fact] = []
     for a in ancestors(site):
         if a is fi.node:
             break
         if not isinstance(a, ast.For):
             continue
+        if any(isinstance(n, ast.Name) and isinstance(n.ctx, ast.Store) and n.id in _target_names(a.target)
+               for s in a.body for n in ast.walk(s)):
+            continue                                                      # the loop variable is rebound in the body
         it = _strip_snapshot(resolve(fi, _strip_snapshot(a.iter)))
+        if isinstance(it, ast.Call) and chain(it.func) == "filter" and len(it.args) == 2 and isinstance(a.target, ast.Name):
+            pred = it.args[0]
+            if not (isinstance(pred, ast.Constant) and pred.value is None):
+                call = ast.Call(func=pred, args=[ast.Name(id=a.target.id, ctx=ast.Load())], keywords=[])
+                out.extend(_implied_by_result(ctx, fi, call, lambda e: None if const_value(e) is NOCONST else bool(const_value(e)), True, depth))
+            continue
+        if isinstance(it, ast.Call):
+            out.extend(_gen_yield_facts(ctx, fi, a, depth))
+            continue
         if not isinstance(it, _COMPS):
             continue
         shape = _names_shape(a.target)
         if shape is None or _names_shape(it.elt) != shape:
             continue
-        names = {n.id for n in ast.walk(a.target) if isinstance(n, ast.Name)}
+        names = _target_names(a.target)
         # the element is the generator's own target (identity), so the filter speaks about the loop variable
         if not any(_names_shape(g.target) == shape for g in it.generators):
             continue
@@ -111,292 +1241,160 @@ def _loop_filter_facts(fi: FuncInfo, site: ast.AST) -> list[Fact]:
     return out
 
 
-def _status_cmp(f: Fact, var: str) -> bool:
-    """f compares <var>.status with NODE_STATUS_BAD (either side)."""
-    return f.op == "eq" and {norm(f.left), norm(f.right)} == {f"{var}.status", "NODE_STATUS_BAD"}
-
-
-def _writes_status(fi: FuncInfo) -> bool:
-    return any(isinstance(n, ast.Attribute) and n.attr == "status" and isinstance(n.ctx, (ast.Store, ast.Del)) for n in ast.walk(fi.node))
-
-
-def rule_bucket(ctx: Ctx) -> None:
-    repo = ctx.repo
-    add = repo.method("Bucket", "add", RT)
-    cfg = ctx.cfg(add)
-    node = add.params()[1]
-    sts = [s for s, t in stores(add, "self.nodes[]")]
-    ctx.anchor(sts, "self.nodes[...] = node in Bucket.add")
-    for s in sts:
-        fs = facts_at(cfg, s)
-        owns = any(f.op == "truthy" and f.pos and isinstance(f.left, ast.Call) and chain(f.left.func) == "self.owns" and norm(f.left.args[0]) == f"{node}.id" for f in fs)
-        room = any(f.op == "lt" and f.pos and norm(f.left) == "len(self.nodes)" and norm(f.right) == "self.max_size" for f in fs)
-        key = norm(s.targets[0].slice) == f"{node}.id" and chain(s.value) == node
-        ctx.check(owns and room and key, "bucket-insert", add, s, "nodes[node.id] = node dominated by owns(node.id) and len(nodes) < max_size",
-                  f"a node can be stored in a bucket that does not own its id or that is full (owns={owns} room={room} keyed_by_id={key})", [str(f) for f in fs])
-    # the update branch changes the address only
-    for s in walk_no_nested(add.node):
-        if isinstance(s, ast.Assign) and isinstance(s.targets[0], ast.Attribute) and s.targets[0].attr not in ("last_changed", "bucket", "address") \
-                and chain(s.targets[0]) != "self.nodes[]":
-            ctx.check(False, "bucket-insert", add, s, "add only sets address/last_changed/bucket", "Bucket.add rewrites an unexpected attribute")
-    owns = repo.method("Bucket", "owns", RT)
-    rets = [r for r in walk_no_nested(owns.node) if isinstance(r, ast.Return)]
-    ok = len(rets) == 1 and isinstance(rets[0].value, ast.Call) and call_name(rets[0].value) == "startswith" and norm(arg(rets[0].value, 0)) == "self.prefix_id" \
-        and norm(resolve(owns, rets[0].value.func.value)) == f"id_to_binary_string({owns.params()[1]})"
-    ctx.check(ok, "bucket-insert", owns, owns.node, "owns(id) = binary(id).startswith(prefix_id)", "bucket ownership is no longer the prefix test on the binary id")
-    ib = repo.func(RT, "id_to_binary_string")
-    rets = [r for r in walk_no_nested(ib.node) if isinstance(r, ast.Return)]
-    ok = len(rets) == 1 and norm(rets[0].value) == f"format(int(binascii.hexlify({ib.params()[0]}), 16), '0160b')"
-    ctx.check(ok, "bucket-insert", ib, ib.node, "binary id = 160-bit zero-padded big-endian", "id_to_binary_string is no longer the 160-bit big-endian rendering")
-    # removal from a bucket only of BAD nodes / slow nodes when full; pops are keyed by the node's own id
-    for c in calls(add, "self.nodes.pop"):
-        fs = facts_at(cfg, c)
-        full = any(f.op == "lt" and not f.pos and norm(f.left) == "len(self.nodes)" and norm(f.right) == "self.max_size" for f in fs)
-        ctx.check(full and norm(arg(c, 0)) == "n.id", "bucket-insert", add, c, "eviction only when the bucket is full, keyed by the evicted node's id",
-                  "nodes are evicted from a bucket that is not full")
-
-
-def rule_split(ctx: Ctx) -> None:
-    repo = ctx.repo
-    add = repo.method("RoutingTable", "add", RT)
-    cfg = ctx.cfg(add)
-    node = add.params()[1]
-    sp = ctx.anchor([c for c in calls(add) if call_name(c) == "split"], "bucket.split() in RoutingTable.add")
-    for c in sp:
-        fs = facts_at(cfg, c)
-        b = chain(c.func.value)
-        own = any(f.op == "truthy" and f.pos and isinstance(f.left, ast.Call) and chain(f.left.func) == f"{b}.owns" and norm(f.left.args[0]) == "self.my_node_id" for f in fs)
-        failed = any(f.op == "truthy" and not f.pos and isinstance(f.left, ast.Call) and chain(f.left.func) == f"{b}.add" for f in fs)
-        d = single_def(add, b)
-        src = d is not None and norm(d[0]) == f"self.get_bucket({node}.id)"
-        ctx.check(own and failed and src, "split-own-path", add, c, "split only when adding failed and the bucket owns our own id",
-                  "a bucket that is not on the path of our own identifier can be split", [str(f) for f in fs])
-    sts = {norm(s.targets[0].slice): norm(s.value) for s, t in stores(add, "self.trie[]") if isinstance(s, ast.Assign)}
-    dels = [norm(t.slice) for s in walk_no_nested(add.node) if isinstance(s, ast.Delete) for t in s.targets if chain(t) == "self.trie[]"]
-    # which variable is which half
-    tup = [s for s in walk_no_nested(add.node) if isinstance(s, ast.Assign) and isinstance(s.targets[0], ast.Tuple) and len(s.targets[0].elts) == 2
-           and isinstance(resolve(add, s.value), ast.Call) and call_name(resolve(add, s.value)) == "split"]
-    ok = bool(tup)
-    if ok:
-        v0, v1 = (e.id for e in tup[0].targets[0].elts)
-        ok = sts == {"bucket.prefix_id + '0'": v0, "bucket.prefix_id + '1'": v1} and dels == ["bucket.prefix_id"]
-    ctx.check(ok, "split-partition", add, add.node, "split stores prefix+'0' -> first half, prefix+'1' -> second half and deletes prefix",
-              f"after a split the tree is not the two children replacing the parent: stores={sts} deletes={dels}")
-    # retry after split; None when split impossible
-    retry = [c for c in calls(add, "self.add") if norm(arg(c, 0)) == node]
-    ctx.check(bool(retry), "split-partition", add, add.node, "insertion retried after the split", "the node that triggered the split is not inserted afterwards")
-    # children are placed before the parent is deleted (so ids stay covered)
-    if ok:
-        dn = [n for s in walk_no_nested(add.node) if isinstance(s, ast.Delete) for n in cfg.nodes_for(s)]
-        stn = [n for s, t in stores(add, "self.trie[]") if isinstance(s, ast.Assign) for n in cfg.nodes_for(s)]
-        ctx.check(all(cfg.must_complete(d, [x]) for d in dn for x in stn), "split-partition", add, add.node,
-                  "both children stored before the parent is deleted", "the parent bucket is deleted before its children exist")
-    sf = repo.method("Bucket", "split", RT)
-    bs = {}
-    for s in walk_no_nested(sf.node):
-        if isinstance(s, ast.Assign) and isinstance(s.value, ast.Call) and chain(s.value.func) == "Bucket":
-            bs[s.targets[0].id] = (norm(arg(s.value, 0)), norm(arg(s.value, 1)))
-    rets = [r for r in walk_no_nested(sf.node) if isinstance(r, ast.Return) and isinstance(r.value, ast.Tuple)]
-    ok = len(bs) == 2 and len(rets) == 1
-    if ok:
-        n0, n1 = (norm(e) for e in rets[0].value.elts)
-        ok = bs.get(n0) == ("self.prefix_id + '0'", "self.max_size") and bs.get(n1) == ("self.prefix_id + '1'", "self.max_size")
-    ctx.check(ok, "split-partition", sf, sf.node, "Bucket.split returns (prefix+'0', prefix+'1') children of the same capacity",
-              f"Bucket.split children are {bs}")
-    cfgs = ctx.cfg(sf)
-    for c in [c for c in calls(sf) if call_name(c) == "add"]:
-        fs = facts_at(cfgs, c)
-        b = chain(c.func.value)
-        ok = any(f.op == "truthy" and f.pos and isinstance(f.left, ast.Call) and chain(f.left.func) == f"{b}.owns" for f in fs)
-        ctx.check(ok, "split-partition", sf, c, f"node moved to {b} only if {b}.owns(node.id)", "split redistributes a node into a child that does not own it")
-    loop = [l for l in walk_no_nested(sf.node) if isinstance(l, ast.For)]
-    ok = bool(loop) and norm(loop[0].iter) == "list(self.nodes.values())" and not any(isinstance(x, (ast.Break, ast.Return)) for x in ast.walk(loop[0]))
-    ctx.check(ok, "split-partition", sf, sf.node, "every node of the parent is redistributed", "split can lose nodes of the parent bucket")
-    gb = repo.method("RoutingTable", "get_bucket", RT)
-    rets = [r for r in walk_no_nested(gb.node) if isinstance(r, ast.Return)]
-    ok = len(rets) == 1 and "self.trie.longest_prefix_value(" in norm(rets[0].value) and norm(resolve(gb, arg([c for c in calls(gb) if call_name(c) == "longest_prefix_value"][0], 0))) == f"id_to_binary_string({gb.params()[1]})"
-    ctx.check(ok, "bucket-insert", gb, gb.node, "get_bucket = bucket of the longest matching prefix of the binary id", "get_bucket no longer selects by longest prefix")
-    # who else writes the trie / bucket.nodes
-    for m, fi, a in repo.attribute_uses("trie"):
-        p = parent(a)
-        if isinstance(p, ast.Subscript) and isinstance(p.ctx, (ast.Store, ast.Del)) and fi is not None:
-            ctx.check(fi.qualname in ("RoutingTable.add", "RoutingTable.__init__"), "split-partition", fi, enclosing_stmt(a),
-                      f"trie written in {fi.qualname}", "the bucket tree is rewritten outside RoutingTable.add")
-    rb = repo.method("RoutingTable", "remove_bad_nodes", RT)
-    cfgr = ctx.cfg(rb)
-    for c in [c for c in calls(rb) if call_name(c) == "pop"]:
-        # guard in the loop body, or the loop runs over a list that was filtered by the guard (collect first, pop afterwards:
-        # same nodes, same order; the status is not written in between)
-        fs = facts_at(cfgr, c) + ([] if _writes_status(rb) else _loop_filter_facts(rb, c))
-        ok = any(f.pos and _status_cmp(f, "node") for f in fs)
-        ctx.check(ok, "bucket-insert", rb, c, "only BAD nodes are removed", "remove_bad_nodes removes nodes that are not BAD", [str(f) for f in fs])
-
-
-def _live_collection(e: ast.AST) -> bool:
-    """A comprehension (possibly wrapped in set()/list()/frozenset()) whose elements are its own loop variable filtered by
-    <var>.status != NODE_STATUS_BAD."""
-    while isinstance(e, ast.Call) and isinstance(e.func, ast.Name) and e.func.id in ("set", "frozenset", "list", "tuple") and len(e.args) == 1 \
-            and not e.keywords and not isinstance(e.args[0], ast.Starred):
-        e = e.args[0]
-    if not isinstance(e, _COMPS) or not isinstance(e.elt, ast.Name):
-        return False
-    var = e.elt.id
-    if not any(var in {n.id for n in ast.walk(g.target) if isinstance(n, ast.Name)} for g in e.generators):
-        return False
-    return any(_status_cmp(f, var) and not f.pos for f in _comp_filter_facts(e, {var}))
-
-
-def _empty_set(e: ast.AST) -> bool:
-    return isinstance(e, ast.Call) and isinstance(e.func, ast.Name) and e.func.id == "set" and not e.keywords and \
-        (not e.args or (len(e.args) == 1 and isinstance(e.args[0], (ast.List, ast.Tuple)) and not e.args[0].elts))
-
-
-def _additions(fi: FuncInfo, cfg, coll: str) -> list[tuple[ast.AST, bool]]:
-    """Every statement / call that can put elements into the local collection `coll`, with 'only live nodes' decided."""
-    out: list[tuple[ast.AST, bool]] = []
-
-    def union_ok(v: ast.AST) -> bool:
-        if isinstance(v, ast.Name) and v.id == coll:
-            return True
-        if isinstance(v, ast.BinOp) and isinstance(v.op, ast.BitOr):
-            return union_ok(v.left) and union_ok(v.right)
-        return _live_collection(resolve(fi, v))
-
-    for st, _val, _idx in local_defs(fi, coll):
-        if not isinstance(st, (ast.Assign, ast.AnnAssign, ast.AugAssign)):
-            out.append((st, False))                                       # bound by for / with / walrus / except: not followed
-    for n in walk_no_nested(fi.node):
-        if isinstance(n, ast.AugAssign) and isinstance(n.target, ast.Name) and n.target.id == coll:
-            if isinstance(n.op, (ast.BitAnd, ast.Sub)):
-                continue                                                  # can only shrink
-            out.append((n, isinstance(n.op, ast.BitOr) and union_ok(n.value)))
-        elif isinstance(n, (ast.Assign, ast.AnnAssign)) and n.value is not None:
-            tg = n.targets if isinstance(n, ast.Assign) else [n.target]
-            if any(isinstance(t, ast.Name) and t.id == coll for t in tg):
-                if _empty_set(n.value):
-                    continue
-                out.append((n, union_ok(n.value)))
-            elif any(coll in {x.id for x in ast.walk(t) if isinstance(x, ast.Name) and isinstance(x.ctx, ast.Store)} for t in tg):
-                out.append((n, False))                                    # bound through unpacking: not followed
-        elif isinstance(n, ast.Call) and isinstance(n.func, ast.Attribute) and isinstance(n.func.value, ast.Name) and n.func.value.id == coll:
-            if n.func.attr == "add" and len(n.args) == 1:
-                x = n.args[0]
-                fs = facts_at(cfg, n) + ([] if _writes_status(fi) else _loop_filter_facts(fi, n))
-                out.append((n, isinstance(x, ast.Name) and any(_status_cmp(f, x.id) and not f.pos for f in fs)))
-            elif n.func.attr in ("update", "extend", "append", "insert", "symmetric_difference_update", "__ior__"):
-                out.append((n, n.func.attr == "update" and not n.keywords and all(_live_collection(resolve(fi, a)) for a in n.args)))
-    return out
-
-
-def _descending_from_len(fi: FuncInfo, it: ast.AST, name: str) -> bool:
-    """The iterable yields len(name), len(name)-1, ..., 0."""
-    it = _expand(fi, it, stop=(name,))
-    length = f"len({name})"
-    if not isinstance(it, ast.Call) or it.keywords:
-        return False
-    if chain(it.func) == "reversed" and len(it.args) == 1:
-        r = it.args[0]
-        if not (isinstance(r, ast.Call) and chain(r.func) == "range" and not r.keywords and 1 <= len(r.args) <= 3):
-            return False
-        a = r.args
-        if len(a) >= 2 and const_value(a[0]) != 0:
-            return False
-        if len(a) == 3 and const_value(a[2]) != 1:
-            return False
-        stop = a[0] if len(a) == 1 else a[1]
-        return norm(stop) in (f"{length} + 1", f"1 + {length}")
-    if chain(it.func) == "range" and len(it.args) == 3:
-        return norm(it.args[0]) == length and const_value(it.args[1]) == -1 and const_value(it.args[2]) == -1
-    return False
-
-
-def rule_closest(ctx: Ctx) -> None:
-    repo = ctx.repo
-    fi = repo.method("RoutingTable", "closest_nodes", RT)
+def _local_facts(ctx: Ctx, fi: FuncInfo, site: ast.AST, depth: int = 3) -> list[Fact]:
+    """Everything known at `site` inside fi: dominating conditions, short-circuit / comprehension context, filters of the
+    loops around it, and what follows from those through flag locals and predicate helpers."""
     cfg = ctx.cfg(fi)
-    target, k = fi.params()[1], fi.params()[2]
-    rets = [r for r in walk_no_nested(fi.node) if isinstance(r, ast.Return)]
-    ok = False
-    coll = None
-    if len(rets) == 1:
-        sl = resolve(fi, rets[0].value)                                   # `v = sorted(..)[:k]; return v` is the same value
-        if isinstance(sl, ast.Subscript) and isinstance(sl.slice, ast.Slice):
-            srt = resolve(fi, sl.value)
-            if sl.slice.lower is None and sl.slice.step is None and sl.slice.upper is not None and norm(sl.slice.upper) == k \
-                    and isinstance(srt, ast.Call) and chain(srt.func) == "sorted" and not arg(srt, None, "reverse"):
-                key = arg(srt, None, "key")
-                if isinstance(key, ast.Lambda):
-                    body = key.body
-                    first = body.elts[0] if isinstance(body, ast.Tuple) else body
-                    ok = norm(first) in (f"distance({key.args.args[0].arg}.id, {target})", f"distance({target}, {key.args.args[0].arg}.id)")
-                if ok and srt.args and isinstance(srt.args[0], ast.Name):
-                    coll = srt.args[0].id
-    ctx.check(ok, "closest", fi, rets[0] if rets else fi.node, "result = sorted(nodes, key=XOR distance to the target first)[:max_nodes]",
-              "closest_nodes does not return the max_nodes nearest by XOR distance to the target, nearest first")
-    dist = repo.func(RT, "distance")
-    r = [x for x in walk_no_nested(dist.node) if isinstance(x, ast.Return)]
-    ok = len(r) == 1 and isinstance(r[0].value, ast.BinOp) and isinstance(r[0].value.op, ast.BitXor)
-    ctx.check(ok, "closest", dist, dist.node, "distance is XOR of the ids as integers", "distance is no longer the XOR metric")
-    # candidate set: the collection that is counted by the walk and sorted at the end receives live nodes only
-    # (set comprehension with the filter, or an explicit loop that adds under the filter: same elements)
-    coll = coll or "nodes"
-    adds = _additions(fi, cfg, coll)
-    ok = bool(adds) and all(good for _, good in adds)
-    bad = next((n for n, good in adds if not good), None)
-    ctx.check(ok, "closest", fi, enclosing_stmt(bad) if bad is not None else fi.node, "candidates exclude BAD nodes",
-              "closest_nodes can return nodes whose status is BAD" + ("" if adds else f" (nothing is added to `{coll}`)"))
-    # the walk: i from len(prefix) down to 0, all suffixes of prefix[:i]; break only with >= max_nodes collected
-    loops = [l for l in walk_no_nested(fi.node) if isinstance(l, ast.For)]
-    outer = [l for l in loops if isinstance(l.target, ast.Name) and _descending_from_len(fi, l.iter, "prefix")]
-    ctx.check(len(outer) == 1, "closest", fi, loops[0] if loops else fi.node, "walk from the longest prefix outwards to the root",
-              "the subtree walk does not go from the longest prefix to the root")
-    if len(outer) == 1:
-        iv = outer[0].target.id
-        stop = ("prefix", iv)
-        inner = [l for l in ast.walk(outer[0]) if isinstance(l, ast.For) and l is not outer[0]
-                 and _xnorm(fi, l.iter, stop) == f"self.trie.suffixes(prefix[:{iv}])"]
-        ok = len(inner) == 1 and isinstance(inner[0].target, ast.Name)
-        if ok:
-            want = f"self.trie[prefix[:{iv}] + {inner[0].target.id}]"
-            ok = any(isinstance(s, ast.Subscript) and isinstance(s.ctx, ast.Load) and _xnorm(fi, s, stop + (inner[0].target.id,)) == want
-                     for st in inner[0].body for s in ast.walk(st))
-            # the suffix loop runs on every level: it is not under a condition inside the level
-            ok = ok and not any(isinstance(a, (ast.If, ast.IfExp, ast.Try, ast.While)) for a in _between(inner[0], outer[0]))
-        ctx.check(ok, "closest", fi, outer[0], "each level takes every bucket below prefix[:i]", "a level of the walk does not cover the whole subtree")
-        within = set(map(id, ast.walk(outer[0])))
-        for b in [b for b in ast.walk(outer[0]) if isinstance(b, ast.Break)]:
-            fs = facts_at(cfg, b)
-            ok = any(f.op == "lt" and ((f.pos and norm(f.left) == k and norm(f.right) == f"len({coll})") or
-                                       (not f.pos and norm(f.left) == f"len({coll})" and norm(f.right) == k)) for f in fs)
-            in_inner = any(isinstance(a, (ast.For, ast.While)) and a is not outer[0] for a in ancestors(b) if id(a) in within)
-            ctx.check(ok and not in_inner, "closest", fi, b, "the walk stops only after a complete level and with >= max_nodes candidates",
-                      "the walk can stop with fewer than max_nodes candidates or in the middle of a subtree: the result is not the k closest", [str(f) for f in fs])
-    d = single_def(fi, "prefix")
-    ok = d is not None and isinstance(strip_cast(d[0]), ast.Call) and chain(strip_cast(d[0]).func) == "self.trie.longest_prefix" \
-        and norm(resolve(fi, arg(strip_cast(d[0]), 0))) == f"id_to_binary_string({target})"
-    ctx.check(ok, "closest", fi, fi.node, "walk starts at the longest known prefix of the target", "the walk does not start at the target's own bucket")
+    base = list(facts_at(cfg, site)) + _comp_context_facts(site)
+    if not _writes_status(fi):
+        base += _loop_filter_facts(ctx, fi, site, depth)
+    out = list(base)
+    for f in base:
+        out.extend(_expand_fact(ctx, fi, f, site, depth))
+    return [Fact(f.op, _expand(fi, f.left), _expand(fi, f.right) if f.right is not None else None, f.pos, f.atom) for f in out] + out
 
 
-def _between(inner: ast.AST, outer: ast.AST) -> list[ast.AST]:
-    out = []
-    for a in ancestors(inner):
-        if a is outer:
-            break
-        out.append(a)
+# ----------------------------------------------------------------------------------- node status
+def _status_values(ctx: Ctx) -> dict[str, int]:
+    m = ctx.repo.module(RT)
+    out = {}
+    for name in ("NODE_STATUS_BAD", "NODE_STATUS_UNKNOWN", "NODE_STATUS_GOOD"):
+        v = ctx.repo.resolve_const(m, ast.Name(id=name, ctx=ast.Load()))
+        if v is NOCONST or not isinstance(v, int):
+            raise AnalysisError(f"anchor-lost: constant {name} in {RT}")
+        out[name] = v
     return out
 
 
-class _Unsupported(Exception):
+class _Unknown(Exception):
     pass
 
 
-def _subst(e: ast.AST, env: dict[str, ast.AST]) -> ast.AST:
-    class T(ast.NodeTransformer):
-        def visit_Name(self, n):
-            if isinstance(n.ctx, ast.Load) and n.id in env:
-                return _copy(env[n.id])
-            return n
-    return T().visit(_copy(e))
+def _class_attr_expr(ctx: Ctx, name: str) -> ast.AST | None:
+    """the (single) class-level assignment of an attribute of that name in routing.py"""
+    hits = [c.attrs[name] for c in ctx.repo.module(RT).classes.values() if name in c.attrs]
+    return hits[0] if len(hits) == 1 else None
+
+
+def _const_eval(ctx: Ctx, e: ast.AST, subject: str, s_val, depth: int = 6):
+    """Value of a constant expression in which <var>.status is s_val: literals, the status constants, module / class level
+    constant tables (dict / tuple / set literals), subscripts and .get() of such tables, comparisons, not / and / or,
+    + and -.  Raises _Unknown for anything else."""
+    if depth <= 0:
+        raise _Unknown
+    e = strip_cast(e)
+    if norm(e) == subject:
+        return s_val
+    ev = lambda x: _const_eval(ctx, x, subject, s_val, depth - 1)  # noqa: E731
+    if isinstance(e, ast.Constant):
+        return e.value
+    if isinstance(e, ast.Name):
+        v = ctx.repo.resolve_const(ctx.repo.module(RT), e)
+        if v is not NOCONST:
+            return v
+        m = ctx.repo.module(RT)
+        if e.id in m.constants:
+            return ev(m.constants[e.id])
+        raise _Unknown
+    if isinstance(e, ast.Attribute) and isinstance(e.value, ast.Name) and (e.value.id in ("self", "cls") or e.value.id in ctx.repo.module(RT).classes):
+        x = _class_attr_expr(ctx, e.attr)
+        if x is None:
+            raise _Unknown
+        return ev(x)
+    if isinstance(e, (ast.Tuple, ast.List)):
+        return tuple(ev(x) for x in e.elts)
+    if isinstance(e, ast.Set):
+        return frozenset(ev(x) for x in e.elts)
+    if isinstance(e, ast.Dict):
+        if any(k is None for k in e.keys):
+            raise _Unknown
+        return {ev(k): ev(v) for k, v in zip(e.keys, e.values)}
+    if isinstance(e, ast.Call) and chain(e.func) in ("frozenset", "set", "tuple", "bool", "dict") and len(e.args) == 1 and not e.keywords:
+        v = ev(e.args[0])
+        return {"frozenset": frozenset, "set": frozenset, "tuple": tuple, "bool": bool, "dict": dict}[chain(e.func)](v)
+    if isinstance(e, ast.Subscript):
+        base, k = ev(e.value), ev(e.slice)
+        try:
+            return base[k]
+        except Exception as ex:  # noqa: BLE001
+            raise _Unknown from ex
+    if isinstance(e, ast.Call) and isinstance(e.func, ast.Attribute) and e.func.attr == "get" and 1 <= len(e.args) <= 2 and not e.keywords:
+        base = ev(e.func.value)
+        if not isinstance(base, dict):
+            raise _Unknown
+        return base.get(ev(e.args[0]), ev(e.args[1]) if len(e.args) == 2 else None)
+    if isinstance(e, ast.UnaryOp) and isinstance(e.op, ast.Not):
+        return not ev(e.operand)
+    if isinstance(e, ast.UnaryOp) and isinstance(e.op, ast.USub):
+        return -ev(e.operand)
+    if isinstance(e, ast.BoolOp):
+        v = None
+        for x in e.values:
+            v = ev(x)
+            if isinstance(e.op, ast.And) and not v:
+                return v
+            if isinstance(e.op, ast.Or) and v:
+                return v
+        return v
+    if isinstance(e, ast.IfExp):
+        return ev(e.body) if ev(e.test) else ev(e.orelse)
+    if isinstance(e, ast.BinOp) and isinstance(e.op, (ast.Add, ast.Sub)):
+        a, b = ev(e.left), ev(e.right)
+        return a + b if isinstance(e.op, ast.Add) else a - b
+    if isinstance(e, ast.Compare):
+        left = ev(e.left)
+        for op, r in zip(e.ops, e.comparators):
+            right = ev(r)
+            try:
+                ok = {ast.Eq: lambda: left == right, ast.NotEq: lambda: left != right, ast.Lt: lambda: left < right, ast.LtE: lambda: left <= right,
+                      ast.Gt: lambda: left > right, ast.GtE: lambda: left >= right, ast.In: lambda: left in right, ast.NotIn: lambda: left not in right,
+                      ast.Is: lambda: left == right, ast.IsNot: lambda: left != right}[type(op)]()
+            except Exception as ex:  # noqa: BLE001
+                raise _Unknown from ex
+            if not ok:
+                return False
+            left = right
+        return True
+    raise _Unknown
+
+
+def _status_allowed(ctx: Ctx, f: Fact, var: str) -> set[int] | None:
+    """The node statuses for which the fact can be true, if it is a test of <var>.status against constants / constant
+    tables: the fact is evaluated for each of the three statuses."""
+    vals = _status_values(ctx)
+    dom = set(vals.values())
+    subject = f"{var}.status"
+    if subject not in norm(f.left) and (f.right is None or subject not in norm(f.right)):
+        return None
+    ok = set()
+    try:
+        for sv in dom:
+            l = _const_eval(ctx, f.left, subject, sv)
+            if f.op == "truthy":
+                r = bool(l)
+            else:
+                rv = _const_eval(ctx, f.right, subject, sv)
+                r = {"eq": lambda: l == rv, "is": lambda: l == rv, "in": lambda: l in rv, "lt": lambda: l < rv}[f.op]()
+            if r:
+                ok.add(sv)
+    except (_Unknown, TypeError, KeyError):
+        return None
+    return ok if f.pos else dom - ok
+
+
+def _excludes_bad(ctx: Ctx, f: Fact, var: str) -> bool:
+    a = _status_allowed(ctx, f, var)
+    return a is not None and _status_values(ctx)["NODE_STATUS_BAD"] not in a
+
+
+def _requires_bad(ctx: Ctx, f: Fact, var: str) -> bool:
+    a = _status_allowed(ctx, f, var)
+    return a is not None and a == {_status_values(ctx)["NODE_STATUS_BAD"]}
+
+
+# ----------------------------------------------------------------------------------- symbolic return values
+class _Unsupported(Exception):
+    pass
 
 
 def _sym_returns(fi: FuncInfo) -> list[tuple[ast.Return, tuple, ast.AST]]:
@@ -411,6 +1409,12 @@ def _sym_returns(fi: FuncInfo) -> list[tuple[ast.Return, tuple, ast.AST]]:
                 continue
             if isinstance(st, ast.Assign) and len(st.targets) == 1 and isinstance(st.targets[0], ast.Name):
                 env[st.targets[0].id] = _subst(strip_cast(st.value), env)
+            elif isinstance(st, ast.Assign) and len(st.targets) == 1 and isinstance(st.targets[0], ast.Tuple) and isinstance(st.value, ast.Tuple) \
+                    and len(st.targets[0].elts) == len(st.value.elts) and all(isinstance(t, ast.Name) for t in st.targets[0].elts) \
+                    and not any(isinstance(v, ast.Starred) for v in st.value.elts):
+                vals = [_subst(strip_cast(v), env) for v in st.value.elts]      # right side first, then all bindings at once
+                for t, v in zip(st.targets[0].elts, vals):
+                    env[t.id] = v
             elif isinstance(st, ast.AnnAssign) and isinstance(st.target, ast.Name):
                 if st.value is not None:
                     env[st.target.id] = _subst(strip_cast(st.value), env)
@@ -502,6 +1506,1726 @@ def _no_suffix_needed(conds: tuple) -> bool:
     return False
 
 
+
+
+# ----------------------------------------------------------------------------------- verdicts
+def _und(ctx: Ctx, rule: str, fi, node, what: str) -> None:
+    """A sub-check cannot be decided for this shape of the code (the construct it reasons about is not recognisable):
+    recorded, and turned into `undecided` (exit 2) at the end of the run unless a definite violation was found as well.
+    Never used when the construct IS recognised and the required guard / value is missing or different: that is a violation."""
+    where = fi.where if hasattr(fi, "where") else str(fi)
+    line = getattr(node, "lineno", 0) if node is not None and not isinstance(node, str) else 0
+    ctx.extra.setdefault("c14_undecided", []).append(f"{ctx.rule_id(rule)} at {where}:{line}: {what}")
+
+
+def _verdict(ctx: Ctx, state: bool | None, rule: str, fi, node, desc: str, reason: str = "", facts: list[str] | None = None, unknown: str = "") -> None:
+    """state True: holds; False: violation; None: undecided (with `unknown` saying what was not recognised)"""
+    if state is None:
+        _und(ctx, rule, fi, node, unknown or desc)
+    else:
+        ctx.check(bool(state), rule, fi, node, desc, reason, facts)
+
+
+def finish_undecided(ctx: Ctx) -> None:
+    und = ctx.extra.get("c14_undecided") or []
+    if und and not ctx.findings:
+        raise AnalysisError("undecided: " + " | ".join(dict.fromkeys(und)))
+    for u in dict.fromkeys(und):
+        ctx.note("undecided part (a violation was reported elsewhere): " + u)
+
+
+def _tri(strict: bool, lax: bool) -> bool | None:
+    """recognised and right: True; the same construction with another constant / operator / method: False; not recognised: None"""
+    return True if strict else (False if lax else None)
+
+
+def _under_match(fr: _Frame | None, node: ast.AST, fi: FuncInfo | None = None) -> bool:
+    """the node (or the call that leads to it, up the call tree) sits inside a `match` statement: the control-flow graph
+    gives no conditions for case patterns, so a missing guard there is not a finding but an unknown"""
+    while True:
+        if any(isinstance(a, ast.Match) for a in ancestors(node)):
+            return True
+        if fr is None or fr.parent is None:
+            return False
+        node, fr = fr.site, fr.parent
+
+
+# ----------------------------------------------------------------------------------- recognisers shared by the rules
+def _assign_targets(n: ast.AST) -> list[tuple[ast.AST, ast.AST | None]]:
+    """(single target, assigned value) pairs of an assignment statement; value None when it is not the whole right side."""
+    if isinstance(n, ast.Assign):
+        out = []
+        for t in n.targets:
+            if isinstance(t, (ast.Tuple, ast.List)):
+                starred = any(isinstance(e, ast.Starred) for e in t.elts)
+                for i, e in enumerate(t.elts):
+                    if isinstance(n.value, (ast.Tuple, ast.List)) and len(n.value.elts) == len(t.elts) and not starred:
+                        v = n.value.elts[i]
+                    elif not starred:
+                        v = ast.copy_location(ast.Subscript(value=n.value, slice=ast.Constant(value=i), ctx=ast.Load()), n.value)   # i-th element of the value
+                    else:
+                        v = None
+                    out.append((e, v))
+            else:
+                out.append((t, n.value))
+        return out
+    if isinstance(n, ast.AnnAssign) and n.value is not None:
+        return [(n.target, n.value)]
+    if isinstance(n, ast.AugAssign):
+        return [(n.target, None)]
+    return []
+
+
+def _int_of_bytes(e: ast.AST, p: str, ctx: Ctx | None = None, depth: int = 2, lax: bool = False) -> bool:
+    """the big-endian integer value of the bytes parameter p (directly, or through a module function all of whose returns
+    give the big-endian integer value of its own parameter; a raise for a degenerate input is not a value).
+    lax: the same constructions with any base / byte order."""
+    e = strip_cast(e)
+    if not isinstance(e, ast.Call):
+        return False
+    if isinstance(e.func, ast.Call) and chain(e.func.func) in ("partial", "functools.partial") and e.func.args \
+            and not any(isinstance(x, ast.Starred) for x in [*e.func.args, *e.args]):
+        # partial(f, *a, **k)(*b) == f(*a, *b, **k)
+        e = ast.Call(func=e.func.args[0], args=[*e.func.args[1:], *e.args], keywords=[*e.func.keywords, *e.keywords])
+    c = chain(e.func)
+    if ctx is not None and depth > 0 and isinstance(e.func, ast.Name) and len(e.args) == 1 and not e.keywords and norm(e.args[0]) == p:
+        g = ctx.repo.module(RT).functions.get(e.func.id)
+        if g is not None and len(g.params()) == 1 and not _is_generator(g.node):
+            alts = _return_alternatives(g)
+            return bool(alts) and all(_int_of_bytes(a, g.params()[0], ctx, depth - 1, lax) for a in alts)
+    if c == "int" and len(e.args) == 2 and (lax or const_value(e.args[1]) == 16) and not e.keywords:
+        h = strip_cast(e.args[0])
+        if isinstance(h, ast.Call) and not h.keywords:
+            hc = chain(h.func)
+            if hc in ("binascii.hexlify", "hexlify") and len(h.args) == 1 and norm(h.args[0]) == p:
+                return True
+            if hc == f"{p}.hex" and not h.args:
+                return True
+        return False
+    if c == "int.from_bytes" and e.args and norm(e.args[0]) == p:
+        order = arg(e, 1, "byteorder")
+        return lax or (order is not None and const_value(order) == "big")
+    return False
+
+
+def _is_bin160(e: ast.AST, p: str, ctx: Ctx | None = None, lax: bool = False) -> bool:
+    """the 160 character zero-padded binary rendering of the bytes parameter p.  lax: the same constructions with any
+    width / format specification / byte order."""
+    e = strip_cast(e)
+
+    def spec_ok(x, want) -> bool:
+        return isinstance(const_value(x), str) if lax else const_value(x) == want
+
+    def ioB(x) -> bool:
+        return _int_of_bytes(x, p, ctx, 2, lax)
+    if isinstance(e, ast.Call) and isinstance(e.func, ast.Attribute) and e.func.attr == "join" and const_value(e.func.value) == "" and len(e.args) == 1 \
+            and isinstance(e.args[0], (ast.GeneratorExp, ast.ListComp)) and len(e.args[0].generators) == 1 and not e.args[0].generators[0].ifs:
+        # byte by byte, 8 bits each: the same 160 characters for a 20-byte id (ids are 20 bytes: calc_node_id)
+        g, elt = e.args[0].generators[0], strip_cast(e.args[0].elt)
+        if isinstance(g.target, ast.Name) and norm(strip_cast(g.iter)) == p:
+            b = g.target.id
+            if isinstance(elt, ast.Call) and chain(elt.func) == "format" and len(elt.args) == 2 and norm(elt.args[0]) == b and spec_ok(elt.args[1], "08b"):
+                return True
+            if isinstance(elt, ast.JoinedStr) and len(elt.values) == 1 and isinstance(elt.values[0], ast.FormattedValue) and norm(elt.values[0].value) == b \
+                    and isinstance(elt.values[0].format_spec, ast.JoinedStr) and len(elt.values[0].format_spec.values) == 1 \
+                    and spec_ok(elt.values[0].format_spec.values[0], "08b"):
+                return True
+        return False
+    if isinstance(e, ast.Call) and chain(e.func) == "format" and len(e.args) == 2 and not e.keywords:
+        return spec_ok(e.args[1], "0160b") and ioB(e.args[0])
+    if isinstance(e, ast.JoinedStr) and len(e.values) == 1 and isinstance(e.values[0], ast.FormattedValue):
+        v = e.values[0]
+        spec = v.format_spec
+        return v.conversion == -1 and isinstance(spec, ast.JoinedStr) and len(spec.values) == 1 and spec_ok(spec.values[0], "0160b") and ioB(v.value)
+    if isinstance(e, ast.Call) and isinstance(e.func, ast.Attribute) and not e.keywords:
+        if e.func.attr == "format" and len(e.args) == 1 and (const_value(e.func.value) in ("{:0160b}", "{0:0160b}") or (lax and isinstance(const_value(e.func.value), str))):
+            return ioB(e.args[0])
+        if (e.func.attr == "zfill" and len(e.args) == 1 and (lax or const_value(e.args[0]) == 160)) or \
+                (e.func.attr in ("rjust", "ljust") and len(e.args) == 2 and ((e.func.attr == "rjust" and const_value(e.args[0]) == 160 and const_value(e.args[1]) == "0") or lax)):
+            b = strip_cast(e.func.value)
+            if isinstance(b, ast.Subscript) and isinstance(b.slice, ast.Slice) and (lax or const_value(b.slice.lower) == 2) and b.slice.upper is None and b.slice.step is None:
+                b = strip_cast(b.value)
+                return isinstance(b, ast.Call) and chain(b.func) == "bin" and len(b.args) == 1 and ioB(b.args[0])
+    return False
+
+
+def _return_alternatives(fi: FuncInfo) -> list[ast.AST]:
+    """The value of every return of fi as an expression over parameters / attributes, conditional expressions split."""
+    rets = [r for r in walk_no_nested(fi.node) if isinstance(r, ast.Return)]
+    try:
+        values = _sym_returns(fi)
+        if {id(r) for r, _, _ in values} != {id(r) for r in rets}:
+            raise _Unsupported
+    except _Unsupported:
+        values = [(r, (), _expand(fi, r.value) if r.value is not None else ast.Constant(value=None)) for r in rets]
+    return [full for _r, conds, v in values for _c, full in _alternatives(v, conds)]
+
+
+def _is_prefix_test(e: ast.AST, p: str, lax: bool = False) -> bool:
+    """binary(p) starts with self.prefix_id.  lax: the same constructions with another string method / comparison / slice."""
+    e = strip_cast(e)
+    binary = f"id_to_binary_string({p})"
+    if isinstance(e, ast.Call) and chain(e.func) == "bool" and len(e.args) == 1:
+        e = strip_cast(e.args[0])
+    if isinstance(e, ast.UnaryOp) and isinstance(e.op, ast.Not) and lax:
+        return _is_prefix_test(e.operand, p, True)
+    if isinstance(e, ast.BoolOp) and isinstance(e.op, ast.And):
+        # `len(prefix) <= len(binary) and <prefix test>`: the length test is implied by the prefix test
+        def length_guard(x: ast.AST) -> bool:
+            f = _atoms_with_polarity(x, True)
+            return len(f) == 1 and f[0].op == "lt" and f[0].right is not None and not f[0].pos \
+                and norm(f[0].left) == f"len({binary})" and norm(f[0].right) == "len(self.prefix_id)"
+        rest = [v for v in e.values if not length_guard(v)]
+        if len(rest) == 1 and len(e.values) > 1:
+            return _is_prefix_test(rest[0], p, lax)
+    if isinstance(e, ast.Compare) and len(e.ops) == 1 and (lax or isinstance(e.ops[0], ast.Eq)) and const_value(e.comparators[0]) == 0:
+        # binary.find(prefix, 0, len(prefix)) == 0
+        c = strip_cast(e.left)
+        if isinstance(c, ast.Call) and isinstance(c.func, ast.Attribute) and c.func.attr in ("find", "index") and norm(strip_cast(c.func.value)) == binary \
+                and c.args and norm(c.args[0]) == "self.prefix_id" and not c.keywords:
+            return lax or (len(c.args) == 3 and const_value(c.args[1]) == 0 and norm(c.args[2]) == "len(self.prefix_id)")
+    if isinstance(e, ast.Call) and chain(e.func) == "all" and len(e.args) == 1 and isinstance(strip_cast(e.args[0]), ast.Call) \
+            and chain(strip_cast(e.args[0]).func) == "map" and len(strip_cast(e.args[0]).args) == 3:
+        # all(map(operator.eq, prefix, binary))
+        m = strip_cast(e.args[0])
+        if (chain(m.args[0]) in ("operator.eq", "eq") or lax) and {norm(strip_cast(x)) for x in m.args[1:]} == {"self.prefix_id", binary}:
+            return True
+    if isinstance(e, ast.Call) and isinstance(e.func, ast.Attribute) and norm(strip_cast(e.func.value)) == binary and not e.keywords \
+            and (e.func.attr == "startswith" or (lax and e.func.attr in ("endswith", "count", "__contains__", "startswith"))):
+        return len(e.args) == 1 and norm(e.args[0]) == "self.prefix_id" or (lax and len(e.args) >= 1)
+    if lax and isinstance(e, ast.Compare) and len(e.ops) == 1 and isinstance(e.ops[0], (ast.In, ast.NotIn)) \
+            and norm(strip_cast(e.left)) == "self.prefix_id" and norm(strip_cast(e.comparators[0])) == binary:
+        return True
+    if isinstance(e, ast.Call) and chain(e.func) == "all" and len(e.args) == 1 and isinstance(e.args[0], (ast.GeneratorExp, ast.ListComp)) \
+            and len(e.args[0].generators) == 1 and not e.args[0].generators[0].ifs:
+        # all(a == b for a, b in zip(prefix, binary)): the binary id (160 characters) is never shorter than a prefix
+        g = e.args[0].generators[0]
+        z = strip_cast(g.iter)
+        t, c = g.target, e.args[0].elt
+        if isinstance(z, ast.Call) and chain(z.func) == "zip" and len(z.args) == 2 and isinstance(t, ast.Tuple) and len(t.elts) == 2 \
+                and all(isinstance(x, ast.Name) for x in t.elts) and isinstance(c, ast.Compare) and len(c.ops) == 1 and (lax or isinstance(c.ops[0], ast.Eq)) \
+                and {norm(c.left), norm(c.comparators[0])} == {t.elts[0].id, t.elts[1].id}:
+            return {norm(strip_cast(x)) for x in z.args} == {"self.prefix_id", binary}
+        return False
+    if isinstance(e, ast.Compare) and len(e.ops) == 1 and (lax or isinstance(e.ops[0], ast.Eq)):
+        sides = [strip_cast(e.left), strip_cast(e.comparators[0])]
+        for a, b in (sides, sides[::-1]):
+            if norm(a) == "self.prefix_id" and isinstance(b, ast.Subscript) and isinstance(b.slice, ast.Slice) and norm(strip_cast(b.value)) == binary:
+                if lax or (b.slice.lower is None and b.slice.step is None and b.slice.upper is not None and norm(b.slice.upper) == "len(self.prefix_id)"):
+                    return True
+    return False
+
+
+def _call_fact(f: Fact, pos: bool, recv: str, meth: str, args: list[str] | None = None) -> bool:
+    if f.op != "truthy" or f.pos != pos:
+        return False
+    c = strip_cast(f.left)
+    if not (isinstance(c, ast.Call) and isinstance(c.func, ast.Attribute) and c.func.attr == meth and norm(c.func.value) == recv):
+        return False
+    return args is None or [norm(a) for a in c.args] == args
+
+
+def _cmp_sat(f: Fact, a_text: str, b_text: str) -> set[tuple[int, int]] | None:
+    """The small integer values (A, B) of the two named quantities for which the comparison fact holds; None when the fact
+    is not a comparison of integer arithmetic over exactly these two quantities and constants.  (So `a + 1 > b`,
+    `b - a <= 0`, `not a < b`, `a == b`, `a >= b + 1` ... are all understood by what they say, not by their spelling.)"""
+    if f.right is None or f.op not in ("lt", "eq"):
+        return None
+
+    class Other(Exception):
+        pass
+
+    def ev(e, A, B):
+        e = strip_cast(e)
+        t = norm(e)
+        if t == a_text:
+            return A
+        if t == b_text:
+            return B
+        if isinstance(e, ast.Constant) and isinstance(e.value, int) and not isinstance(e.value, bool):
+            return e.value
+        if isinstance(e, ast.BinOp) and isinstance(e.op, (ast.Add, ast.Sub)):
+            x, y = ev(e.left, A, B), ev(e.right, A, B)
+            return x + y if isinstance(e.op, ast.Add) else x - y
+        if isinstance(e, ast.UnaryOp) and isinstance(e.op, ast.USub):
+            return -ev(e.operand, A, B)
+        raise Other
+    both = norm(f.left) + " " + norm(f.right)
+    if a_text not in both or b_text not in both:
+        return None
+    sat = set()
+    try:
+        for A in range(0, 7):
+            for B in range(0, 7):
+                x, y = ev(f.left, A, B), ev(f.right, A, B)
+                if ((x < y) if f.op == "lt" else (x == y)) == f.pos:
+                    sat.add((A, B))
+    except Other:
+        return None
+    return sat
+
+
+def _len_vs_max(f: Fact, recv: str) -> str | None:
+    """What the fact says about len(<recv>.nodes) versus <recv>.max_size: 'room' (<), 'full' (>=), None."""
+    sat = _cmp_sat(f, f"len({recv}.nodes)", f"{recv}.max_size")
+    if not sat:
+        return None
+    if all(L < M for L, M in sat):
+        return "room"
+    if all(L >= M for L, M in sat):
+        return "full"
+    return None
+
+
+def _nodes_base(fr: _Frame, e: ast.AST) -> str | None:
+    """e is `<recv>.nodes` (after translation): the receiver text"""
+    t = fr.tr(e)
+    return norm(t.value) if isinstance(t, ast.Attribute) and t.attr == "nodes" else None
+
+
+def _nodes_removals(cl: _Closure) -> list[tuple[_Frame, ast.AST, str, ast.AST | None]]:
+    """(frame, node, receiver, key) of everything that takes entries out of a `<recv>.nodes` mapping"""
+    out = []
+    for fr, n in cl.nodes:
+        if isinstance(n, ast.Call) and isinstance(n.func, ast.Attribute) and n.func.attr in ("pop", "popitem", "clear", "__delitem__"):
+            recv = _nodes_base(fr, n.func.value)
+            if recv is not None:
+                out.append((fr, n, recv, n.args[0] if n.args and n.func.attr in ("pop", "__delitem__") else None))
+        elif isinstance(n, ast.Delete):
+            for t in n.targets:
+                if isinstance(t, ast.Subscript):
+                    recv = _nodes_base(fr, t.value)
+                    if recv is not None:
+                        out.append((fr, n, recv, t.slice))
+    return out
+
+
+def _nodes_insertions(cl: _Closure) -> list[tuple[_Frame, ast.AST, str, ast.AST | None, ast.AST | None]]:
+    """(frame, node, receiver, key, value) of everything that puts entries into a `<recv>.nodes` mapping"""
+    out = []
+    for fr, n in cl.nodes:
+        for t, v in _assign_targets(n):
+            if isinstance(t, ast.Subscript):
+                recv = _nodes_base(fr, t.value)
+                if recv is not None:
+                    out.append((fr, n, recv, t.slice, v))
+        if isinstance(n, ast.Call) and isinstance(n.func, ast.Attribute) and n.func.attr in ("setdefault", "__setitem__", "update"):
+            recv = _nodes_base(fr, n.func.value)
+            if recv is not None:
+                two = len(n.args) == 2 and n.func.attr != "update"
+                out.append((fr, n, recv, n.args[0] if two else None, n.args[1] if two else None))
+    return out
+
+
+def rule_bucket(ctx: Ctx) -> None:
+    repo = ctx.repo
+    add = repo.method("Bucket", "add", RT)
+    node = add.params()[1]
+    cl = _Closure(ctx, add, stop=(node,))
+    ins = _nodes_insertions(cl)
+    if not ins:
+        _und(ctx, "bucket-insert", add, add.node, "no store into self.nodes is recognisable in Bucket.add or the helpers it calls")
+    for fr, s, recv, k, v in ins:
+        fs = cl.facts(fr, s)
+        owns = any(_call_fact(f, True, recv, "owns", [f"{node}.id"]) for f in fs)
+        room = any(_len_vs_max(f, recv) == "room" for f in fs)
+        key = recv == "self" and k is not None and v is not None and fr.ntr(k) == f"{node}.id" and fr.ntr(v) == node
+        state = True if owns and room and key else (None if key and _under_match(fr, s) else False)
+        _verdict(ctx, state, "bucket-insert", fr.fi, s, "nodes[node.id] = node dominated by owns(node.id) and len(nodes) < max_size",
+                 f"a node can be stored in a bucket that does not own its id or that is full (owns={owns} room={room} keyed_by_id={key})", sorted({str(f) for f in fs}),
+                 unknown="the store is inside a match statement: the case patterns that guard it give no conditions")
+    # the update branch changes the address only
+    for fr, s in cl.nodes:
+        for t, _v in _assign_targets(s):
+            if isinstance(t, ast.Attribute) and t.attr not in ("last_changed", "bucket", "address"):
+                ctx.check(False, "bucket-insert", fr.fi, s, "add only sets address/last_changed/bucket", "Bucket.add rewrites an unexpected attribute")
+    # nobody else fills a bucket: the ownership and capacity guards live in Bucket.add only
+    rt_module = repo.module(RT)
+
+    def called_in_module(name: str) -> bool:
+        return any(isinstance(n, ast.Call) and call_name(n) == name for n in ast.walk(rt_module.tree))
+    for fi in rt_module.all_functions:
+        if id(fi.node) in cl.visited or any(id(a) in cl.visited for a in ancestors(fi.node)):
+            continue
+        if fi.name.startswith("_") and not fi.name.startswith("__") and not called_in_module(fi.name):
+            continue        # a private helper nothing in this module calls (its body was inlined at its call sites by the engine, where it is checked)
+        other = _Closure(ctx, fi, maxdepth=0)
+        for fr, s, recv, k, v in _nodes_insertions(other):
+            ctx.check(False, "bucket-insert", fi, s, f"bucket contents written in {fi.qualname}",
+                      "a node is put into a bucket's node table outside Bucket.add: neither the ownership nor the capacity guard applies")
+    owns = repo.method("Bucket", "owns", RT)
+    alts = _return_alternatives(owns)
+    two = len(owns.params()) == 2
+    state = _tri(bool(alts) and two and all(_is_prefix_test(v, owns.params()[1]) for v in alts),
+                 bool(alts) and two and all(_is_prefix_test(v, owns.params()[1], lax=True) for v in alts))
+    _verdict(ctx, state, "bucket-insert", owns, owns.node, "owns(id) = binary(id).startswith(prefix_id)", "bucket ownership is no longer the prefix test on the binary id",
+             unknown="Bucket.owns is not written as a prefix test on the binary rendering (startswith / slice comparison / zip): that it equals one is not decided")
+    ib = repo.func(RT, "id_to_binary_string")
+    alts = _return_alternatives(ib)
+    state = _tri(bool(alts) and all(_is_bin160(v, ib.params()[0], ctx) for v in alts), bool(alts) and all(_is_bin160(v, ib.params()[0], ctx, lax=True) for v in alts))
+    _verdict(ctx, state, "bucket-insert", ib, ib.node, "binary id = 160-bit zero-padded big-endian", "id_to_binary_string is no longer the 160-bit big-endian rendering",
+             unknown="id_to_binary_string is not one of the known renderings (format / f-string / bin().zfill / per-byte join): not decided")
+    # removal from a bucket only of BAD nodes / slow nodes when full; pops are keyed by the node's own id
+    for fr, c, recv, k in _nodes_removals(cl):
+        fs = cl.facts(fr, c)
+        full = any(_len_vs_max(f, recv) == "full" for f in fs)
+        state = True if full and recv == "self" else (None if _under_match(fr, c) else False)
+        _verdict(ctx, state, "bucket-insert", fr.fi, c, "eviction only when the bucket is full",
+                 "nodes are evicted from a bucket that is not full", sorted({str(f) for f in fs}),
+                 unknown="the eviction is inside a match statement: the case patterns that guard it give no conditions")
+
+
+def _child_frame(cl: _Closure, call: ast.Call) -> _Frame | None:
+    return next((f for f in cl.frames if f.site is call), None)
+
+
+def _denotes_split(cl: _Closure, fr: _Frame, e: ast.AST, site: ast.AST, recv: str, depth: int = 8) -> bool | None:
+    """e (evaluated at `site` of frame fr) is the pair returned by <recv>.split(): True; it is None / False: None; anything
+    else: False.  Followed through ALL assignments that reach the site, conditional expressions, helper parameters and the
+    return values of helpers in the call tree; a mix of split results and None counts as True (None is never unpacked)."""
+    if depth <= 0 or e is None:
+        return False
+    e = strip_cast(e)
+    if isinstance(e, ast.NamedExpr):
+        e = strip_cast(e.value)
+
+    def combine(parts) -> bool | None:
+        parts = list(parts)
+        if not parts or any(p is False for p in parts):
+            return False
+        return True if any(p is True for p in parts) else None
+    if _is_split_call(e):
+        return fr.ntr(e.func.value, expand=False) == recv
+    if isinstance(e, ast.Constant):
+        return None if not e.value else False
+    if isinstance(e, ast.IfExp):
+        return combine([_denotes_split(cl, fr, e.body, site, recv, depth - 1), _denotes_split(cl, fr, e.orelse, site, recv, depth - 1)])
+    if isinstance(e, ast.BoolOp):
+        if isinstance(e.op, ast.And):
+            return _denotes_split(cl, fr, e.values[-1], site, recv, depth - 1)       # falsy earlier operands are not pairs
+        return combine(_denotes_split(cl, fr, v, site, recv, depth - 1) for v in e.values)
+    if isinstance(e, ast.Name):
+        rs = _reaching(cl.ctx, fr.fi, e.id, site)
+        if not rs:
+            if fr.parent is not None and e.id in fr.raw_env:
+                return _denotes_split(cl, fr.parent, fr.raw_env[e.id], fr.site, recv, depth - 1)
+            return False
+        out = []
+        for st, v, idx in rs:
+            if v is None:
+                return False
+            if idx is None:
+                out.append(_denotes_split(cl, fr, v, st, recv, depth - 1))
+            else:
+                out.append(_project(cl, fr, v, idx, st, recv, depth - 1))
+        return combine(out)
+    if isinstance(e, ast.Call):
+        child = _child_frame(cl, e)
+        if child is not None:
+            rets = [r for r in walk_no_nested(child.fi.node) if isinstance(r, ast.Return)]
+            return combine(_denotes_split(cl, child, r.value, r, recv, depth - 1) if r.value is not None else None for r in rets)
+    return False
+
+
+def _project(cl: _Closure, fr: _Frame, v: ast.AST, idx: int, site: ast.AST, recv: str, depth: int) -> bool | None:
+    """element idx of the tuple value v (a literal tuple, a local holding one, a helper returning tuples) denotes the split pair"""
+    v = strip_cast(v)
+    if depth <= 0:
+        return False
+    if isinstance(v, (ast.Tuple, ast.List)) and idx < len(v.elts) and not any(isinstance(x, ast.Starred) for x in v.elts):
+        return _denotes_split(cl, fr, v.elts[idx], site, recv, depth - 1)
+    if isinstance(v, ast.Call):
+        child = _child_frame(cl, v)
+        if child is not None:
+            rets = [r for r in walk_no_nested(child.fi.node) if isinstance(r, ast.Return)]
+            parts = [_project(cl, child, r.value, idx, r, recv, depth - 1) if r.value is not None else False for r in rets]
+            if not parts or any(p is False for p in parts):
+                return False
+            return True if any(p is True for p in parts) else None
+    if isinstance(v, ast.Name):
+        rs = _reaching(cl.ctx, fr.fi, v.id, site)
+        parts = [_project(cl, fr, val, idx, st, recv, depth - 1) if val is not None and i2 is None else False for st, val, i2 in rs]
+        if not parts or any(p is False for p in parts):
+            return False
+        return True if any(p is True for p in parts) else None
+    return False
+
+
+def _split_index(cl: _Closure, fr: _Frame, v: ast.AST, recv: str, site: ast.AST, depth: int = 8) -> int | None:
+    """v (evaluated at `site`) is the i-th half returned by <recv>.split(): followed through every assignment that reaches
+    the site, 2-name unpacking, constant subscripts and helper parameters."""
+    if depth <= 0 or v is None:
+        return None
+    v = strip_cast(v)
+    if isinstance(v, ast.Subscript):
+        i = const_value(v.slice)
+        if isinstance(i, int) and not isinstance(i, bool) and i in (0, 1) and _denotes_split(cl, fr, v.value, site, recv) is True:
+            return i
+        return None
+    if isinstance(v, ast.Name):
+        rs = _reaching(cl.ctx, fr.fi, v.id, site)
+        if not rs:
+            if fr.parent is not None and v.id in fr.raw_env:
+                return _split_index(cl, fr.parent, fr.raw_env[v.id], recv, fr.site, depth - 1)
+            return None
+        got = set()
+        for st, val, idx in rs:
+            if val is None:
+                return None
+            if idx is None:
+                r = _split_index(cl, fr, val, recv, st, depth - 1)
+            else:
+                tg = [t for t in getattr(st, "targets", [getattr(st, "target", None)]) if isinstance(t, (ast.Tuple, ast.List))]
+                two = bool(tg) and all(len(t.elts) == 2 and not any(isinstance(x, ast.Starred) for x in t.elts) for t in tg)
+                r = idx if two and idx in (0, 1) and _denotes_split(cl, fr, val, st, recv) is True else None
+            if r is None:
+                return None
+            got.add(r)
+        return got.pop() if len(got) == 1 else None
+    return None
+
+
+def _trie_writes(cl: _Closure) -> list[tuple[_Frame, ast.AST, str, ast.AST, ast.AST | None]]:
+    """('store' | 'del', key, value) of every write to self.trie[...] in the call tree"""
+    out = []
+    for fr, n in cl.nodes:
+        for t, v in _assign_targets(n):
+            if isinstance(t, ast.Subscript) and fr.ntr(t.value) == "self.trie":
+                out.append((fr, n, "store", t.slice, v))
+        if isinstance(n, ast.Delete):
+            for t in n.targets:
+                if isinstance(t, ast.Subscript) and fr.ntr(t.value) == "self.trie":
+                    out.append((fr, n, "del", t.slice, None))
+        if isinstance(n, ast.Call) and isinstance(n.func, ast.Attribute) and n.func.attr in ("__setitem__", "__delitem__") and fr.ntr(n.func.value) == "self.trie":
+            if n.func.attr == "__setitem__" and len(n.args) == 2:
+                out.append((fr, n, "store", n.args[0], n.args[1]))
+            elif n.func.attr == "__delitem__" and len(n.args) == 1:
+                out.append((fr, n, "del", n.args[0], None))
+    return out
+
+
+def _reaching(ctx: Ctx, fi: FuncInfo, name: str, site: ast.AST) -> list[tuple[ast.AST, ast.AST | None, int | None]]:
+    """The assignments (statement, value, unpack index) of local `name` that can be the current one when `site` is
+    evaluated: CFG, an assignment reaches the site if a path leads from it to the site without another assignment of
+    the name.  (An assignment statement does not reach its own right side, a walrus reaches the rest of its condition.)"""
+    defs = local_defs(fi, name)
+    cfg = ctx.cfg(fi)
+    sn = cfg.nodes_for(site)
+    if not defs or not sn:
+        return []
+    alld = [x for st, _v, _i in defs for x in cfg.nodes_for(st)]
+    out = []
+    for st, v, idx in defs:
+        dn = cfg.nodes_for(st)
+        r = cfg.reach([x for d in dn for x, lab in d.succ if lab != "exc"], cut_nodes=[a for a in alld if a not in sn])
+        walrus_here = any(d in sn for d in dn) and any(isinstance(n, ast.NamedExpr) and n.target.id == name for d in dn if d.ast is not None for n in ast.walk(d.ast)) \
+            and not isinstance(st, (ast.Assign, ast.AnnAssign, ast.AugAssign))
+        if any(x in r for x in sn) or walrus_here:
+            out.append((st, v, idx))
+    return out
+
+
+def _reaching_defs(ctx: Ctx, fi: FuncInfo, name: str, site: ast.AST) -> list[ast.AST] | None:
+    """Values of the assignments that reach `site`; None if one of them has no followable value (loop target,
+    unpacking, augmented assignment) or the name is a parameter."""
+    if name in fi.params():
+        return None
+    rs = _reaching(ctx, fi, name, site)
+    if not rs or any(v is None or idx is not None for _st, v, idx in rs):
+        return None
+    return [v for _st, v, _idx in rs]
+
+
+def _value_leaves(fi: FuncInfo, e: ast.AST, site: ast.AST, depth: int = 6, seen=None) -> list[tuple[ast.AST, ast.AST]] | None:
+    """The expressions a value can come from, through ALL reaching definitions of locals, `or`/`and` and conditional
+    expressions: (leaf expression, the node at which it is evaluated).  None when a definition cannot be followed."""
+    seen = seen or set()
+    e = strip_cast(e)
+    if depth <= 0:
+        return None
+    if isinstance(e, ast.Name) and e.id not in fi.params():
+        if e.id in seen:
+            return []
+        defs = local_defs(fi, e.id)
+        if not defs:
+            return [(e, site)]
+        out = []
+        for st, v, idx in defs:
+            if v is None or idx is not None:
+                return None
+            sub = _value_leaves(fi, v, v, depth - 1, seen | {e.id})
+            if sub is None:
+                return None
+            out.extend(sub)
+        return out
+    if isinstance(e, ast.BoolOp):
+        out = []
+        for v in e.values:
+            sub = _value_leaves(fi, v, v, depth - 1, seen)
+            if sub is None:
+                return None
+            out.extend(sub)
+        return out
+    if isinstance(e, ast.IfExp):
+        a, b = _value_leaves(fi, e.body, e.body, depth - 1, seen), _value_leaves(fi, e.orelse, e.orelse, depth - 1, seen)
+        return None if a is None or b is None else a + b
+    if isinstance(e, ast.NamedExpr):
+        return _value_leaves(fi, e.value, e.value, depth - 1, seen)
+    return [(e, site)]
+
+
+def _check_get_bucket(ctx: Ctx) -> None:
+    gb = ctx.repo.method("RoutingTable", "get_bucket", RT)
+    p = gb.params()[1]
+    cfg = ctx.cfg(gb)
+    rets = [r for r in walk_no_nested(gb.node) if isinstance(r, ast.Return)]
+    ok = bool(rets)
+    found_lpv = False
+    why = ""
+
+    def is_lpv(e) -> bool:
+        e = strip_cast(e)
+        return isinstance(e, ast.Call) and chain(e.func) == "self.trie.longest_prefix_value" and bool(e.args) \
+            and norm(_expand(gb, e.args[0])) == f"id_to_binary_string({p})"
+
+    def is_lpv_at(e, at) -> bool:
+        """e, evaluated at `at`, is the result of the longest-prefix lookup (through the assignments that reach `at`)"""
+        e = strip_cast(e)
+        if isinstance(e, ast.NamedExpr):
+            e = strip_cast(e.value)
+        if isinstance(e, ast.Name):
+            vals = _reaching_defs(ctx, gb, e.id, at)
+            return bool(vals) and all(is_lpv(v) for v in vals)
+        return is_lpv(e)
+
+    def lookup_failed(site) -> bool:
+        """site is evaluated only when the longest-prefix lookup gave nothing: its result was falsy / None, or it raised
+        KeyError and site is in the handler"""
+        for f in facts_at(cfg, site):
+            if ((f.op == "truthy" and not f.pos) or (f.op == "is" and f.pos and const_value(f.right) is None)) and is_lpv_at(f.left, f.atom):
+                return True
+        for a in ancestors(site):
+            if isinstance(a, ast.ExceptHandler):
+                t = parent(a)
+                names = [chain(x) for x in (a.type.elts if isinstance(a.type, ast.Tuple) else [a.type])] if a.type is not None else []
+                if isinstance(t, ast.Try) and names and set(names) <= {"KeyError", "LookupError"} and len(t.body) == 1 \
+                        and any(is_lpv(c) for c in ast.walk(t.body[0]) if isinstance(c, ast.Call)):
+                    return True
+        return False
+
+    for r in rets:
+        leaves = _value_leaves(gb, r.value, r) if r.value is not None else None
+        if leaves is None:
+            ok, why = False, "a returned value cannot be traced to its definitions"
+            break
+        for leaf, site in leaves:
+            if is_lpv(leaf):
+                found_lpv = True
+                continue
+            if norm(leaf) == "self.trie['']":
+                # the root bucket is the fallback: only when the longest-prefix lookup gave nothing
+                if lookup_failed(site):
+                    continue
+                ok, why = False, "the root bucket is returned although a longer prefix may match"
+            else:
+                ok, why = False, f"the returned bucket can come from `{norm(leaf)}`"
+    has_match = any(isinstance(n, ast.Match) for n in walk_no_nested(gb.node))
+    state = True if ok and found_lpv else (None if has_match or not rets else False)
+    _verdict(ctx, state, "bucket-insert", gb, gb.node, "get_bucket = bucket of the longest matching prefix of the binary id",
+             "get_bucket no longer selects by longest prefix" + (f" ({why})" if why else ""),
+             unknown="get_bucket selects its result with a match statement: the case patterns give no conditions")
+
+
+def _check_bucket_split(ctx: Ctx) -> None:
+    sf = ctx.repo.method("Bucket", "split", RT)
+    rets = [r for r in walk_no_nested(sf.node) if isinstance(r, ast.Return) and r.value is not None and const_value(r.value) is not None]
+
+    def child_bit(e: ast.AST) -> str | None:
+        """e constructs Bucket(self.prefix_id + '<bit>', self.max_size)"""
+        e = strip_cast(e)
+        for _ in range(6):
+            if isinstance(e, ast.Name):
+                el = _elem_of_name(sf, e.id)
+                if el is None:
+                    d = single_def(sf, e.id)
+                    el = d[0] if d is not None and d[1] is None else None
+                if el is None:
+                    return None
+                e = strip_cast(el)
+            elif isinstance(e, ast.Subscript):
+                i = const_value(e.slice)
+                if isinstance(i, str):
+                    pairs = _dict_pairs(sf, e.value, 4)
+                    hit = [v for k, v in pairs or [] if const_value(k) == i]
+                    if not hit:
+                        return None
+                    e = strip_cast(hit[-1])
+                    continue
+                col = _elems(sf, e.value)
+                if col is None or not isinstance(i, int) or isinstance(i, bool) or not -len(col) <= i < len(col):
+                    return None
+                e = strip_cast(col[i])
+            else:
+                break
+        if not (isinstance(e, ast.Call) and chain(e.func) == "Bucket"):
+            return None
+        pre, size = arg(e, 0, "prefix_id"), arg(e, 1, "max_size")
+        if pre is None:
+            return None
+        if size is None or norm(_expand(sf, size)) != "self.max_size":
+            return "other capacity"                                      # recognised as a child, but not of the parent's capacity
+        parts = _str_parts(_expand(sf, pre))
+        if parts is not None and len(parts) == 2 and parts[0] == ("e", "self.prefix_id") and isinstance(parts[1], str):
+            return parts[1]                                               # '0' / '1' / something else (recognised, wrong)
+        if parts is not None and any(x == ("e", "self.prefix_id") for x in parts):
+            return "prefix not extended by one bit at the end"
+        return None
+
+    state: bool | None = True if rets else None
+    got = {}
+    for r in rets:
+        col = _elems(sf, r.value)
+        if col is None:
+            state = None if state is not False else False
+            continue
+        got = {i: child_bit(x) for i, x in enumerate(col)}
+        if len(col) != 2 or any(v is not None for v in got.values()) and got != {0: "0", 1: "1"} and all(v is not None for v in got.values()):
+            state = False
+        elif got != {0: "0", 1: "1"}:
+            state = None if state is not False else False
+    _verdict(ctx, state, "split-partition", sf, rets[0] if rets else sf.node, "Bucket.split returns (prefix+'0', prefix+'1') children of the same capacity",
+             f"Bucket.split children are {got}", unknown="the pair returned by Bucket.split cannot be traced to two Bucket(prefix + bit, max_size) constructions")
+    # redistribution: every node of the parent is offered to the children; a child takes it only if it owns its id
+    loops = [l for l in walk_no_nested(sf.node) if isinstance(l, ast.For)
+             and norm(_strip_snapshot(resolve(sf, _strip_snapshot(l.iter)))) in ("self.nodes.values()", "self.nodes.items()")]
+    state = True if loops else None
+    for l in loops:
+        for x in ast.walk(l):
+            if isinstance(x, ast.Return) or (isinstance(x, ast.Break) and next((a for a in ancestors(x) if isinstance(a, (ast.For, ast.While))), None) is l):
+                state = False
+    _verdict(ctx, state, "split-partition", sf, loops[0] if loops else sf.node, "every node of the parent is redistributed", "split can lose nodes of the parent bucket",
+             unknown="Bucket.split has no `for` loop over self.nodes.values() / items(): how the parent's nodes are visited is not recognised")
+    moved = 0
+    cl = _Closure(ctx, sf)
+
+    def known_child(fr: _Frame, recv: ast.AST) -> bool:
+        """the receiver is a child by construction: a name bound to Bucket(prefix + bit, ...), or a loop / comprehension
+        variable over a literal collection of the children (also when that collection was passed to a helper)"""
+        recv = strip_cast(recv)
+        if not isinstance(recv, ast.Name):
+            return False
+        if fr.parent is None and child_bit(recv) in ("0", "1"):
+            return True
+
+        def children(f0: _Frame, it: ast.AST) -> bool:
+            f2, it2 = _deep_resolve(f0, _strip_snapshot(strip_cast(it)))
+            col = _elems(f2.fi, it2)
+            if not col:
+                return False
+            for x in col:
+                f3, x3 = _deep_resolve(f2, x)
+                if not (f3.parent is None and child_bit(x3 if not isinstance(x, ast.Name) or f3 is not f2 else x) in ("0", "1")) \
+                        and not (f2.parent is None and child_bit(x) in ("0", "1")):
+                    return False
+            return True
+        for st, v, _i in local_defs(fr.fi, recv.id):
+            if isinstance(st, ast.For) and children(fr, st.iter):
+                return True
+            if v is not None and isinstance(strip_cast(v), ast.Call) and chain(strip_cast(v).func) == "next" and strip_cast(v).args:
+                g = strip_cast(strip_cast(v).args[0])
+                if isinstance(g, _COMPS) and len(g.generators) == 1 and children(fr, g.generators[0].iter):
+                    return True
+        return False
+
+    for fr, c in cl.nodes:
+        if not (isinstance(c, ast.Call) and isinstance(c.func, ast.Attribute) and c.func.attr == "add" and c.args):
+            continue
+        b = fr.ntr(c.func.value, expand=False)
+        if b == "self":
+            continue
+        if isinstance(strip_cast(c.func.value), ast.Subscript) and fr.parent is None:
+            # dispatch table: the child is looked up by the node's next bit after the parent's prefix; the table maps bit b to the
+            # child built with prefix + b, so the chosen child owns every id that continues the parent's prefix with that bit
+            sub = strip_cast(c.func.value)
+            nextbit = f"id_to_binary_string({fr.ntr(c.args[0])}.id)[len(self.prefix_id)]"
+            pairs = _dict_pairs(sf, sub.value, 4)
+            col = _elems(sf, sub.value)
+            keyed = norm(_expand(sf, sub.slice))
+            if pairs is not None and keyed == nextbit and pairs and all(const_value(k) in ("0", "1") and child_bit(v) == const_value(k) for k, v in pairs) \
+                    and {const_value(k) for k, _v in pairs} == {"0", "1"}:
+                moved += 1
+                ctx.check(True, "split-partition", sf, c, "node moved to the child selected by its next bit (table bit -> child with prefix + bit)")
+                continue
+            if col is not None and keyed == f"int({nextbit})" and [child_bit(x) for x in col] == ["0", "1"]:
+                moved += 1
+                ctx.check(True, "split-partition", sf, c, "node moved to the child selected by its next bit (children[bit])")
+                continue
+        if isinstance(strip_cast(c.func.value), ast.Subscript):
+            _und(ctx, "split-partition", fr.fi, c, f"Bucket.split picks the receiving child by a computed index/key (`{norm(c.func.value)}`); ownership of the "
+                 "moved node cannot be decided from guards")
+            moved += 1
+            continue
+        moved += 1
+        a0 = fr.ntr(c.args[0])
+        fs = cl.facts(fr, c)
+        ok = any(_call_fact(f, True, b, "owns", [f"{a0}.id"]) for f in fs)
+        # a missing guard is a finding when the receiver is visibly one of the children; a receiver picked by an expression
+        # this check does not understand (next(filter(...)), a lookup) is an unknown
+        state = True if ok else (False if known_child(fr, c.func.value) and not _under_match(fr, c) else None)
+        _verdict(ctx, state, "split-partition", fr.fi, c, f"node moved to {b} only if {b}.owns(node.id)", "split redistributes a node into a child that does not own it",
+                 sorted({str(f) for f in fs}), unknown=f"how the receiving child `{b}` is chosen is not recognised: that it owns the moved node is not decided")
+    if moved == 0:
+        _und(ctx, "split-partition", sf, sf.node, "no <child>.add(node) call is recognisable in Bucket.split: how nodes reach the children is not decided")
+    init = ctx.repo.method("Bucket", "__init__", RT)
+    ok = any(isinstance(t, ast.Attribute) and norm(t) == "self.prefix_id" and v is not None and norm(_expand(init, v)) == init.params()[1]
+             for s in walk_no_nested(init.node) for t, v in _assign_targets(s))
+    ctx.check(ok, "split-partition", init, init.node, "a bucket's prefix_id is the prefix it was constructed with", "Bucket.__init__ does not keep the prefix it is given")
+
+
+def _key_of_bad_entry(ctx: Ctx, fr: _Frame, k: ast.AST, recv: str) -> bool:
+    """`for K in [key for key, n in <recv>.nodes.items() if n.status == BAD]`: K is the key of an entry whose node is BAD
+    (keys collected first, popped afterwards; the status is not written in between)"""
+    f2, k2 = _deep_resolve(fr, k)
+    if not isinstance(k2, ast.Name) or _writes_status(f2.fi):
+        return False
+    for st, _v, _i in local_defs(f2.fi, k2.id):
+        if not (isinstance(st, ast.For) and isinstance(st.target, ast.Name)):
+            return False
+        it = _strip_snapshot(resolve(f2.fi, _strip_snapshot(st.iter)))
+        if isinstance(it, ast.Call) and isinstance(it.func, ast.Attribute) and it.func.attr == "keys" and not it.args:
+            it = _strip_snapshot(resolve(f2.fi, it.func.value))                # for k in d.keys()  ==  for k in d
+        if isinstance(it, ast.DictComp) and isinstance(it.key, ast.Name) and len(it.generators) == 1:
+            it = ast.ListComp(elt=it.key, generators=it.generators)           # iterating a dict gives its keys
+        if not (isinstance(it, _COMPS) and isinstance(it.elt, ast.Name) and len(it.generators) == 1):
+            return False
+        g = it.generators[0]
+        src = _strip_snapshot(g.iter)
+        if not (isinstance(g.target, ast.Tuple) and len(g.target.elts) == 2 and all(isinstance(x, ast.Name) for x in g.target.elts)
+                and g.target.elts[0].id == it.elt.id and isinstance(src, ast.Call) and isinstance(src.func, ast.Attribute) and src.func.attr == "items"
+                and not src.args and f2.ntr(src.func.value, expand=False) == f"{recv}.nodes"):
+            return False
+        nv = g.target.elts[1].id
+        fs = _comp_filter_facts(it, {nv})
+        fs = fs + [x for f in fs for x in _expand_fact(ctx, f2.fi, f, None)]
+        if not any(_requires_bad(ctx, f, nv) for f in fs):
+            return False
+    return True
+
+
+def rule_split(ctx: Ctx) -> None:
+    repo = ctx.repo
+    add = repo.method("RoutingTable", "add", RT)
+    node = add.params()[1]
+    # the bucket variable(s): receivers of split()
+    pre = _Closure(ctx, add, stop=(node,), unroll=True)
+    recvs = {fr.ntr(n.func.value, expand=False) for fr, n in pre.nodes if isinstance(n, ast.Call) and _is_split_call(n)}
+    cl = _Closure(ctx, add, stop=(node, *[r for r in recvs if r.isidentifier()]), unroll=True)
+    sp = [(fr, n) for fr, n in cl.nodes if isinstance(n, ast.Call) and _is_split_call(n)]
+    # match statements (case patterns give no conditions): in add itself, or around a split / trie update / retry in a helper
+    opaque = any(isinstance(n, ast.Match) for n in walk_no_nested(cl.root.fi.node)) or any(
+        _under_match(fr, n) for fr, n in cl.nodes
+        if (isinstance(n, ast.Call) and (_is_split_call(n) or (isinstance(n.func, ast.Attribute) and n.func.attr == "add")))
+        or (isinstance(n, (ast.Assign, ast.Delete)) and any(isinstance(t, ast.Subscript) for t in (n.targets if hasattr(n, "targets") else []))))
+    if not sp:
+        _und(ctx, "split-own-path", add, add.node, "no <bucket>.split() call is recognisable in RoutingTable.add or the helpers it calls")
+    for fr, c in sp:
+        fs = cl.facts(fr, c)
+        b = fr.ntr(c.func.value, expand=False)
+        own = any(_call_fact(f, True, b, "owns", ["self.my_node_id"]) for f in fs)
+        failed = any(_call_fact(f, False, b, "add", [node]) for f in fs)
+        _f, src_e = _deep_resolve(fr, c.func.value)
+        d = single_def(cl.root.fi, b) if b.isidentifier() else None
+        src = (d is not None and d[1] is None and norm(_expand(cl.root.fi, d[0], (node,))) == f"self.get_bucket({node}.id)") or \
+            norm(cl.root.tr(src_e)) == f"self.get_bucket({node}.id)"
+        # a receiver that is not a plain local (an attribute of a result object ...) is not followed: unknown, not a finding
+        state = True if own and failed and src else (None if not b.isidentifier() or _under_match(fr, c) else False)
+        _verdict(ctx, state, "split-own-path", fr.fi, c, "split only when adding failed and the bucket owns our own id",
+                 "a bucket that is not on the path of our own identifier can be split", sorted({str(f) for f in fs}),
+                 unknown=f"the bucket that is split (`{b}`) is not a local bound to self.get_bucket(node.id) / the call is under a match statement: "
+                         "its guards are not decided")
+    b = next(iter(sorted(recvs)), "bucket")
+    writes = _trie_writes(cl)
+    stores = [w for w in writes if w[2] == "store"]
+    dels = [w for w in writes if w[2] == "del"]
+    halves: dict[str, int] = {}
+    desc = []
+    wrong = unknown = False
+    for fr, n, _k, key, val in stores:
+        idx = _split_index(cl, fr, val, b, n) if val is not None else None
+        kt = fr.tr(key)
+        parts = _str_parts(kt)
+        bit = None
+        if parts is not None and len(parts) == 2 and parts[0] == ("e", f"{b}.prefix_id") and isinstance(parts[1], str):
+            bit = parts[1]
+        elif isinstance(kt, ast.Attribute) and kt.attr == "prefix_id" and idx is not None and _split_index(cl, fr, key.value if isinstance(key, ast.Attribute) else key, b, n) == idx:
+            bit = str(idx)                                                # the child's own prefix (Bucket.split builds it as prefix + str(i))
+        desc.append(f"{norm(kt)} <- {'half ' + str(idx) if idx is not None else norm(fr.tr(val)) if val is not None else '?'}")
+        if bit is None or idx is None:
+            unknown = True                                                # key or value not traceable to prefix + bit / half i
+        elif str(idx) != bit or bit in halves:
+            wrong = True                                                  # recognised, and not `prefix + i -> half i` once each
+        else:
+            halves[bit] = idx
+    dk = [fr.ntr(key) for fr, n, _k, key, _v in dels]
+    if not stores and not dels:
+        state = None
+    elif wrong or (stores and not dels) or (dels and dk != [f"{b}.prefix_id"] and b.isidentifier()) or (not unknown and halves != {"0": 0, "1": 1}):
+        state = False
+    elif unknown or opaque or not b.isidentifier():
+        state = None
+    else:
+        state = True
+    ok = state is True
+    _verdict(ctx, state, "split-partition", add, add.node, "split stores prefix+'0' -> first half, prefix+'1' -> second half and deletes prefix",
+             f"after a split the tree is not the two children replacing the parent: stores={desc} deletes={dk}",
+             unknown=f"the trie updates after a split cannot be traced to `prefix + bit -> half` (stores={desc} deletes={dk})")
+    # retry after split: the recursive self.add(node), or - in a loop - going round to fetch the bucket of the node again
+    retry = [(fr, c) for fr, c in cl.nodes if isinstance(c, ast.Call) and isinstance(c.func, ast.Attribute) and c.func.attr == "add"
+             and fr.ntr(c.func.value) == "self" and len(c.args) == 1 and fr.ntr(c.args[0]) == node]
+    rcfg = ctx.cfg(cl.root.fi)
+    targets = [x for fr, c in retry for x in rcfg.nodes_for(cl.lifted(fr, c, cl.root))]
+    for st, v, idx in (local_defs(cl.root.fi, b) if b.isidentifier() else []):
+        if v is not None and idx is None and norm(_expand(cl.root.fi, v, (node,))) == f"self.get_bucket({node}.id)" \
+                and any(isinstance(a, (ast.While, ast.For)) for a in ancestors(st)) \
+                and any(fr.parent is None and isinstance(c, ast.Call) and isinstance(c.func, ast.Attribute) and c.func.attr == "add" and norm(c.func.value) == b
+                        and len(c.args) == 1 and norm(c.args[0]) == node for fr, c in cl.nodes):
+            targets.extend(rcfg.nodes_for(st))
+    rok = bool(targets)
+    for fr, d, _k, _key, _v in dels:
+        if fr.parent is None:
+            rok = rok and all(rcfg.always_followed_by(x, targets) for x in rcfg.nodes_for(d))
+    _verdict(ctx, True if rok else (None if opaque or not writes or not b.isidentifier() else False), "split-partition", add, add.node,
+             "insertion retried after the split", "the node that triggered the split is not inserted afterwards",
+             unknown="how RoutingTable.add continues after a split (state machine / match statement / result objects) is not recognised")
+    # children are placed before the parent is deleted (so ids stay covered)
+    if ok:
+        ctx.check(all(cl.completes_before((s[0], s[1]), (d[0], d[1])) for d in dels for s in stores), "split-partition", add, add.node,
+                  "both children stored before the parent is deleted", "the parent bucket is deleted before its children exist")
+        ctx.check(all(cl.always_followed((s[0], s[1]), [(d[0], d[1]) for d in dels]) for s in stores), "split-partition", add, add.node,
+                  "once the children are stored the parent is deleted on every path", "the split bucket can stay in the tree next to its two halves "
+                  "(the deletion of the parent is skipped on some path): buckets are no longer prefix-free")
+    _check_bucket_split(ctx)
+    _check_get_bucket(ctx)
+    # who else writes the trie
+    init = repo.method("RoutingTable", "__init__", RT)
+    allowed = set(cl.visited) | {id(init.node)}
+    for m, fi, a in repo.attribute_uses("trie"):
+        p = parent(a)
+        if isinstance(p, ast.Subscript) and isinstance(p.ctx, (ast.Store, ast.Del)) and fi is not None:
+            if fi.module is m and fi.name.startswith("_") and not fi.name.startswith("__") and id(fi.node) not in allowed \
+                    and not any(isinstance(n, ast.Call) and call_name(n) == fi.name for n in ast.walk(m.tree)):
+                continue    # a private helper nothing in its module calls: inlined at its call sites by the engine and checked there
+            inside = id(fi.node) in allowed or any(id(x) in allowed for x in ancestors(fi.node))
+            if inside and fi.node is not add.node and fi.node is not init.node:
+                # a helper of add: every caller must be add's call tree as well
+                inside = all(g is not None and (id(g.node) in allowed or any(id(x) in allowed for x in ancestors(g.node)))
+                             for _m, g, _c in repo.callers_of_name(fi.name))
+            ctx.check(inside, "split-partition", fi, enclosing_stmt(a),
+                      f"trie written in {fi.qualname}", "the bucket tree is rewritten outside RoutingTable.add")
+    rb = repo.method("RoutingTable", "remove_bad_nodes", RT)
+    clr = _Closure(ctx, rb)
+    for fr, c, recv, k in _nodes_removals(clr):
+        # guard in the loop body, or the loop runs over a list that was filtered by the guard (collect first, pop afterwards:
+        # same nodes, same order; the status is not written in between), or the guard is a predicate helper / generator
+        fs = clr.facts(fr, c)
+        cands: set[str] = set()
+        if k is not None:
+            f2, k2 = _deep_resolve(fr, k)
+            if isinstance(k2, ast.Attribute) and k2.attr == "id":
+                cands.add(f2.ntr(k2.value, expand=False))
+            if isinstance(k2, ast.Name):
+                for st, _v, _i in local_defs(f2.fi, k2.id):
+                    if isinstance(st, ast.For):
+                        cands |= {f2.ntr(ast.Name(id=x, ctx=ast.Load()), expand=False) for x in _target_names(st.target) - {k2.id}}
+                    elif isinstance(st, ast.Assign):
+                        for t in st.targets:                                  # key, node = <one entry>
+                            if isinstance(t, (ast.Tuple, ast.List)) and k2.id in _target_names(t):
+                                cands |= {f2.ntr(ast.Name(id=x, ctx=ast.Load()), expand=False) for x in _target_names(t) - {k2.id}}
+        ok = any(_requires_bad(ctx, f, v) for f in fs for v in cands) or (k is not None and _key_of_bad_entry(ctx, fr, k, recv))
+        _verdict(ctx, True if ok else (None if _under_match(fr, c) else False), "bucket-insert", fr.fi, c, "only BAD nodes are removed",
+                 "remove_bad_nodes removes nodes that are not BAD", sorted({str(f) for f in fs}),
+                 unknown="the removal is inside a match statement: the case patterns that guard it give no conditions")
+
+
+def _empty_collection(e: ast.AST) -> bool:
+    e = strip_cast(e)
+    if isinstance(e, ast.Call) and isinstance(e.func, ast.Name) and e.func.id in ("set", "list", "frozenset", "tuple") and not e.keywords:
+        return not e.args or (len(e.args) == 1 and isinstance(e.args[0], (ast.List, ast.Tuple)) and not e.args[0].elts)
+    return isinstance(e, (ast.List, ast.Tuple)) and not e.elts
+
+
+def _raw_nodes_source(fi: FuncInfo, e: ast.AST, var: str | None = None, site: ast.AST | None = None, depth: int = 3) -> bool:
+    """e visibly draws from a bucket's node table (<x>.nodes / .nodes.values() / .items()), directly, through locals, or -
+    for a loop variable `var` used at `site` - through the iterable of the loop that binds it"""
+    if depth <= 0:
+        return False
+    if e is not None:
+        for n in ast.walk(e):
+            if isinstance(n, ast.Attribute) and n.attr == "nodes":
+                return True
+            if isinstance(n, ast.Name) and isinstance(n.ctx, ast.Load) and n.id not in fi.params():
+                for st, v, _i in local_defs(fi, n.id):
+                    if v is not None and v is not e and _raw_nodes_source(fi, v, None, None, depth - 1):
+                        return True
+                    if isinstance(st, ast.For) and _raw_nodes_source(fi, st.iter, None, None, depth - 1):
+                        return True
+    if var is not None and site is not None:
+        for a in ancestors(site):
+            if isinstance(a, ast.For) and var in _target_names(a.target) and _raw_nodes_source(fi, a.iter, None, None, depth - 1):
+                return True
+            if isinstance(a, (*_COMPS, ast.DictComp)):
+                for g in a.generators:
+                    if var in _target_names(g.target) and _raw_nodes_source(fi, g.iter, None, None, depth - 1):
+                        return True
+    return False
+
+
+def _combine_all(parts) -> bool | None:
+    """all parts must hold: any False -> False, all True -> True, else unknown"""
+    parts = list(parts)
+    if any(p is False for p in parts):
+        return False
+    return True if parts and all(p is True for p in parts) else None
+
+
+def _live_state(ctx: Ctx, fi: FuncInfo, e: ast.AST, depth: int = 4) -> bool | None:
+    """True: every element the expression can produce is a node whose status is known not to be BAD - a comprehension
+    whose element is its own loop variable under such a filter (directly, through a predicate helper, or drawn from a
+    live collection), unions of such, filter(pred, ...), a helper / generator that returns / yields only such.
+    False: the elements visibly come from a bucket's node table and no condition excludes BAD ones.
+    None: the expression is not recognised."""
+    if depth <= 0 or e is None:
+        return None
+    e = _strip_collection_wrap(strip_cast(e))
+    if _empty_collection(e):
+        return True
+    if isinstance(e, ast.Name):
+        defs = local_defs(fi, e.id)
+        if not defs or e.id in fi.params() or any(v is None or idx is not None or not isinstance(st, (ast.Assign, ast.AnnAssign)) for st, v, idx in defs):
+            return None
+        return _combine_all(_live_state(ctx, fi, v, depth - 1) for _st, v, _idx in defs)
+    if isinstance(e, ast.BinOp):
+        l, r = _live_state(ctx, fi, e.left, depth), _live_state(ctx, fi, e.right, depth)
+        if isinstance(e.op, ast.BitOr):
+            return _combine_all([l, r])
+        if isinstance(e.op, ast.BitAnd):
+            return True if l is True or r is True else (False if l is False and r is False else None)
+        if isinstance(e.op, ast.Sub):
+            return l
+        return None
+    if isinstance(e, ast.IfExp):
+        return _combine_all([_live_state(ctx, fi, e.body, depth), _live_state(ctx, fi, e.orelse, depth)])
+    if isinstance(e, ast.Call) and isinstance(e.func, ast.Attribute) and e.func.attr in ("values", "items", "keys") and not e.args \
+            and isinstance(strip_cast(e.func.value), ast.Attribute) and strip_cast(e.func.value).attr == "nodes":
+        return False                                                      # the whole node table of a bucket
+    if isinstance(e, _COMPS):
+        if not isinstance(e.elt, ast.Name) or any(g.is_async for g in e.generators):
+            return None
+        var = e.elt.id
+        binding = [g for g in e.generators if var in _target_names(g.target)]
+        if not binding:
+            return None
+        src = _live_state(ctx, fi, binding[-1].iter, depth - 1) if isinstance(binding[-1].target, ast.Name) else None
+        if src is True:
+            return True
+        fs = _comp_filter_facts(e, {var})
+        fs = fs + [g for f in fs for g in _expand_fact(ctx, fi, f, None, depth)]
+        fs = fs + [Fact(f.op, _expand(fi, f.left, (var,)), _expand(fi, f.right, (var,)) if f.right is not None else None, f.pos, f.atom) for f in fs]
+        if any(_excludes_bad(ctx, f, var) for f in fs):
+            return True
+        return False if src is False or _raw_nodes_source(fi, binding[-1].iter) else None
+    if isinstance(e, ast.Call):
+        if chain(e.func) == "filter" and len(e.args) == 2 and not e.keywords:
+            src = _live_state(ctx, fi, e.args[1], depth - 1)
+            if src is True:
+                return True
+            pred = e.args[0]
+            if not isinstance(pred, ast.Constant):
+                call = ast.Call(func=pred, args=[ast.Name(id="x@filter", ctx=ast.Load())], keywords=[])
+                fs = _implied_by_result(ctx, fi, call, lambda v: None if const_value(v) is NOCONST else bool(const_value(v)), True, depth)
+                if any(_excludes_bad(ctx, f, "x@filter") for f in fs):
+                    return True
+                if _callee(ctx, fi, call)[0] is None:
+                    return None                                           # a predicate that is not visible here
+            return False if src is False or _raw_nodes_source(fi, e.args[1]) else None
+        if isinstance(e.func, ast.Attribute) and e.func.attr in ("union", "intersection", "difference", "copy") and not e.keywords:
+            parts = [_live_state(ctx, fi, p, depth - 1) for p in [e.func.value, *e.args]]
+            if e.func.attr == "union":
+                return _combine_all(parts)
+            if e.func.attr == "intersection":
+                return True if any(p is True for p in parts) else (False if all(p is False for p in parts) else None)
+            return parts[0]
+        if chain(e.func) in ("chain.from_iterable", "itertools.chain.from_iterable") and len(e.args) == 1:
+            inner = strip_cast(resolve(fi, e.args[0]))
+            if isinstance(inner, _COMPS):
+                return _live_state(ctx, fi, inner.elt, depth - 1) if not isinstance(inner.elt, ast.Name) else None
+            return None
+        target, _bs = _callee(ctx, fi, e)
+        if isinstance(target, ast.Lambda):
+            return _live_state(ctx, fi, target.body, depth - 1)
+        if isinstance(target, FuncInfo) and target.node is not fi.node and not target.is_async:
+            if _is_generator(target.node):
+                ys = [y for y in walk_no_nested(target.node) if isinstance(y, (ast.Yield, ast.YieldFrom))]
+                parts = []
+                for y in ys:
+                    if isinstance(y, ast.YieldFrom):
+                        parts.append(_live_state(ctx, target, y.value, depth - 1))
+                        continue
+                    if not isinstance(y.value, ast.Name):
+                        parts.append(None)
+                        continue
+                    fs = list(_local_facts(ctx, target, y))
+                    env = _bind_args(target.node, e, _bs) or {}
+                    hidden = False
+                    for f in list(fs):
+                        c = strip_cast(f.left)
+                        if f.op == "truthy" and isinstance(c, ast.Call) and isinstance(c.func, ast.Name) and c.func.id in env and y.value.id not in env:
+                            # the generator filters with a predicate it was given: decided with the caller's predicate
+                            g = Fact(f.op, _subst(c, {k_: v_ for k_, v_ in env.items() if k_ != y.value.id}), None, f.pos, f.atom)
+                            got = _predicate_facts(ctx, fi, g)
+                            hidden = hidden or not got
+                            fs.extend(got)
+                    if any(_excludes_bad(ctx, f, y.value.id) for f in fs):
+                        parts.append(True)
+                    else:
+                        parts.append(False if not hidden and _raw_nodes_source(target, None, y.value.id, y) else None)
+                return _combine_all(parts)
+            rets = [r for r in walk_no_nested(target.node) if isinstance(r, ast.Return)]
+            if any(isinstance(c, ast.Call) and _callee(ctx, target, c)[0] is target for c in ast.walk(target.node)):
+                return None                                               # recursive helper: not followed
+            return _combine_all(_live_state(ctx, target, r.value, depth - 1) if r.value is not None else None for r in rets)
+    return None
+
+
+def _live_collection(ctx: Ctx, fi: FuncInfo, e: ast.AST, depth: int = 4) -> bool:
+    return _live_state(ctx, fi, e, depth) is True
+
+
+def _descending_from_len(fi: FuncInfo, it: ast.AST, name: str, stop=()) -> bool:
+    """The iterable yields len(name), len(name)-1, ..., 0."""
+    it = _expand(fi, it, stop=(name, *stop))
+    length = f"len({name})"
+    if not isinstance(it, ast.Call) or it.keywords:
+        return False
+    if chain(it.func) == "reversed" and len(it.args) == 1:
+        r = _strip_snapshot(it.args[0])
+        if not (isinstance(r, ast.Call) and chain(r.func) == "range" and not r.keywords and 1 <= len(r.args) <= 3):
+            return False
+        a = r.args
+        if len(a) >= 2 and const_value(a[0]) != 0:
+            return False
+        if len(a) == 3 and const_value(a[2]) != 1:
+            return False
+        stop_ = a[0] if len(a) == 1 else a[1]
+        return norm(stop_) in (f"{length} + 1", f"1 + {length}")
+    if chain(it.func) == "range" and len(it.args) == 3:
+        return norm(it.args[0]) == length and const_value(it.args[1]) == -1 and const_value(it.args[2]) == -1
+    return False
+
+
+def _between(inner: ast.AST, outer: ast.AST) -> list[ast.AST]:
+    out = []
+    for a in ancestors(inner):
+        if a is outer:
+            break
+        out.append(a)
+    return out
+
+
+def _key_is_distance_first(ctx: Ctx, fi: FuncInfo, key: ast.AST | None, target: str) -> bool:
+    """key(n) orders by XOR distance of n.id to the target first"""
+    if key is None:
+        return False
+    key = strip_cast(key)
+    fn = None
+    if isinstance(key, ast.Lambda):
+        fn, body, p = key, key.body, [x.arg for x in key.args.args]
+    else:
+        pre: list[ast.AST] = []
+        if isinstance(key, ast.Call) and chain(key.func) in ("partial", "functools.partial") and key.args and not key.keywords \
+                and not any(isinstance(a, ast.Starred) for a in key.args):
+            key, pre = strip_cast(key.args[0]), list(key.args[1:])             # partial(f, a, b)(n) == f(a, b, n)
+        call = ast.Call(func=key, args=[*pre, ast.Name(id="n@key", ctx=ast.Load())], keywords=[])
+        tgt, binds_self = _callee(ctx, fi, call)
+        if pre and isinstance(tgt, (FuncInfo, ast.Lambda)):
+            fn = tgt if isinstance(tgt, ast.Lambda) else tgt.node
+            env = _bind_args(fn, call, binds_self)
+            if env is None:
+                return False
+            alts = [_subst(fn.body, {})] if isinstance(tgt, ast.Lambda) else _return_alternatives(tgt)
+            env = {p_: (_expand(fi, x) if not (isinstance(x, ast.Name) and x.id in ("self", "n@key", target)) else x) for p_, x in env.items()}
+            return bool(alts) and all(_dist_first(_subst(a, env), "n@key", target) for a in alts)
+        if isinstance(tgt, ast.Lambda):
+            fn, body, p = tgt, tgt.body, [x.arg for x in tgt.args.args]
+        elif isinstance(tgt, FuncInfo) and not _is_generator(tgt.node):
+            alts = _return_alternatives(tgt)
+            ps = tgt.params()[1:] if binds_self else tgt.params()
+            return bool(alts) and len(ps) == 1 and all(_dist_first(a, ps[0], target) for a in alts)
+        else:
+            return False
+    return len(p) == 1 and _dist_first(body, p[0], target)
+
+
+def _dist_first(body: ast.AST, p: str, target: str) -> bool:
+    first = body.elts[0] if isinstance(body, ast.Tuple) and body.elts else body
+    return norm(first) in (f"distance({p}.id, {target})", f"distance({target}, {p}.id)", f"{p}.distance({target})")
+
+
+def _key_state(ctx: Ctx, fi: FuncInfo, key: ast.AST | None, target: str) -> bool | None:
+    """the sort key orders by XOR distance to the target first: True; it is a recognisable function that does not (or there
+    is no key at all): False; it cannot be resolved: None"""
+    if key is None:
+        return False
+    if _key_is_distance_first(ctx, fi, key, target):
+        return True
+    key = strip_cast(key)
+    if isinstance(key, ast.Lambda):
+        return False
+    if isinstance(key, ast.Call) and chain(key.func) in ("partial", "functools.partial") and key.args:
+        key = strip_cast(key.args[0])
+    tgt, _bs = _callee(ctx, fi, ast.Call(func=key, args=[], keywords=[])) if isinstance(key, (ast.Name, ast.Attribute)) else (None, False)
+    if isinstance(tgt, ast.Lambda):
+        return False
+    if isinstance(tgt, FuncInfo) and not _is_generator(tgt.node):
+        alts = _return_alternatives(tgt)
+        # a plain function of the node whose result visibly starts with something else than a distance
+        if alts and all(isinstance(x, (ast.Tuple, ast.Attribute, ast.Call, ast.Compare, ast.BinOp)) for x in alts) \
+                and not any(isinstance(n, ast.Call) and not (chain(n.func) or "").endswith("distance") and _callee(ctx, tgt, n)[0] is not None for x in alts for n in ast.walk(x)):
+            return False
+    return None
+
+
+def _sorted_source(ctx: Ctx, fi: FuncInfo, e: ast.AST, target: str, depth: int = 2) -> tuple[bool | None, ast.AST | None]:
+    """e is `sorted(src, key=K)` (directly, or the result of a helper / closure that returns exactly that for one of its
+    parameters): (state of the ordering, src expression in fi's vocabulary); (None, None) when e is something else"""
+    e = resolve(fi, e)
+    if isinstance(e, ast.Call) and chain(e.func) == "sorted" and e.args:
+        rev = arg(e, None, "reverse")
+        if rev is not None and const_value(rev) is not False:
+            return False, e.args[0]
+        return _key_state(ctx, fi, arg(e, None, "key"), target), e.args[0]
+    if isinstance(e, ast.Call) and depth > 0:
+        tgt, binds_self = _callee(ctx, fi, e)
+        if isinstance(tgt, FuncInfo) and not _is_generator(tgt.node) and tgt.node is not fi.node:
+            env = _bind_args(tgt.node, e, binds_self)
+            rets = [r for r in walk_no_nested(tgt.node) if isinstance(r, ast.Return)]
+            if env is not None and len(rets) == 1 and rets[0].value is not None:
+                # the target of the distance inside the helper: the parameter bound to our target, or the captured name itself
+                inner_target = next((p_ for p_, x in env.items() if isinstance(x, ast.Name) and x.id == target), target)
+                st, src = _sorted_source(ctx, tgt, rets[0].value, inner_target, depth - 1)
+                if src is not None:
+                    return st, _subst(_expand(tgt, src, tuple(env)), env)
+    return None, None
+
+
+def _ranked_prefix(ctx: Ctx, fi: FuncInfo, cfg, ret: ast.Return, target: str, k: str) -> tuple[bool | None, str | None]:
+    """(state, collection name): state True when the returned value is the first k elements of a collection sorted by XOR
+    distance to the target, nearest first; False when it is recognisably something else (no / another truncation, another
+    order, filtered after the cut); None when the expression is not recognised."""
+    def coll_of(src) -> str | None:
+        src = _strip_collection_wrap(strip_cast(src)) if src is not None else None
+        return src.id if isinstance(src, ast.Name) else None              # the collection's own name (not what it was initialised with)
+
+    v = resolve(fi, ret.value) if ret.value is not None else None
+    if v is None:
+        return False, None
+    if isinstance(v, ast.Call) and chain(v.func) in ("list", "tuple") and len(v.args) == 1 and not v.keywords:
+        inner = resolve(fi, v.args[0])
+        if isinstance(inner, ast.Call) and chain(inner.func) in ("islice", "itertools.islice") and len(inner.args) == 2:
+            v = ast.Subscript(value=inner.args[0], slice=ast.Slice(lower=None, upper=inner.args[1], step=None), ctx=ast.Load())
+    if isinstance(v, ast.Call) and chain(v.func) in ("heapq.nsmallest", "nsmallest") and len(v.args) >= 2:
+        st = _key_state(ctx, fi, arg(v, 2, "key"), target)
+        if norm(resolve(fi, v.args[0])) != k:
+            st = False
+        return st, coll_of(v.args[1])
+    # filtered after the cut: fewer than k may come back
+    if isinstance(v, (ast.ListComp, ast.GeneratorExp)) and len(v.generators) == 1 and v.generators[0].ifs:
+        inner = ast.Return(value=v.generators[0].iter)
+        ast.copy_location(inner, ret)
+        st, c = _ranked_prefix(ctx, fi, cfg, inner, target, k)
+        return (False, c) if st is True else (None, c)
+    if isinstance(v, ast.Subscript) and isinstance(v.slice, ast.Slice):
+        sl = v.slice
+        cut_ok = (sl.lower is None or const_value(sl.lower) == 0) and sl.step is None and sl.upper is not None and norm(resolve(fi, sl.upper)) == k
+        st, src = _sorted_source(ctx, fi, v.value, target)
+        if src is not None:
+            return (st if cut_ok else False), coll_of(src)
+        # ranked = list(coll); ranked.sort(key=...); return ranked[:k]
+        if isinstance(v.value, ast.Name):
+            name = v.value.id
+            d = single_def(fi, name)
+            src = strip_cast(d[0]) if d is not None and d[1] is None else None
+            if isinstance(src, ast.Call) and chain(src.func) in ("list", "sorted") and len(src.args) >= 1:
+                uses = [c for c in walk_no_nested(fi.node) if isinstance(c, ast.Call) and isinstance(c.func, ast.Attribute) and norm(c.func.value) == name]
+                if len(uses) == 1 and uses[0].func.attr == "sort" and not uses[0].args:
+                    rev = arg(uses[0], None, "reverse")
+                    st = _key_state(ctx, fi, arg(uses[0], None, "key"), target)
+                    if rev is not None and const_value(rev) is not False:
+                        st = False
+                    sn, rn = cfg.nodes_for(uses[0]), cfg.nodes_for(ret)
+                    if not (sn and rn and all(cfg.must_complete(x, sn) for x in rn)):
+                        st = None
+                    return (st if cut_ok else False), coll_of(src.args[0])
+        return None, None
+    # a sorted collection that is returned without the cut
+    st, src = _sorted_source(ctx, fi, v, target)
+    if src is not None:
+        return False, coll_of(src)
+    return None, None
+
+
+def rule_closest(ctx: Ctx) -> None:
+    repo = ctx.repo
+    fi = repo.method("RoutingTable", "closest_nodes", RT)
+    cfg = ctx.cfg(fi)
+    target, k = fi.params()[1], fi.params()[2]
+    rets = [r for r in walk_no_nested(fi.node) if isinstance(r, ast.Return)]
+    ranked = {id(r): _ranked_prefix(ctx, fi, cfg, r, target, k) for r in rets}
+    names = {c for _st, c in ranked.values() if c is not None}
+    if not rets or any(st is False for st, _c in ranked.values()) or len(names) > 1:
+        state = False
+    elif any(st is None for st, _c in ranked.values()):
+        state = None
+    else:
+        state = True
+    bad_ret = next((r for r in rets if ranked[id(r)][0] is False), next((r for r in rets if ranked[id(r)][0] is None), rets[0] if rets else None))
+    _verdict(ctx, state, "closest", fi, bad_ret if bad_ret is not None else fi.node, "result = sorted(nodes, key=XOR distance to the target first)[:max_nodes]",
+             "closest_nodes does not return the max_nodes nearest by XOR distance to the target, nearest first",
+             unknown="a returned value is not recognisable as sorted(<collection>, key=<distance first>)[:max_nodes] (or nsmallest / sort + slice)")
+    coll_known = len(names) == 1
+    coll = next(iter(names), None) or "nodes"
+    dist = repo.func(RT, "distance")
+    alts = _return_alternatives(dist)
+    a, b = dist.params()[:2]
+    def xor_metric(x: ast.AST) -> bool:
+        x = strip_cast(x)
+        if isinstance(x, ast.BinOp) and isinstance(x.op, ast.BitXor):
+            return (_int_of_bytes(x.left, a, ctx) and _int_of_bytes(x.right, b, ctx)) or (_int_of_bytes(x.left, b, ctx) and _int_of_bytes(x.right, a, ctx))
+        # int.from_bytes(bytes(x ^ y for x, y in zip(a, b)), 'big'): the same number for ids of equal length
+        if isinstance(x, ast.Call) and chain(x.func) == "int.from_bytes" and x.args and const_value(arg(x, 1, "byteorder")) == "big":
+            inner = strip_cast(x.args[0])
+            if isinstance(inner, ast.Call) and chain(inner.func) == "bytes" and len(inner.args) == 1 and isinstance(inner.args[0], (ast.GeneratorExp, ast.ListComp)) \
+                    and len(inner.args[0].generators) == 1 and not inner.args[0].generators[0].ifs:
+                g, elt = inner.args[0].generators[0], strip_cast(inner.args[0].elt)
+                z = strip_cast(g.iter)
+                if isinstance(z, ast.Call) and chain(z.func) == "zip" and {norm(v) for v in z.args} == {a, b} and len(z.args) == 2 and isinstance(g.target, ast.Tuple) \
+                        and len(g.target.elts) == 2 and isinstance(elt, ast.BinOp) and isinstance(elt.op, ast.BitXor) \
+                        and {norm(elt.left), norm(elt.right)} == {norm(t) for t in g.target.elts}:
+                    return True
+        return False
+    def xor_like(x: ast.AST) -> bool:
+        x = strip_cast(x)
+        if isinstance(x, ast.BinOp):
+            return (_int_of_bytes(x.left, a, ctx, 2, True) and _int_of_bytes(x.right, b, ctx, 2, True)) or \
+                (_int_of_bytes(x.left, b, ctx, 2, True) and _int_of_bytes(x.right, a, ctx, 2, True))
+        if isinstance(x, ast.Call) and chain(x.func) == "abs" and len(x.args) == 1:
+            return xor_like(x.args[0])
+        return isinstance(x, ast.Call) and chain(x.func) == "int.from_bytes" and bool(x.args) and isinstance(strip_cast(x.args[0]), ast.Call) \
+            and chain(strip_cast(x.args[0]).func) == "bytes"
+    state = _tri(bool(alts) and all(xor_metric(x) for x in alts), bool(alts) and all(xor_metric(x) or xor_like(x) for x in alts))
+    _verdict(ctx, state, "closest", dist, dist.node, "distance is XOR of the ids as integers", "distance is no longer the XOR metric",
+             unknown="distance() is not written as <int of a> ^ <int of b>: that it is the XOR metric is not decided")
+
+    # the prefix the walk starts from
+    def is_prefix_src(e: ast.AST, fr: _Frame) -> bool:
+        f2, e2 = _deep_resolve(fr, e, through_stop=True)
+        if not (isinstance(e2, ast.Call) and f2.ntr(e2.func) == "self.trie.longest_prefix" and e2.args):
+            return False
+        return f2.ntr(e2.args[0]) == f"id_to_binary_string({target})"
+
+    pre_names = [n for n in {x.id for x in walk_no_nested(fi.node) if isinstance(x, ast.Name)}
+                 if (lambda d: d is not None and d[1] is None and isinstance(strip_cast(d[0]), ast.Call)
+                     and chain(strip_cast(d[0]).func) == "self.trie.longest_prefix")(single_def(fi, n))]
+    cl = _Closure(ctx, fi, stop=(coll, target, k, *sorted(pre_names)))
+    # candidate set: the collection that is counted by the walk and sorted at the end receives live nodes only
+    # (set comprehension with the filter, or an explicit loop that adds under the filter: same elements)
+    adds: list[tuple[_Frame, ast.AST, bool | None]] = []
+    for st, _val, _idx in local_defs(fi, coll):
+        if not isinstance(st, (ast.Assign, ast.AnnAssign, ast.AugAssign)):
+            adds.append((cl.root, st, None))                              # bound by for / with / walrus / except: not followed
+    for fr, n in cl.nodes:
+        def is_coll(e) -> bool:
+            return isinstance(e, ast.Name) and norm(fr.tr(e, expand=False)) == coll
+
+        def union_state(v: ast.AST) -> bool | None:
+            if is_coll(v):
+                return True
+            if isinstance(v, ast.BinOp) and isinstance(v.op, ast.BitOr):
+                return _combine_all([union_state(v.left), union_state(v.right)])
+            return _live_state(ctx, fr.fi, v)
+        if isinstance(n, ast.AugAssign) and is_coll(n.target):
+            if isinstance(n.op, (ast.BitAnd, ast.Sub)):
+                continue                                                  # can only shrink
+            adds.append((fr, n, union_state(n.value) if isinstance(n.op, (ast.BitOr, ast.Add)) else None))
+        elif isinstance(n, (ast.Assign, ast.AnnAssign)) and n.value is not None:
+            tg = n.targets if isinstance(n, ast.Assign) else [n.target]
+            if any(is_coll(t) for t in tg):
+                if fr.parent is not None and not any(isinstance(t, ast.Name) and t.id in fr.alias for t in tg):
+                    continue                                              # a helper rebinding its parameter: not the caller's collection
+                if _empty_collection(n.value) or (isinstance(n.value, ast.Dict) and not n.value.keys):
+                    continue
+                if fr.parent is None and isinstance(n.value, ast.Call) and any(f.site is n.value and f.alias for f in cl.frames):
+                    continue                                              # filled by a helper that is followed (its local is this name)
+                adds.append((fr, n, union_state(n.value)))
+            elif fr.parent is None and any(coll in {x.id for x in ast.walk(t) if isinstance(x, ast.Name) and isinstance(x.ctx, ast.Store)} for t in tg):
+                adds.append((fr, n, None))                                # bound through unpacking: not followed
+        elif isinstance(n, ast.Call) and isinstance(n.func, ast.Attribute) and is_coll(n.func.value):
+            if n.func.attr in ("add", "append", "setdefault") and 1 <= len(n.args) <= 2:
+                x = n.args[0]
+                fs = cl.facts(fr, n)
+                xn = norm(fr.tr(x, expand=False)) if isinstance(x, ast.Name) else None
+                if xn is not None and any(_excludes_bad(ctx, f, xn) for f in fs):
+                    adds.append((fr, n, True))
+                else:
+                    raw = isinstance(x, ast.Name) and _raw_nodes_source(fr.fi, None, x.id, n) and not _under_match(fr, n)
+                    adds.append((fr, n, False if raw else None))
+            elif n.func.attr in ("update", "extend", "insert", "symmetric_difference_update", "__ior__", "union_update"):
+                adds.append((fr, n, _combine_all(_live_state(ctx, fr.fi, a) for a in n.args) if n.func.attr in ("update", "extend") and not n.keywords else None))
+    state = _combine_all(st for _fr, _n, st in adds) if coll_known else (False if any(st is False for _fr, _n, st in adds) else None)
+    bad = next(((fr, n) for fr, n, st in adds if st is False), next(((fr, n) for fr, n, st in adds if st is None), None))
+    _verdict(ctx, state, "closest", bad[0].fi if bad else fi, enclosing_stmt(bad[1]) if bad is not None else fi.node, "candidates exclude BAD nodes",
+             "closest_nodes can return nodes whose status is BAD",
+             unknown=f"how the candidate collection `{coll}` is filled is not recognised" + ("" if adds else " (nothing is added to it in the call tree)"))
+
+    # the walk: i from len(prefix) down to 0, all suffixes of prefix[:i]; break only with >= max_nodes collected
+    walks = []
+    all_loops = []
+    for fr in cl.frames:
+        pnames = {n.id for n in walk_no_nested(fr.fi.node) if isinstance(n, ast.Name) and isinstance(n.ctx, ast.Load) and is_prefix_src(n, fr)
+                  and not isinstance(_deep_resolve(fr, n, through_stop=True)[1], ast.Name)}
+        loops = [l for l in walk_no_nested(fr.fi.node) if isinstance(l, (ast.For, ast.While))]
+        all_loops.extend((fr, l) for l in loops)
+        for l in loops:
+            for pn in sorted(pnames):
+                if isinstance(l, ast.While):
+                    wv = _while_descending(fr.fi, l, pn)
+                    if wv is not None:
+                        walks.append((fr, l, pn, f"{pn}[:{wv}]", (pn, wv)))
+                        break
+                    continue
+                if isinstance(l.target, ast.Name) and _descending_from_len(fr.fi, l.iter, pn):
+                    walks.append((fr, l, pn, f"{pn}[:{l.target.id}]", (pn, l.target.id)))
+                    break
+                sub = _level_prefixes(ctx, fr, l, pn)
+                if sub is not None:
+                    walks.append((fr, l, pn, sub, (pn, sub)))
+                    break
+    # a generator helper that only produces the level prefixes of a recognised walk is part of that walk, not a second one
+    def feeds(w2, w1) -> bool:
+        f2 = w2[0]
+        return f2.parent is not None and f2.site is not None and isinstance(w1[1], ast.For) and any(x is f2.site for x in ast.walk(w1[1].iter))
+    walks = [w for w in walks if not any(w1 is not w and feeds(w, w1) for w1 in walks)]
+    first_loop = all_loops[0] if all_loops else None
+    if len(walks) == 1:
+        wstate: bool | None = True
+    else:
+        # a loop over a range built from len(<prefix>) that is not `len(prefix) down to 0` is a recognised, different walk
+        def counts_from_len(fr0: _Frame, l: ast.AST) -> bool:
+            if isinstance(l, ast.While):
+                for n in ast.walk(l.test):
+                    if isinstance(n, ast.Name) and n.id not in fr0.fi.params():
+                        for _st, v, _i in local_defs(fr0.fi, n.id):
+                            if v is not None and isinstance(strip_cast(v), ast.Call) and chain(strip_cast(v).func) == "len" and strip_cast(v).args \
+                                    and is_prefix_src(strip_cast(v).args[0], fr0):
+                                return True
+                return False
+            if not isinstance(l, ast.For):
+                return False
+            it = _expand(fr0.fi, l.iter, ())
+            return isinstance(it, ast.Call) and chain(it.func) in ("range", "reversed") and any(
+                isinstance(n, ast.Call) and chain(n.func) == "len" and n.args and is_prefix_src(n.args[0], fr0) for n in ast.walk(l.iter))
+        wstate = False if not walks and any(counts_from_len(fr0, l) for fr0, l in all_loops) else None
+    _verdict(ctx, wstate, "closest", first_loop[0].fi if first_loop else fi, first_loop[1] if first_loop else fi.node, "walk from the longest prefix outwards to the root",
+             "the subtree walk does not go from the longest prefix to the root",
+             unknown="no loop is recognisable as `len(prefix) down to 0` over the prefixes of the target (recursion / pipeline / state machine?): the level order is not decided")
+    if len(walks) == 1:
+        fr, outer, pn, sub, stop = walks[0]
+        wfi = fr.fi
+        stop = tuple(stop) + tuple(x for x in (coll,) if x)
+        # every iteration construct below the level loop - in the walk's function or in a helper called from the level:
+        # statement loops and comprehension clauses over self.trie.suffixes(<level prefix>)
+        outer_ids = set(map(id, ast.walk(outer)))
+        wstop = tuple(dict.fromkeys(stop + (pn,)))
+        want_iter = f"self.trie.suffixes({sub})"
+
+        def in_level(f2: _Frame, n: ast.AST) -> bool:
+            return fr in f2.stack() and id(cl.lifted(f2, n, fr)) in outer_ids
+
+        def tr_level(f2: _Frame, e: ast.AST, extra=()) -> ast.AST:
+            if f2 is fr and fr.parent is None:
+                return _fold(_expand(wfi, e, wstop + tuple(extra)))
+            return f2.tr(e)
+        if fr.parent is not None:
+            sub = norm(fr.tr(ast.parse(sub, mode="eval").body))             # the level prefix in the anchor's vocabulary
+            want_iter = f"self.trie.suffixes({sub})"
+
+        def conditional(f2: _Frame, n: ast.AST, upto: ast.AST | None = None) -> bool:
+            """n does not run on every round of the level loop (or of `upto`): it sits in a branch of an if / conditional
+            expression, in a try, a while body or behind a short-circuit"""
+            while True:
+                cur = n
+                for a in ancestors(n):
+                    if a is outer or a is f2.fi.node or a is upto:
+                        break
+                    if isinstance(a, (ast.If, ast.IfExp, ast.While)) and cur is not a.test:
+                        return True
+                    if isinstance(a, ast.Try):
+                        return True
+                    if isinstance(a, ast.BoolOp) and cur is not a.values[0]:
+                        return True
+                    if isinstance(a, (*_COMPS, ast.DictComp)):
+                        # behind a filter clause of the comprehension?
+                        for gi, g in enumerate(a.generators):
+                            if cur is g or any(cur is x for x in g.ifs[1:]):
+                                if any(h.ifs for h in a.generators[:gi]) or any(cur is x for x in g.ifs[1:]):
+                                    return True
+                        if cur is getattr(a, "elt", None) or cur is getattr(a, "key", None) or cur is getattr(a, "value", None):
+                            if any(h.ifs for h in a.generators) and a is not upto:
+                                return True
+                    cur = a
+                if f2 is fr or upto is not None:
+                    return False
+                n, f2 = f2.site, f2.parent
+
+        inner = []
+        for f2, l in cl.nodes:
+            if not in_level(f2, l):
+                continue
+            if isinstance(l, ast.For) and l is not outer and isinstance(l.target, ast.Name) and norm(tr_level(f2, l.iter)) == want_iter:
+                inner.append((f2, l, l.target.id, l.body))
+            elif isinstance(l, (*_COMPS, ast.DictComp)):
+                g = l.generators[0]
+                if isinstance(g.target, ast.Name) and not g.is_async and norm(tr_level(f2, g.iter)) == want_iter:
+                    inner.append((f2, l, g.target.id, [l]))
+        lstate: bool | None = None
+        if not inner:
+            # a suffix loop over another prefix than the level's is a recognised, different level
+            other = [l for f2, l in cl.nodes if in_level(f2, l) and ((isinstance(l, ast.For) and "self.trie.suffixes(" in norm(tr_level(f2, l.iter)))
+                                                                     or (isinstance(l, (*_COMPS, ast.DictComp)) and "self.trie.suffixes(" in norm(tr_level(f2, l.generators[0].iter))))]
+            lstate = False if other else None
+        if len(inner) == 1:
+            f2, loopnode, sv, scope = inner[0]
+            svt = sv if f2.parent is None or sv not in f2.locals else f"{sv}@{f2.fi.name}"
+            hit = skipped = False
+            for st in scope:
+                for x in ast.walk(st):
+                    if isinstance(x, ast.Subscript) and isinstance(x.ctx, ast.Load) and norm(tr_level(f2, x.value, (sv,))) == "self.trie":
+                        parts = _str_parts(tr_level(f2, x.slice, (sv,)))
+                        if parts == [("e", sub), ("e", svt)]:
+                            if conditional(f2, x, upto=loopnode):
+                                skipped = True                            # ... only for some suffixes
+                            else:
+                                hit = True                                # the bucket of every suffix is looked up, unconditionally
+            # the suffix loop runs on every level: it is not under a condition inside the level
+            if conditional(f2, loopnode) or (isinstance(loopnode, (*_COMPS, ast.DictComp)) and loopnode.generators[0].ifs):
+                lstate = False                                            # (a filter on the suffix clause would skip buckets)
+            else:
+                lstate = True if hit else (False if skipped else None)
+        _verdict(ctx, lstate, "closest", wfi, outer, "each level takes every bucket below prefix[:i]", "a level of the walk does not cover the whole subtree",
+                 unknown="how a level of the walk reaches the buckets below its prefix (self.trie.suffixes(prefix[:i]) / self.trie[prefix[:i] + suffix]) is not recognised")
+        within = set(map(id, ast.walk(outer)))
+        exits = [b for b in ast.walk(outer) if isinstance(b, ast.Break)]
+        exits += [r for r in ast.walk(outer) if isinstance(r, ast.Return) and not any(isinstance(a, (*_FUNCS, ast.Lambda)) for a in _between(r, outer))]
+        # a further conjunct of a `while` condition ends the walk when it fails: what its failing says must be the stop criterion
+        for c in (_WHILE_EXTRA.get(id(outer), []) if isinstance(outer, ast.While) else []):
+            fs0 = _atoms_with_polarity(c, False)
+            fs0 = fs0 + [g for f in fs0 for g in _expand_fact(ctx, wfi, f, c)]
+            fs = [Fact(f.op, fr.tr(f.left, ex), fr.tr(f.right, ex) if f.right is not None else None, f.pos, f.atom) for f in fs0 for ex in (True, False)]
+            sats = [x for x in (_cmp_sat(f, f"len({coll})", k) for f in fs) if x]
+            ok = any(all(L >= K for L, K in x) for x in sats)
+            ctx.check(ok, "closest", wfi, outer, "the walk's loop condition ends it only with >= max_nodes candidates",
+                      "the walk can stop with fewer than max_nodes candidates: the result is not the k closest", sorted({str(f) for f in fs}))
+        for b in exits:
+            fs = cl.facts(fr, b)
+            sats = [x for x in (_cmp_sat(f, f"len({coll})", k) for f in fs) if x]
+            ok = any(all(L >= K for L, K in x) for x in sats)             # at least max_nodes candidates are held
+            in_inner = any(isinstance(a, (ast.For, ast.While)) and a is not outer for a in ancestors(b) if id(a) in within)
+            state = True if ok and not in_inner else (None if not in_inner and (_under_match(fr, b) or not coll_known) else False)
+            _verdict(ctx, state, "closest", wfi, b, "the walk stops only after a complete level and with >= max_nodes candidates",
+                     "the walk can stop with fewer than max_nodes candidates or in the middle of a subtree: the result is not the k closest", sorted({str(f) for f in fs}),
+                     unknown="the collection whose size should stop the walk is not recognised / the exit is under a match statement")
+    # the walk starts at the longest known prefix of the target
+    ok = len(walks) == 1 or any(is_prefix_src(n, cl.root) for n in walk_no_nested(fi.node) if isinstance(n, ast.Name) and isinstance(n.ctx, ast.Load))
+    lp_calls = [n for fr0, n in cl.nodes if isinstance(n, ast.Call) and isinstance(n.func, ast.Attribute) and n.func.attr == "longest_prefix"]
+    _verdict(ctx, True if ok else (False if lp_calls and fi.node in [fr0.fi.node for fr0, n in cl.nodes if n in lp_calls] else None), "closest", fi, fi.node,
+             "walk starts at the longest known prefix of the target", "the walk does not start at the target's own bucket",
+             unknown="where the prefix the walk starts from comes from is not recognised")
+
+
+_WHILE_EXTRA: dict[int, list] = {}
+
+
+def _while_descending(fi: FuncInfo, w: ast.While, pn: str) -> str | None:
+    """`v = len(prefix)` ... `while v >= 0: <level>; v -= 1`: the counter takes len(prefix), ..., 0 - one level per round.
+    Returns the counter's name."""
+    if w.orelse:
+        return None
+    conj = list(w.test.values) if isinstance(w.test, ast.BoolOp) and isinstance(w.test.op, ast.And) else [w.test]
+    v = None
+    for t in conj:
+        if not (isinstance(t, ast.Compare) and len(t.ops) == 1):
+            continue
+        l, op, r = t.left, t.ops[0], t.comparators[0]
+        if isinstance(l, ast.Name) and ((isinstance(op, ast.GtE) and const_value(r) == 0) or (isinstance(op, ast.Gt) and const_value(r) == -1)):
+            v = l.id
+        elif isinstance(r, ast.Name) and ((isinstance(op, ast.LtE) and const_value(l) == 0) or (isinstance(op, ast.Lt) and const_value(l) == -1)):
+            v = r.id
+        if v is not None:
+            _WHILE_EXTRA[id(w)] = [x for x in conj if x is not t]       # further conjuncts: the loop also ends when one of them fails
+            break
+    if v is None or v in fi.params():
+        return None
+    defs = local_defs(fi, v)
+    if len(defs) != 2:
+        return None
+    inside = [d for d in defs if any(a is w for a in ancestors(d[0]))]
+    init = [d for d in defs if d not in inside and isinstance(d[0], (ast.Assign, ast.AnnAssign)) and d[1] is not None and d[2] is None]
+    if len(init) != 1 or len(inside) != 1:
+        return None
+    if norm(_expand(fi, init[0][1], (pn, v))) != f"len({pn})":
+        return None
+    st = inside[0][0]
+    dec = (isinstance(st, ast.AugAssign) and isinstance(st.op, ast.Sub) and const_value(st.value) == 1) or \
+        (isinstance(st, ast.Assign) and inside[0][1] is not None and inside[0][2] is None and norm(inside[0][1]) == f"{v} - 1")
+    if not (w.body and w.body[-1] is st and dec):
+        return None
+    # no `continue` of this loop (it would skip the decrement), the initialisation is the statement before the loop's level
+    for n in ast.walk(w):
+        if isinstance(n, ast.Continue) and next((a for a in ancestors(n) if isinstance(a, (ast.For, ast.While))), None) is w:
+            return None
+    return v
+
+
+def _level_prefixes(ctx: Ctx, fr: _Frame, loop: ast.For, pn: str) -> str | None:
+    """`for P in (prefix[:i] for i in <len(prefix) down to 0>)` or `for P in generator_helper(prefix)` that yields exactly
+    those: the loop target then IS the level's prefix.  Returns the target name."""
+    if not isinstance(loop.target, ast.Name):
+        return None
+    fi = fr.fi
+    it = _strip_snapshot(resolve(fi, _strip_snapshot(loop.iter)))
+    if isinstance(it, (ast.ListComp, ast.GeneratorExp)) and len(it.generators) == 1 and not it.generators[0].ifs and isinstance(it.generators[0].target, ast.Name):
+        g = it.generators[0]
+        if _descending_from_len(fi, g.iter, pn) and norm(it.elt) == f"{pn}[:{g.target.id}]":
+            return loop.target.id
+        return None
+    if isinstance(it, ast.Call):
+        tgt, binds_self = _callee(ctx, fi, it)
+        if isinstance(tgt, FuncInfo) and _is_generator(tgt.node) and not tgt.is_async:
+            env = _bind_args(tgt.node, it, binds_self)
+            if env is None:
+                return None
+            pp = [p for p, x in env.items() if isinstance(x, ast.Name) and x.id == pn]
+            body = [s for s in tgt.node.body if not (isinstance(s, ast.Expr) and isinstance(s.value, ast.Constant))]
+            if len(pp) == 1 and len(body) == 1 and isinstance(body[0], ast.For) and isinstance(body[0].target, ast.Name) and not body[0].orelse \
+                    and _descending_from_len(tgt, body[0].iter, pp[0]) and len(body[0].body) == 1 and isinstance(body[0].body[0], ast.Expr) \
+                    and isinstance(body[0].body[0].value, ast.Yield) and body[0].body[0].value.value is not None \
+                    and norm(body[0].body[0].value.value) == f"{pp[0]}[:{body[0].target.id}]":
+                return loop.target.id
+    return None
+def _prefix_empty(conds: tuple) -> bool:
+    """The path conditions say that the prefix has no characters."""
+    for t, pol in conds:
+        for f in _atoms_with_polarity(t, pol):
+            l, r = norm(f.left), (norm(f.right) if f.right is not None else None)
+            if f.op == "truthy" and not f.pos and l in ("len(self.prefix_id)", "self.prefix_id"):
+                return True
+            if f.op == "eq" and f.pos and ({l, r} == {"len(self.prefix_id)", "0"} or {l, r} == {"self.prefix_id", "''"} or {l, r} == {_WIDTH, "160"}):
+                return True
+            if f.op == "lt" and not f.pos and (l, r) == ("0", "len(self.prefix_id)"):
+                return True
+    return False
+
+
+def _shifted_prefix(full: ast.AST, conds: tuple) -> bool:
+    """The id is computed as integer: (int(prefix, 2) << W) | tail  (also + / * 2**W) with W = 160 - len(prefix): the
+    prefix bits are the leading bits.  int('' , 2) does not exist, so an empty prefix may be spelled 0."""
+    def is_prefix_int(x: ast.AST) -> bool:
+        x = strip_cast(x)
+        if isinstance(x, ast.Call) and chain(x.func) == "int" and len(x.args) == 2 and const_value(x.args[1]) == 2 and chain(strip_cast(x.args[0])) == "self.prefix_id":
+            return True
+        return isinstance(x, ast.Constant) and x.value == 0 and not isinstance(x.value, bool) and _prefix_empty(conds)
+
+    def shifted(x: ast.AST) -> bool:
+        x = strip_cast(x)
+        if isinstance(x, ast.BinOp) and isinstance(x.op, ast.LShift):
+            return is_prefix_int(x.left) and norm(x.right) == _WIDTH
+        if isinstance(x, ast.BinOp) and isinstance(x.op, ast.Mult):
+            for a, b in ((x.left, x.right), (x.right, x.left)):
+                b = strip_cast(b)
+                if is_prefix_int(a) and isinstance(b, ast.BinOp) and ((isinstance(b.op, ast.Pow) and const_value(b.left) == 2 and norm(b.right) == _WIDTH)
+                                                                     or (isinstance(b.op, ast.LShift) and const_value(b.left) == 1 and norm(b.right) == _WIDTH)):
+                    return True
+        return False
+    for n in ast.walk(full):
+        if isinstance(n, ast.BinOp) and isinstance(n.op, (ast.BitOr, ast.Add)) and (shifted(n.left) or shifted(n.right)):
+            return True
+    return False
+
+
+def _bytewise_pack(full: ast.AST) -> ast.AST | None:
+    """bytes(int(S[at:at + 8], 2) for at in range(0, len(S), 8)): the bit string S packed most significant bit first, 8
+    characters per byte - 20 bytes for the 160 characters prefix + suffix.  Returns S."""
+    for n in ast.walk(full):
+        if isinstance(n, ast.Call) and chain(n.func) in ("bytes", "bytearray") and len(n.args) == 1 and isinstance(n.args[0], (ast.GeneratorExp, ast.ListComp)) \
+                and len(n.args[0].generators) == 1 and not n.args[0].generators[0].ifs and isinstance(n.args[0].generators[0].target, ast.Name):
+            g, elt = n.args[0].generators[0], strip_cast(n.args[0].elt)
+            at = g.target.id
+            r = strip_cast(g.iter)
+            if not (isinstance(elt, ast.Call) and chain(elt.func) == "int" and len(elt.args) == 2 and const_value(elt.args[1]) == 2):
+                continue
+            sl = strip_cast(elt.args[0])
+            if not (isinstance(sl, ast.Subscript) and isinstance(sl.slice, ast.Slice) and sl.slice.step is None and sl.slice.lower is not None and norm(sl.slice.lower) == at
+                    and sl.slice.upper is not None and norm(sl.slice.upper) in (f"{at} + 8", f"8 + {at}")):
+                continue
+            if isinstance(r, ast.Call) and chain(r.func) == "range" and len(r.args) == 3 and const_value(r.args[0]) == 0 and const_value(r.args[2]) == 8 \
+                    and norm(r.args[1]) in (f"len({norm(sl.value)})", "160"):
+                return sl.value
+    return None
+
+
+def _random_width_ok(c: ast.Call) -> bool:
+    """the call draws uniformly from [0, 2 ** (160 - len(prefix)) )"""
+    name = call_name(c)
+    a = c.args
+    if c.keywords:
+        return False
+
+    def pow2(e) -> bool:                       # 2 ** W  /  1 << W
+        e = strip_cast(e)
+        if isinstance(e, ast.BinOp) and isinstance(e.op, ast.Pow):
+            return const_value(e.left) == 2 and norm(e.right) == _WIDTH
+        if isinstance(e, ast.BinOp) and isinstance(e.op, ast.LShift):
+            return const_value(e.left) == 1 and norm(e.right) == _WIDTH
+        return False
+    if name == "getrandbits" and len(a) == 1:
+        return norm(a[0]) == _WIDTH
+    if name == "randrange" and len(a) == 1:
+        return pow2(a[0])
+    if name == "randrange" and len(a) == 2:
+        return const_value(a[0]) == 0 and pow2(a[1])
+    if name == "randint" and len(a) == 2 and const_value(a[0]) == 0:
+        hi = strip_cast(a[1])
+        return isinstance(hi, ast.BinOp) and isinstance(hi.op, ast.Sub) and const_value(hi.right) == 1 and pow2(hi.left)
+    return False
+
+
+def _twenty_bytes(full: ast.AST) -> bool:
+    """the integer is rendered as exactly 20 bytes (40 hex digits / to_bytes(20, 'big'))"""
+    for n in ast.walk(full):
+        if isinstance(n, ast.Call) and chain(n.func) == "format" and len(n.args) == 2 and const_value(n.args[1]) in ("040X", "040x"):
+            return True
+        if isinstance(n, ast.FormattedValue) and isinstance(n.format_spec, ast.JoinedStr) and len(n.format_spec.values) == 1 \
+                and const_value(n.format_spec.values[0]) in ("040X", "040x"):
+            return True
+        if isinstance(n, ast.Call) and isinstance(n.func, ast.Attribute) and n.func.attr == "to_bytes" and n.args and const_value(n.args[0]) == 20:
+            order = arg(n, 1, "byteorder")
+            if order is not None and const_value(order) == "big":
+                return True
+        if isinstance(n, ast.Call) and isinstance(n.func, ast.Attribute) and n.func.attr == "format" and const_value(n.func.value) in ("{:040X}", "{:040x}", "{0:040X}", "{0:040x}"):
+            return True
+    return False
+
+
 def rule_refresh_id(ctx: Ctx) -> None:
     repo = ctx.repo
     fi = repo.method("Bucket", "generate_id", RT)
@@ -516,37 +3240,110 @@ def rule_refresh_id(ctx: Ctx) -> None:
     except _Unsupported:
         values = [(r, (), _expand(fi, r.value)) for r in rets]
 
+    def string_builder(x: ast.AST) -> bool:
+        x = strip_cast(x)
+        return isinstance(x, (ast.BinOp, ast.JoinedStr, ast.IfExp, ast.Attribute, ast.Name, ast.Constant))
+
+    consts = {}
+    if fi.cls is not None:
+        for c in fi.cls.mro():
+            for name, x in c.attrs.items():
+                if isinstance(x, ast.Constant) and isinstance(x.value, (int, str)) and not isinstance(x.value, bool):
+                    consts.setdefault(name, x)
+
+    class _K(ast.NodeTransformer):
+        def visit_Attribute(self, n):
+            self.generic_visit(n)
+            if isinstance(n.value, ast.Name) and n.value.id in ("self", "cls", fi.cls.name if fi.cls else "") and n.attr in consts and isinstance(n.ctx, ast.Load):
+                return ast.copy_location(ast.Constant(value=consts[n.attr].value), n)
+            return n
+    def dewalrus(x: ast.AST) -> ast.AST:
+        """`(w := E)` ... `w`: inside one expression the name stands for E (single binding per name; the binding is
+        evaluated first: test of a conditional expression / left operand)"""
+        binds: dict[str, ast.AST] = {}
+        for n in ast.walk(x):
+            if isinstance(n, ast.NamedExpr) and isinstance(n.target, ast.Name):
+                if n.target.id in binds and ast.dump(binds[n.target.id]) != ast.dump(n.value):
+                    return x
+                binds[n.target.id] = n.value
+        if not binds:
+            return x
+
+        class W(ast.NodeTransformer):
+            def visit_NamedExpr(self, n):
+                return self.visit(n.value)
+
+            def visit_Name(self, n):
+                return self.visit(_copy(binds[n.id])) if isinstance(n.ctx, ast.Load) and n.id in binds else n
+        return W().visit(_copy(x))
+    values = [(r, tuple((_K().visit(dewalrus(_copy(t))), pol) for t, pol in conds), _K().visit(dewalrus(_copy(full)))) for r, conds, full in values]
+
     for r in rets:
         alts = [a for rr, conds, full in values if rr is r for a in _alternatives(full, conds)]
-        uses_ok = lead_ok = w_ok = hexok = bool(alts)
+        uses_ok = bool(alts)
+        lead: bool | None = True if alts else None
+        width: bool | None = True if alts else None
+        render: bool | None = True if alts else None
         for conds, full in alts:
             # occurrences of self.prefix_id that are not under len(...)
             under_len = {id(a) for n in ast.walk(full) if isinstance(n, ast.Call) and chain(n.func) == "len" for a in n.args}
             data_uses = [n for n in ast.walk(full) if isinstance(n, ast.Attribute) and chain(n) == "self.prefix_id" and id(n) not in under_len]
-            uses_ok = uses_ok and bool(data_uses)
-            # prefix must be the leading part of the binary string handed to int(.., 2)
-            lead_ok = lead_ok and any(isinstance(n, ast.Call) and chain(n.func) == "int" and len(n.args) == 2 and const_value(n.args[1]) == 2
-                                      and _leads_with_prefix(n.args[0]) for n in ast.walk(full))
+            uses_ok = uses_ok and (bool(data_uses) or _prefix_empty(conds))
+            # prefix must be the leading part of the binary string handed to int(.., 2) - or the leading bits of the integer
+            ints = [n for n in ast.walk(full) if isinstance(n, ast.Call) and chain(n.func) == "int" and len(n.args) == 2 and const_value(n.args[1]) == 2]
+            packed = _bytewise_pack(full)
+            if any(_leads_with_prefix(n.args[0]) for n in ints) or _shifted_prefix(full, conds) or (packed is not None and _leads_with_prefix(packed)):
+                pass
+            elif any(string_builder(n.args[0]) and "self.prefix_id" in norm(n.args[0]) for n in ints) or \
+                    any(isinstance(n, ast.BinOp) and isinstance(n.op, (ast.LShift, ast.BitOr)) for n in ast.walk(full)) and not ints:
+                lead = False                                              # the prefix is in the bit string / integer, but not as its leading part
+            else:
+                lead = None if lead is not False else False
             # random part is exactly 160 - len(prefix) bits; it may be missing only when that width is 0
-            rnd = [n for n in ast.walk(full) if isinstance(n, ast.Call) and (chain(n.func) or "").startswith("random.")]
-            w = False
-            for c in rnd:
-                if call_name(c) == "getrandbits" and len(c.args) == 1 and norm(c.args[0]) == _WIDTH:
-                    w = True
-                if call_name(c) == "randint" and len(c.args) == 2 and norm(c.args[0]) == "0" and norm(c.args[1]).replace(" ", "") in ("2**(160-len(self.prefix_id))-1",):
-                    w = True
-            if not rnd and _no_suffix_needed(conds):
-                w = True
-            w_ok = w_ok and w
-            hexok = hexok and any(isinstance(n, ast.Call) and chain(n.func) == "format" and len(n.args) == 2 and const_value(n.args[1]) in ("040X", "040x")
-                                  for n in ast.walk(full))
+            rnd = [n for n in ast.walk(full) if isinstance(n, ast.Call) and (chain(n.func) or "").startswith(("random.", "secrets."))]
+            if any(call_name(c) not in ("getrandbits", "randrange", "randint") for c in rnd):
+                width = None if width is not False else False             # another random source: its width cannot be read off the call
+            elif not ((bool(rnd) and all(_random_width_ok(c) for c in rnd)) or (not rnd and _no_suffix_needed(conds))):
+                width = False
+            if not _twenty_bytes(full) and packed is None:
+                wrong = any(isinstance(n, ast.Call) and chain(n.func) == "format" and len(n.args) == 2 and isinstance(const_value(n.args[1]), str)
+                            and const_value(n.args[1])[-1:] in ("X", "x") for n in ast.walk(full)) or \
+                    any(isinstance(n, ast.Call) and isinstance(n.func, ast.Attribute) and n.func.attr == "to_bytes" for n in ast.walk(full))
+                render = False if wrong else (None if render is not False else False)
         ctx.check(uses_ok, "refresh-id-in-bucket", fi, r, "the bucket's prefix characters flow into the generated id",
                   "generate_id depends on the prefix only through len(self.prefix_id): the refresh id does not lie inside the bucket (it starts with zero bits)")
         if uses_ok:
-            ctx.check(lead_ok, "refresh-id-in-bucket", fi, r, "prefix is the leading part of the binary id", "the prefix is not the leading bits of the generated id")
-            ctx.check(w_ok, "refresh-id-in-bucket", fi, r, "random part is 160 - len(prefix) bits wide (absent only when that is 0)",
-                      "the random part of the refresh id does not have 160-len(prefix) bits")
-            ctx.check(hexok, "refresh-id-in-bucket", fi, r, "id rendered as 20 bytes", "the generated id is not 20 bytes")
+            _verdict(ctx, lead, "refresh-id-in-bucket", fi, r, "prefix is the leading part of the binary id", "the prefix is not the leading bits of the generated id",
+                     unknown="how the prefix characters are turned into the leading bits of the id (int(prefix + suffix, 2) / shift) is not recognised")
+            _verdict(ctx, width, "refresh-id-in-bucket", fi, r, "random part is 160 - len(prefix) bits wide (absent only when that is 0)",
+                     "the random part of the refresh id does not have 160-len(prefix) bits",
+                     unknown="generate_id draws its random part with a call whose width cannot be read off (not getrandbits / randrange / randint)")
+            _verdict(ctx, render, "refresh-id-in-bucket", fi, r, "id rendered as 20 bytes", "the generated id is not 20 bytes",
+                     unknown="how the integer is rendered as 20 bytes (format '040X' + unhexlify / to_bytes(20, 'big')) is not recognised")
+
+
+def rule_trie(ctx: Ctx) -> None:
+    """RoutingTable.add replaces a split bucket by `del self.trie[prefix]`; the buckets stay prefix-free only if that
+    deletion really takes the value out of the trie: Trie.__delitem__ either raises or has cleared the found node's
+    value when it returns - no path returns silently without doing so."""
+    di = ctx.repo.method("Trie", "__delitem__", TRIE)
+    cl = _Closure(ctx, di)
+    clears = []
+    for fr, n in cl.nodes:
+        for t, v in _assign_targets(n):
+            if isinstance(t, ast.Attribute) and t.attr == "value" and v is not None and isinstance(strip_cast(v), ast.Constant) and strip_cast(v).value is None:
+                clears.append((fr, n))
+        if isinstance(n, ast.Delete) and any(isinstance(t, ast.Attribute) and t.attr == "value" for t in n.targets):
+            clears.append((fr, n))
+        if isinstance(n, ast.Call) and chain(n.func) == "setattr" and len(n.args) == 3 and const_value(n.args[1]) == "value" and const_value(n.args[2]) is None:
+            clears.append((fr, n))
+    ctx.anchor(clears, "<node>.value = None in Trie.__delitem__")
+    cfg = ctx.cfg(di)
+    through = [x for fr, n in clears for x in cfg.nodes_for(cl.lifted(fr, n, cl.root))]
+    silent = cfg.exit in cfg.reach(cut_out_normal=through)
+    ctx.check(not silent, "trie-delete", di, di.node, "Trie.__delitem__ returns only after clearing the stored value (or raises)",
+              "Trie.__delitem__ can return without removing the value: `del trie[key]` is silently a no-op on some path, so the bucket that "
+              "RoutingTable.add replaces by its two halves stays in the tree next to them (buckets no longer prefix-free, closest_nodes sees stale nodes)")
 
 
 def run(ctx: Ctx) -> None:
@@ -554,13 +3351,34 @@ def run(ctx: Ctx) -> None:
     rule_split(ctx)
     rule_closest(ctx)
     rule_refresh_id(ctx)
+    rule_trie(ctx)
+    finish_undecided(ctx)
     ctx.assume("induction argument: (1) every insert satisfies owns and capacity, (2) split replaces a leaf by its two children whose prefixes partition the parent's, "
                "(3) nothing else writes the trie => buckets stay a prefix-free complete cover and each node sits in its owner; nodes in the subtree of a longer common "
                "prefix are XOR-closer than nodes outside it => the walk is exact once a complete level holds >= k live nodes")
-    ctx.assume("Trie (dht/trie.py) implements longest-prefix / suffixes / delete correctly: covered by its unit tests, not by this analysis")
+    ctx.assume("Trie (dht/trie.py) implements longest-prefix / suffixes / the pruning of delete correctly: covered by its unit tests, not by this analysis "
+               "(decided here: a delete never returns without having cleared the value)")
 
 
 WITNESSES = [
+    {"name": "parent deletion skipped for the root bucket", "file": RT, "rule": "split-partition",
+     "old": "                    del self.trie[bucket.prefix_id]\n",
+     "new": "                    if bucket.prefix_id:\n                        del self.trie[bucket.prefix_id]\n"},
+    {"name": "node written into a half without Bucket.add", "file": RT, "rule": "bucket-insert",
+     "old": "                    # Retry\n                    return self.add(node)",
+     "new": "                    half = bucket_0 if bucket_0.owns(node.id) else bucket_1\n                    half.nodes[node.id] = node\n                    return self.add(node)"},
+    {"name": "get_bucket prefers the root bucket", "file": RT, "rule": "bucket-insert",
+     "old": "return self.trie.longest_prefix_value(node_id_binary, default=None) or self.trie[\"\"]",
+     "new": "return self.trie[\"\"] or self.trie.longest_prefix_value(node_id_binary, default=None)"},
+    {"name": "eviction although the bucket has room", "file": RT, "rule": "bucket-insert",
+     "old": "        if len(self.nodes) >= self.max_size:\n            for n in list(self.nodes.values()):",
+     "new": "        if len(self.nodes) >= self.max_size - 1:\n            for n in list(self.nodes.values()):"},
+    {"name": "capacity flag taken before the bucket is refilled (stale flag)", "file": RT, "rule": "bucket-insert",
+     "old": '        # Make room if needed\n        if len(self.nodes) >= self.max_size:\n            for n in list(self.nodes.values()):\n                if n.status == NODE_STATUS_BAD:\n                    self.nodes.pop(n.id)\n                    break\n\n            for n in list(self.nodes.values()):\n                if node.rtt and n.rtt / node.rtt >= 2.0:\n                    self.nodes.pop(n.id)\n                    break\n\n        # Insert\n        if len(self.nodes) < self.max_size:\n',
+     "new": '        has_room = len(self.nodes) < self.max_size\n        # Make room if needed\n        if len(self.nodes) >= self.max_size:\n            for n in list(self.nodes.values()):\n                if n.status == NODE_STATUS_BAD:\n                    self.nodes.pop(n.id)\n                    break\n\n            for n in list(self.nodes.values()):\n                if node.rtt and n.rtt / node.rtt >= 2.0:\n                    self.nodes.pop(n.id)\n                    break\n            self.nodes.update(node.bucket.nodes if node.bucket else {})\n\n        # Insert\n        if has_room:\n'},
+    {"name": "trie delete of the root key silently does nothing", "file": TRIE, "rule": "trie-delete",
+     "old": "        rm_node: Node[ValueType] = cast(\"Node[ValueType]\", node)\n",
+     "new": "        if not key:\n            return\n        rm_node: Node[ValueType] = cast(\"Node[ValueType]\", node)\n"},
     {"name": "pre-fix: refresh id ignores prefix", "file": RT, "rule": "refresh-id-in-bucket",
      "old": "        rand_node_id_bin = self.prefix_id + suffix\n", "new": "        rand_node_id_bin = \"0\" * len(self.prefix_id) + suffix\n"},
     {"name": "refresh id random part too wide", "file": RT, "rule": "refresh-id-in-bucket",
